@@ -2277,623 +2277,1383 @@ let box_alloc k o m =
           next_aid = x0.next_aid; log = x0.log })) (fun a -> N.add a sz) m))
   | None -> emit_bad BadState o m
 
-(** val run : conf -> prog -> nat -> call -> machine -> machine * outcome **)
+(** val step_script :
+    (call -> machine -> machine * outcome) -> id0 option -> cmd list ->
+    machine -> machine * outcome **)
 
-let rec run k p fuel c m =
-  match fuel with
-  | O -> (m, OFuel)
-  | S n0 ->
-    (match c with
-     | KCmd (self, c0) ->
-       (match c0 with
-        | CNew (dst, cls0) ->
-          let (m0, r) = resolve self dst m in
-          (match r with
-           | Some r0 ->
-             let (m1, o) = new_node p cls0 m0 in
-             let (m2, t) =
-               if k.k_auto then run k p n0 KTrigger m1 else (m1, ONormal)
-             in
-             (match t with
-              | ONormal ->
-                let m3 = box_alloc k o m2 in
-                let (m4, r') = run k p n0 (KStore (r0, o)) m3 in
-                (match r' with
-                 | ONormal -> ok m4 ROk
-                 | _ -> (m4, r'))
-              | OPanic -> unwinding (run k p n0 (KDropValue o)) m2
-              | _ -> (m2, t))
-           | None -> ok m0 RSkip)
-        | CClone (src, dst) ->
-          let (m0, rs) = resolve self src m in
-          let (m1, rd) = resolve self dst m0 in
-          (match rs with
-           | Some rs0 ->
-             (match rd with
-              | Some rd0 ->
-                (match read_loc rs0 m1 with
-                 | Some o ->
-                   (match inc_rc (hdr_of m1 o) with
-                    | Some h ->
-                      let m2 = remove_from_list o (uhdr o (fun _ -> h) m1) in
-                      let (m3, r') = run k p n0 (KStore (rd0, o)) m2 in
-                      (match r' with
-                       | ONormal -> ok m3 ROk
-                       | _ -> (m3, r'))
-                    | None -> (m1, (raise m1)))
-                 | None -> ok m1 RSkip)
-              | None -> ok m1 RSkip)
-           | None -> ok m1 RSkip)
-        | CDrop l ->
-          let (m0, r) = resolve self l m in
-          (match r with
-           | Some r0 ->
-             (match read_loc r0 m0 with
-              | Some o ->
-                let (m1, r') = run k p n0 (KDropCc o) (write_loc r0 None m0)
-                in
-                (match r' with
-                 | ONormal -> ok m1 ROk
-                 | _ -> (m1, r'))
-              | None -> ok m0 RSkip)
-           | None -> ok m0 RSkip)
-        | CMove (src, dst) ->
-          let (m0, rs) = resolve self src m in
-          let (m1, rd) = resolve self dst m0 in
-          (match rs with
-           | Some rs0 ->
-             (match rd with
-              | Some rd0 ->
-                (match read_loc rs0 m1 with
-                 | Some o ->
-                   let (m2, r') =
-                     run k p n0 (KStore (rd0, o)) (write_loc rs0 None m1)
+let step_script rec0 self cs m =
+  match cs with
+  | [] -> (m, ONormal)
+  | c :: cs' ->
+    let (m0, r) = rec0 (KCmd (self, c)) m in
+    (match r with
+     | ONormal -> rec0 (KScript (self, cs')) m0
+     | _ -> (m0, r))
+
+(** val step_store :
+    (call -> machine -> machine * outcome) -> rloc -> id0 -> machine ->
+    machine * outcome **)
+
+let step_store rec0 r v m =
+  let old = read_loc r m in
+  let m0 = write_loc r (Some v) m in
+  (match old with
+   | Some t -> rec0 (KDropCc t) m0
+   | None -> (m0, ONormal))
+
+(** val step_drop_cc :
+    conf -> prog -> (call -> machine -> machine * outcome) -> id0 -> machine
+    -> machine * outcome **)
+
+let step_drop_cc k p rec0 o m =
+  match get m o with
+  | Some x ->
+    let m0 = match x.o_box with
+             | BAlloc -> m
+             | _ -> emit_bad UseAfterFree o m
+    in
+    let h = x.o_hdr in
+    if is_in_list_or_queue h
+    then ((dec_rc_m o m0), ONormal)
+    else if N.eqb h.h_rc (Npos XH)
+         then let fin_step = fun m1 ->
+                if (&&) k.k_fin (needs_fin h)
+                then let old_f = m1.st_finalizing in
+                     let m2 =
+                       set (fun m2 -> m2.st_finalizing) (fun f ->
+                         let b = fun r -> f r.st_finalizing in
+                         (fun x0 -> { heap = x0.heap; pc = x0.pc; pc_size =
+                         x0.pc_size; pc_alive = x0.pc_alive; st_collecting =
+                         x0.st_collecting; st_finalizing = (b x0);
+                         st_dropping = x0.st_dropping; st_alloc =
+                         x0.st_alloc; st_exec = x0.st_exec; cf_thr =
+                         x0.cf_thr; cf_pnum = x0.cf_pnum; cf_pexp =
+                         x0.cf_pexp; cf_buf = x0.cf_buf; cf_auto =
+                         x0.cf_auto; slots = x0.slots; wslots = x0.wslots;
+                         cslots = x0.cslots; values = x0.values; bag =
+                         x0.bag; wparam = x0.wparam; fuse_trace =
+                         x0.fuse_trace; fuse_fin = x0.fuse_fin; fuse_drop =
+                         x0.fuse_drop; fuse_action = x0.fuse_action;
+                         fuse_closure = x0.fuse_closure; panicking =
+                         x0.panicking; next_aid = x0.next_aid; log = x0.log }))
+                         (fun _ -> true) m1
+                     in
+                     let m3 = uhdr o (set_fin true) m2 in
+                     let (m4, r) =
+                       if x.o_ismap
+                       then (m3, ONormal)
+                       else let m4 = emit (ECb (KFin, o, (cur_flags k m3))) m3
+                            in
+                            let (m5, boom) = tick KFin m4 in
+                            if boom
+                            then (m5, (raise m5))
+                            else rec0 (KScript ((Some o),
+                                   (oscript p (class_of p x.o_cls).c_fin))) m5
+                     in
+                     (match r with
+                      | ONormal ->
+                        if N.eqb (hdr_of m4 o).h_rc (Npos XH)
+                        then (((set (fun m5 -> m5.st_finalizing) (fun f ->
+                                 let b = fun r0 -> f r0.st_finalizing in
+                                 (fun x0 -> { heap = x0.heap; pc = x0.pc;
+                                 pc_size = x0.pc_size; pc_alive =
+                                 x0.pc_alive; st_collecting =
+                                 x0.st_collecting; st_finalizing = (b x0);
+                                 st_dropping = x0.st_dropping; st_alloc =
+                                 x0.st_alloc; st_exec = x0.st_exec; cf_thr =
+                                 x0.cf_thr; cf_pnum = x0.cf_pnum; cf_pexp =
+                                 x0.cf_pexp; cf_buf = x0.cf_buf; cf_auto =
+                                 x0.cf_auto; slots = x0.slots; wslots =
+                                 x0.wslots; cslots = x0.cslots; values =
+                                 x0.values; bag = x0.bag; wparam = x0.wparam;
+                                 fuse_trace = x0.fuse_trace; fuse_fin =
+                                 x0.fuse_fin; fuse_drop = x0.fuse_drop;
+                                 fuse_action = x0.fuse_action; fuse_closure =
+                                 x0.fuse_closure; panicking = x0.panicking;
+                                 next_aid = x0.next_aid; log = x0.log }))
+                                 (fun _ -> old_f) m4), ONormal), true)
+                        else (((set (fun m5 -> m5.st_finalizing) (fun f ->
+                                 let b = fun r0 -> f r0.st_finalizing in
+                                 (fun x0 -> { heap = x0.heap; pc = x0.pc;
+                                 pc_size = x0.pc_size; pc_alive =
+                                 x0.pc_alive; st_collecting =
+                                 x0.st_collecting; st_finalizing = (b x0);
+                                 st_dropping = x0.st_dropping; st_alloc =
+                                 x0.st_alloc; st_exec = x0.st_exec; cf_thr =
+                                 x0.cf_thr; cf_pnum = x0.cf_pnum; cf_pexp =
+                                 x0.cf_pexp; cf_buf = x0.cf_buf; cf_auto =
+                                 x0.cf_auto; slots = x0.slots; wslots =
+                                 x0.wslots; cslots = x0.cslots; values =
+                                 x0.values; bag = x0.bag; wparam = x0.wparam;
+                                 fuse_trace = x0.fuse_trace; fuse_fin =
+                                 x0.fuse_fin; fuse_drop = x0.fuse_drop;
+                                 fuse_action = x0.fuse_action; fuse_closure =
+                                 x0.fuse_closure; panicking = x0.panicking;
+                                 next_aid = x0.next_aid; log = x0.log }))
+                                 (fun _ -> old_f)
+                                 (add_to_list o (dec_rc_m o m4))), ONormal),
+                               false)
+                      | _ ->
+                        (((set (fun m5 -> m5.st_finalizing) (fun f ->
+                            let b = fun r0 -> f r0.st_finalizing in
+                            (fun x0 -> { heap = x0.heap; pc = x0.pc;
+                            pc_size = x0.pc_size; pc_alive = x0.pc_alive;
+                            st_collecting = x0.st_collecting; st_finalizing =
+                            (b x0); st_dropping = x0.st_dropping; st_alloc =
+                            x0.st_alloc; st_exec = x0.st_exec; cf_thr =
+                            x0.cf_thr; cf_pnum = x0.cf_pnum; cf_pexp =
+                            x0.cf_pexp; cf_buf = x0.cf_buf; cf_auto =
+                            x0.cf_auto; slots = x0.slots; wslots = x0.wslots;
+                            cslots = x0.cslots; values = x0.values; bag =
+                            x0.bag; wparam = x0.wparam; fuse_trace =
+                            x0.fuse_trace; fuse_fin = x0.fuse_fin;
+                            fuse_drop = x0.fuse_drop; fuse_action =
+                            x0.fuse_action; fuse_closure = x0.fuse_closure;
+                            panicking = x0.panicking; next_aid = x0.next_aid;
+                            log = x0.log })) (fun _ -> old_f) m4), r), false))
+                else ((m1, ONormal), true)
+              in
+              let (p0, go) = fin_step m0 in
+              let (m1, r) = p0 in
+              if negb go
+              then (m1, r)
+              else let m2 = dec_rc_m o m1 in
+                   let m3 = remove_from_list o m2 in
+                   let old_d = m3.st_dropping in
+                   let m4 =
+                     set (fun m4 -> m4.st_dropping) (fun f ->
+                       let b = fun r0 -> f r0.st_dropping in
+                       (fun x0 -> { heap = x0.heap; pc = x0.pc; pc_size =
+                       x0.pc_size; pc_alive = x0.pc_alive; st_collecting =
+                       x0.st_collecting; st_finalizing = x0.st_finalizing;
+                       st_dropping = (b x0); st_alloc = x0.st_alloc;
+                       st_exec = x0.st_exec; cf_thr = x0.cf_thr; cf_pnum =
+                       x0.cf_pnum; cf_pexp = x0.cf_pexp; cf_buf = x0.cf_buf;
+                       cf_auto = x0.cf_auto; slots = x0.slots; wslots =
+                       x0.wslots; cslots = x0.cslots; values = x0.values;
+                       bag = x0.bag; wparam = x0.wparam; fuse_trace =
+                       x0.fuse_trace; fuse_fin = x0.fuse_fin; fuse_drop =
+                       x0.fuse_drop; fuse_action = x0.fuse_action;
+                       fuse_closure = x0.fuse_closure; panicking =
+                       x0.panicking; next_aid = x0.next_aid; log = x0.log }))
+                       (fun _ -> true) m3
                    in
-                   (match r' with
-                    | ONormal -> ok m2 ROk
-                    | _ -> (m2, r'))
-                 | None -> ok m1 RSkip)
-              | None -> ok m1 RSkip)
+                   let m5 = if k.k_weak then uhdr o set_dropped m4 else m4 in
+                   let (m6, r0) = rec0 (KDropValue o) m5 in
+                   (match r0 with
+                    | ONormal ->
+                      let m7 = drop_metadata k o m6 in
+                      let m8 = dealloc k o m7 in
+                      ((set (fun m9 -> m9.st_dropping) (fun f ->
+                         let b = fun r1 -> f r1.st_dropping in
+                         (fun x0 -> { heap = x0.heap; pc = x0.pc; pc_size =
+                         x0.pc_size; pc_alive = x0.pc_alive; st_collecting =
+                         x0.st_collecting; st_finalizing = x0.st_finalizing;
+                         st_dropping = (b x0); st_alloc = x0.st_alloc;
+                         st_exec = x0.st_exec; cf_thr = x0.cf_thr; cf_pnum =
+                         x0.cf_pnum; cf_pexp = x0.cf_pexp; cf_buf =
+                         x0.cf_buf; cf_auto = x0.cf_auto; slots = x0.slots;
+                         wslots = x0.wslots; cslots = x0.cslots; values =
+                         x0.values; bag = x0.bag; wparam = x0.wparam;
+                         fuse_trace = x0.fuse_trace; fuse_fin = x0.fuse_fin;
+                         fuse_drop = x0.fuse_drop; fuse_action =
+                         x0.fuse_action; fuse_closure = x0.fuse_closure;
+                         panicking = x0.panicking; next_aid = x0.next_aid;
+                         log = x0.log })) (fun _ -> old_d) m8), ONormal)
+                    | _ ->
+                      ((set (fun m7 -> m7.st_dropping) (fun f ->
+                         let b = fun r1 -> f r1.st_dropping in
+                         (fun x0 -> { heap = x0.heap; pc = x0.pc; pc_size =
+                         x0.pc_size; pc_alive = x0.pc_alive; st_collecting =
+                         x0.st_collecting; st_finalizing = x0.st_finalizing;
+                         st_dropping = (b x0); st_alloc = x0.st_alloc;
+                         st_exec = x0.st_exec; cf_thr = x0.cf_thr; cf_pnum =
+                         x0.cf_pnum; cf_pexp = x0.cf_pexp; cf_buf =
+                         x0.cf_buf; cf_auto = x0.cf_auto; slots = x0.slots;
+                         wslots = x0.wslots; cslots = x0.cslots; values =
+                         x0.values; bag = x0.bag; wparam = x0.wparam;
+                         fuse_trace = x0.fuse_trace; fuse_fin = x0.fuse_fin;
+                         fuse_drop = x0.fuse_drop; fuse_action =
+                         x0.fuse_action; fuse_closure = x0.fuse_closure;
+                         panicking = x0.panicking; next_aid = x0.next_aid;
+                         log = x0.log })) (fun _ -> old_d) m6), r0))
+         else ((add_to_list o (dec_rc_m o m0)), ONormal)
+  | None -> ((emit_bad BadState o m), ONormal)
+
+(** val step_drop_value :
+    conf -> prog -> (call -> machine -> machine * outcome) -> id0 -> machine
+    -> machine * outcome **)
+
+let step_drop_value k p rec0 o m =
+  match get m o with
+  | Some x ->
+    (match x.o_vst with
+     | VLive ->
+       let m0 =
+         upd o (fun x0 ->
+           set (fun o0 -> o0.o_vst) (fun f ->
+             let v = fun r -> f r.o_vst in
+             (fun x1 -> { o_hdr = x1.o_hdr; o_vst = (v x1); o_box = x1.o_box;
+             o_side = x1.o_side; o_cls = x1.o_cls; o_ismap = x1.o_ismap;
+             o_fields = x1.o_fields; o_wfields = x1.o_wfields; o_cleaner =
+             x1.o_cleaner; o_borrowed = x1.o_borrowed; o_mslots =
+             x1.o_mslots; o_mfree = x1.o_mfree; o_mborrowed =
+             x1.o_mborrowed })) (fun _ -> VDropping) x0) m
+       in
+       if x.o_ismap
+       then let (m1, r) = rec0 (KDropMapSlots (o, O)) m0 in
+            ((upd o (fun x0 ->
+               set (fun o0 -> o0.o_vst) (fun f ->
+                 let v = fun r0 -> f r0.o_vst in
+                 (fun x1 -> { o_hdr = x1.o_hdr; o_vst = (v x1); o_box =
+                 x1.o_box; o_side = x1.o_side; o_cls = x1.o_cls; o_ismap =
+                 x1.o_ismap; o_fields = x1.o_fields; o_wfields =
+                 x1.o_wfields; o_cleaner = x1.o_cleaner; o_borrowed =
+                 x1.o_borrowed; o_mslots = x1.o_mslots; o_mfree = x1.o_mfree;
+                 o_mborrowed = x1.o_mborrowed })) (fun _ -> VDropped) x0) m1),
+            r)
+       else let m1 = emit (ECb (KDrop, o, (cur_flags k m0))) m0 in
+            let (m2, boom) = tick KDrop m1 in
+            let (m3, r) =
+              if boom
+              then (m2, (raise m2))
+              else rec0 (KScript ((Some o),
+                     (oscript p (class_of p x.o_cls).c_drop))) m2
+            in
+            let (m4, r0) =
+              match r with
+              | ONormal -> rec0 (KDropFields (o, O)) m3
+              | OPanic -> unwinding (rec0 (KDropFields (o, O))) m3
+              | _ -> (m3, r)
+            in
+            ((upd o (fun x0 ->
+               set (fun o0 -> o0.o_vst) (fun f ->
+                 let v = fun r1 -> f r1.o_vst in
+                 (fun x1 -> { o_hdr = x1.o_hdr; o_vst = (v x1); o_box =
+                 x1.o_box; o_side = x1.o_side; o_cls = x1.o_cls; o_ismap =
+                 x1.o_ismap; o_fields = x1.o_fields; o_wfields =
+                 x1.o_wfields; o_cleaner = x1.o_cleaner; o_borrowed =
+                 x1.o_borrowed; o_mslots = x1.o_mslots; o_mfree = x1.o_mfree;
+                 o_mborrowed = x1.o_mborrowed })) (fun _ -> VDropped) x0) m4),
+            r0)
+     | VUninit -> ((emit_bad UninitDrop o m), ONormal)
+     | VMoved ->
+       let m0 =
+         upd o (fun x0 ->
+           set (fun o0 -> o0.o_vst) (fun f ->
+             let v = fun r -> f r.o_vst in
+             (fun x1 -> { o_hdr = x1.o_hdr; o_vst = (v x1); o_box = x1.o_box;
+             o_side = x1.o_side; o_cls = x1.o_cls; o_ismap = x1.o_ismap;
+             o_fields = x1.o_fields; o_wfields = x1.o_wfields; o_cleaner =
+             x1.o_cleaner; o_borrowed = x1.o_borrowed; o_mslots =
+             x1.o_mslots; o_mfree = x1.o_mfree; o_mborrowed =
+             x1.o_mborrowed })) (fun _ -> VDropping) x0) m
+       in
+       if x.o_ismap
+       then let (m1, r) = rec0 (KDropMapSlots (o, O)) m0 in
+            ((upd o (fun x0 ->
+               set (fun o0 -> o0.o_vst) (fun f ->
+                 let v = fun r0 -> f r0.o_vst in
+                 (fun x1 -> { o_hdr = x1.o_hdr; o_vst = (v x1); o_box =
+                 x1.o_box; o_side = x1.o_side; o_cls = x1.o_cls; o_ismap =
+                 x1.o_ismap; o_fields = x1.o_fields; o_wfields =
+                 x1.o_wfields; o_cleaner = x1.o_cleaner; o_borrowed =
+                 x1.o_borrowed; o_mslots = x1.o_mslots; o_mfree = x1.o_mfree;
+                 o_mborrowed = x1.o_mborrowed })) (fun _ -> VDropped) x0) m1),
+            r)
+       else let m1 = emit (ECb (KDrop, o, (cur_flags k m0))) m0 in
+            let (m2, boom) = tick KDrop m1 in
+            let (m3, r) =
+              if boom
+              then (m2, (raise m2))
+              else rec0 (KScript ((Some o),
+                     (oscript p (class_of p x.o_cls).c_drop))) m2
+            in
+            let (m4, r0) =
+              match r with
+              | ONormal -> rec0 (KDropFields (o, O)) m3
+              | OPanic -> unwinding (rec0 (KDropFields (o, O))) m3
+              | _ -> (m3, r)
+            in
+            ((upd o (fun x0 ->
+               set (fun o0 -> o0.o_vst) (fun f ->
+                 let v = fun r1 -> f r1.o_vst in
+                 (fun x1 -> { o_hdr = x1.o_hdr; o_vst = (v x1); o_box =
+                 x1.o_box; o_side = x1.o_side; o_cls = x1.o_cls; o_ismap =
+                 x1.o_ismap; o_fields = x1.o_fields; o_wfields =
+                 x1.o_wfields; o_cleaner = x1.o_cleaner; o_borrowed =
+                 x1.o_borrowed; o_mslots = x1.o_mslots; o_mfree = x1.o_mfree;
+                 o_mborrowed = x1.o_mborrowed })) (fun _ -> VDropped) x0) m4),
+            r0)
+     | _ -> ((emit_bad DoubleDrop o m), ONormal))
+  | None -> ((emit_bad BadState o m), ONormal)
+
+(** val step_drop_fields :
+    (call -> machine -> machine * outcome) -> id0 -> nat -> machine ->
+    machine * outcome **)
+
+let step_drop_fields rec0 o j m =
+  match get m o with
+  | Some x ->
+    if decide (decide_rel Coq_Nat.lt_dec j (length x.o_fields))
+    then let f =
+           mjoin (Obj.magic (fun _ -> option_join))
+             (lookup0 list_lookup j x.o_fields)
+         in
+         let m0 =
+           upd o (fun x0 ->
+             set (fun o0 -> o0.o_fields) (fun f0 ->
+               let l = fun r -> f0 r.o_fields in
+               (fun x1 -> { o_hdr = x1.o_hdr; o_vst = x1.o_vst; o_box =
+               x1.o_box; o_side = x1.o_side; o_cls = x1.o_cls; o_ismap =
+               x1.o_ismap; o_fields = (l x1); o_wfields = x1.o_wfields;
+               o_cleaner = x1.o_cleaner; o_borrowed = x1.o_borrowed;
+               o_mslots = x1.o_mslots; o_mfree = x1.o_mfree; o_mborrowed =
+               x1.o_mborrowed })) (insert0 list_insert j None) x0) m
+         in
+         let (m1, r) =
+           match f with
+           | Some t -> rec0 (KDropCc (Obj.magic t)) m0
+           | None -> (m0, ONormal)
+         in
+         (match r with
+          | ONormal -> rec0 (KDropFields (o, (S j))) m1
+          | OPanic -> unwinding (rec0 (KDropFields (o, (S j)))) m1
+          | _ -> (m1, r))
+    else let m0 = fold_left (fun m0 w -> weak_drop_opt w m0) x.o_wfields m in
+         let m1 =
+           upd o (fun x0 ->
+             set (Obj.magic (fun o0 -> o0.o_wfields)) (fun f ->
+               let l = fun r -> Obj.magic f r.o_wfields in
+               (fun x1 -> { o_hdr = x1.o_hdr; o_vst = x1.o_vst; o_box =
+               x1.o_box; o_side = x1.o_side; o_cls = x1.o_cls; o_ismap =
+               x1.o_ismap; o_fields = x1.o_fields; o_wfields = (l x1);
+               o_cleaner = x1.o_cleaner; o_borrowed = x1.o_borrowed;
+               o_mslots = x1.o_mslots; o_mfree = x1.o_mfree; o_mborrowed =
+               x1.o_mborrowed }))
+               (fmap (fun _ _ -> list_fmap) (fun _ -> None)) x0) m0
+         in
+         (match x.o_cleaner with
+          | Some t ->
+            rec0 (KDropCc t)
+              (upd o (fun x0 ->
+                set (fun o0 -> o0.o_cleaner) (fun f ->
+                  let o0 = fun r -> f r.o_cleaner in
+                  (fun x1 -> { o_hdr = x1.o_hdr; o_vst = x1.o_vst; o_box =
+                  x1.o_box; o_side = x1.o_side; o_cls = x1.o_cls; o_ismap =
+                  x1.o_ismap; o_fields = x1.o_fields; o_wfields =
+                  x1.o_wfields; o_cleaner = (o0 x1); o_borrowed =
+                  x1.o_borrowed; o_mslots = x1.o_mslots; o_mfree =
+                  x1.o_mfree; o_mborrowed = x1.o_mborrowed })) (fun _ ->
+                  None) x0) m1)
+          | None -> (m1, ONormal))
+  | None -> ((emit_bad BadState o m), ONormal)
+
+(** val step_drop_map_slots :
+    (call -> machine -> machine * outcome) -> id0 -> nat -> machine ->
+    machine * outcome **)
+
+let step_drop_map_slots rec0 o j m =
+  match get m o with
+  | Some x ->
+    (match lookup0 list_lookup j x.o_mslots with
+     | Some sl ->
+       let m0 =
+         upd o (fun x0 ->
+           set (fun o0 -> o0.o_mslots) (fun f ->
+             let l = fun r -> f r.o_mslots in
+             (fun x1 -> { o_hdr = x1.o_hdr; o_vst = x1.o_vst; o_box =
+             x1.o_box; o_side = x1.o_side; o_cls = x1.o_cls; o_ismap =
+             x1.o_ismap; o_fields = x1.o_fields; o_wfields = x1.o_wfields;
+             o_cleaner = x1.o_cleaner; o_borrowed = x1.o_borrowed; o_mslots =
+             (l x1); o_mfree = x1.o_mfree; o_mborrowed = x1.o_mborrowed }))
+             (insert0 list_insert j MVacant) x0) m
+       in
+       let (m1, r) =
+         match sl with
+         | MVacant -> (m0, ONormal)
+         | MAction (aid, script) -> rec0 (KCleanRun (o, aid, script)) m0
+       in
+       (match r with
+        | ONormal -> rec0 (KDropMapSlots (o, (S j))) m1
+        | OPanic -> unwinding (rec0 (KDropMapSlots (o, (S j)))) m1
+        | _ -> (m1, r))
+     | None -> (m, ONormal))
+  | None -> ((emit_bad BadState o m), ONormal)
+
+(** val step_clean_run :
+    conf -> prog -> (call -> machine -> machine * outcome) -> id0 -> nat ->
+    nat -> machine -> machine * outcome **)
+
+let step_clean_run k p rec0 _ aid script m =
+  let m0 = emit (ECb (KAction, aid, (cur_flags k m))) m in
+  let (m1, boom) = tick KAction m0 in
+  if boom
+  then (m1, (raise m1))
+  else rec0 (KScript (None, (script_of p script))) m1
+
+(** val step_trigger :
+    conf -> (call -> machine -> machine * outcome) -> machine ->
+    machine * outcome **)
+
+let step_trigger k rec0 m =
+  if m.st_collecting
+  then (m, ONormal)
+  else if negb m.pc_alive
+       then (m, ONormal)
+       else if should_collect m
+            then let (m0, r) = rec0 KCollect m in
+                 (match r with
+                  | ONormal -> ((adjust_trigger_point k m0), ONormal)
+                  | _ -> (m0, r))
+            else (m, ONormal)
+
+(** val step_collect_cycles :
+    conf -> (call -> machine -> machine * outcome) -> machine ->
+    machine * outcome **)
+
+let step_collect_cycles k rec0 m =
+  if m.st_collecting
+  then (m, ONormal)
+  else let (m0, r) = if m.pc_alive then rec0 KCollect m else (m, ONormal) in
+       (match r with
+        | ONormal -> ((adjust_trigger_point k m0), ONormal)
+        | _ -> (m0, r))
+
+(** val step_collect :
+    conf -> (call -> machine -> machine * outcome) -> machine ->
+    machine * outcome **)
+
+let step_collect k rec0 m =
+  let m0 =
+    set (fun m0 -> m0.st_exec) (fun f ->
+      let n0 = fun r -> f r.st_exec in
+      (fun x -> { heap = x.heap; pc = x.pc; pc_size = x.pc_size; pc_alive =
+      x.pc_alive; st_collecting = x.st_collecting; st_finalizing =
+      x.st_finalizing; st_dropping = x.st_dropping; st_alloc = x.st_alloc;
+      st_exec = (n0 x); cf_thr = x.cf_thr; cf_pnum = x.cf_pnum; cf_pexp =
+      x.cf_pexp; cf_buf = x.cf_buf; cf_auto = x.cf_auto; slots = x.slots;
+      wslots = x.wslots; cslots = x.cslots; values = x.values; bag = x.bag;
+      wparam = x.wparam; fuse_trace = x.fuse_trace; fuse_fin = x.fuse_fin;
+      fuse_drop = x.fuse_drop; fuse_action = x.fuse_action; fuse_closure =
+      x.fuse_closure; panicking = x.panicking; next_aid = x.next_aid; log =
+      x.log })) N.succ
+      (set (fun m0 -> m0.st_collecting) (fun f ->
+        let b = fun r -> f r.st_collecting in
+        (fun x -> { heap = x.heap; pc = x.pc; pc_size = x.pc_size; pc_alive =
+        x.pc_alive; st_collecting = (b x); st_finalizing = x.st_finalizing;
+        st_dropping = x.st_dropping; st_alloc = x.st_alloc; st_exec =
+        x.st_exec; cf_thr = x.cf_thr; cf_pnum = x.cf_pnum; cf_pexp =
+        x.cf_pexp; cf_buf = x.cf_buf; cf_auto = x.cf_auto; slots = x.slots;
+        wslots = x.wslots; cslots = x.cslots; values = x.values; bag = x.bag;
+        wparam = x.wparam; fuse_trace = x.fuse_trace; fuse_fin = x.fuse_fin;
+        fuse_drop = x.fuse_drop; fuse_action = x.fuse_action; fuse_closure =
+        x.fuse_closure; panicking = x.panicking; next_aid = x.next_aid; log =
+        x.log })) (fun _ -> true) m)
+  in
+  let (m1, r) =
+    rec0 (KCollectLoop
+      (if k.k_fin then S (S (S (S (S (S (S (S (S (S O))))))))) else S O)) m0
+  in
+  ((set (fun m2 -> m2.st_collecting) (fun f ->
+     let b = fun r0 -> f r0.st_collecting in
+     (fun x -> { heap = x.heap; pc = x.pc; pc_size = x.pc_size; pc_alive =
+     x.pc_alive; st_collecting = (b x); st_finalizing = x.st_finalizing;
+     st_dropping = x.st_dropping; st_alloc = x.st_alloc; st_exec = x.st_exec;
+     cf_thr = x.cf_thr; cf_pnum = x.cf_pnum; cf_pexp = x.cf_pexp; cf_buf =
+     x.cf_buf; cf_auto = x.cf_auto; slots = x.slots; wslots = x.wslots;
+     cslots = x.cslots; values = x.values; bag = x.bag; wparam = x.wparam;
+     fuse_trace = x.fuse_trace; fuse_fin = x.fuse_fin; fuse_drop =
+     x.fuse_drop; fuse_action = x.fuse_action; fuse_closure = x.fuse_closure;
+     panicking = x.panicking; next_aid = x.next_aid; log = x.log }))
+     (fun _ -> false) m1), r)
+
+(** val step_collect_loop :
+    (call -> machine -> machine * outcome) -> nat -> machine ->
+    machine * outcome **)
+
+let step_collect_loop rec0 k m =
+  match k with
+  | O -> (m, ONormal)
+  | S k' ->
+    (match m.pc with
+     | [] -> (m, ONormal)
+     | _ :: _ ->
+       let (m0, r) = rec0 KCollectOnce m in
+       (match r with
+        | ONormal -> rec0 (KCollectLoop k') m0
+        | _ -> (m0, r)))
+
+(** val step_collect_once :
+    conf -> prog -> (call -> machine -> machine * outcome) -> machine ->
+    machine * outcome **)
+
+let step_collect_once k p rec0 m =
+  let old_f = m.st_finalizing in
+  let old_d = m.st_dropping in
+  let (m0, pr) =
+    trace_pass k p
+      (set (fun m0 -> m0.st_dropping) (fun f ->
+        let b = fun r -> f r.st_dropping in
+        (fun x -> { heap = x.heap; pc = x.pc; pc_size = x.pc_size; pc_alive =
+        x.pc_alive; st_collecting = x.st_collecting; st_finalizing =
+        x.st_finalizing; st_dropping = (b x); st_alloc = x.st_alloc;
+        st_exec = x.st_exec; cf_thr = x.cf_thr; cf_pnum = x.cf_pnum;
+        cf_pexp = x.cf_pexp; cf_buf = x.cf_buf; cf_auto = x.cf_auto; slots =
+        x.slots; wslots = x.wslots; cslots = x.cslots; values = x.values;
+        bag = x.bag; wparam = x.wparam; fuse_trace = x.fuse_trace; fuse_fin =
+        x.fuse_fin; fuse_drop = x.fuse_drop; fuse_action = x.fuse_action;
+        fuse_closure = x.fuse_closure; panicking = x.panicking; next_aid =
+        x.next_aid; log = x.log })) (fun _ -> false)
+        (set (fun m0 -> m0.st_finalizing) (fun f ->
+          let b = fun r -> f r.st_finalizing in
+          (fun x -> { heap = x.heap; pc = x.pc; pc_size = x.pc_size;
+          pc_alive = x.pc_alive; st_collecting = x.st_collecting;
+          st_finalizing = (b x); st_dropping = x.st_dropping; st_alloc =
+          x.st_alloc; st_exec = x.st_exec; cf_thr = x.cf_thr; cf_pnum =
+          x.cf_pnum; cf_pexp = x.cf_pexp; cf_buf = x.cf_buf; cf_auto =
+          x.cf_auto; slots = x.slots; wslots = x.wslots; cslots = x.cslots;
+          values = x.values; bag = x.bag; wparam = x.wparam; fuse_trace =
+          x.fuse_trace; fuse_fin = x.fuse_fin; fuse_drop = x.fuse_drop;
+          fuse_action = x.fuse_action; fuse_closure = x.fuse_closure;
+          panicking = x.panicking; next_aid = x.next_aid; log = x.log }))
+          (fun _ -> false) m))
+  in
+  let m1 =
+    set (fun m1 -> m1.st_dropping) (fun f ->
+      let b = fun r -> f r.st_dropping in
+      (fun x -> { heap = x.heap; pc = x.pc; pc_size = x.pc_size; pc_alive =
+      x.pc_alive; st_collecting = x.st_collecting; st_finalizing =
+      x.st_finalizing; st_dropping = (b x); st_alloc = x.st_alloc; st_exec =
+      x.st_exec; cf_thr = x.cf_thr; cf_pnum = x.cf_pnum; cf_pexp = x.cf_pexp;
+      cf_buf = x.cf_buf; cf_auto = x.cf_auto; slots = x.slots; wslots =
+      x.wslots; cslots = x.cslots; values = x.values; bag = x.bag; wparam =
+      x.wparam; fuse_trace = x.fuse_trace; fuse_fin = x.fuse_fin; fuse_drop =
+      x.fuse_drop; fuse_action = x.fuse_action; fuse_closure =
+      x.fuse_closure; panicking = x.panicking; next_aid = x.next_aid; log =
+      x.log })) (fun _ -> old_d)
+      (set (fun m1 -> m1.st_finalizing) (fun f ->
+        let b = fun r -> f r.st_finalizing in
+        (fun x -> { heap = x.heap; pc = x.pc; pc_size = x.pc_size; pc_alive =
+        x.pc_alive; st_collecting = x.st_collecting; st_finalizing = 
+        (b x); st_dropping = x.st_dropping; st_alloc = x.st_alloc; st_exec =
+        x.st_exec; cf_thr = x.cf_thr; cf_pnum = x.cf_pnum; cf_pexp =
+        x.cf_pexp; cf_buf = x.cf_buf; cf_auto = x.cf_auto; slots = x.slots;
+        wslots = x.wslots; cslots = x.cslots; values = x.values; bag = x.bag;
+        wparam = x.wparam; fuse_trace = x.fuse_trace; fuse_fin = x.fuse_fin;
+        fuse_drop = x.fuse_drop; fuse_action = x.fuse_action; fuse_closure =
+        x.fuse_closure; panicking = x.panicking; next_aid = x.next_aid; log =
+        x.log })) (fun _ -> old_f) m0)
+  in
+  (match pr with
+   | PDone l ->
+     (match l with
+      | [] -> (m1, ONormal)
+      | _ :: _ ->
+        if k.k_fin
+        then let old_f0 = m1.st_finalizing in
+             rec0 (KFinalizeList (l, l, false, old_f0))
+               (set (fun m2 -> m2.st_finalizing) (fun f ->
+                 let b = fun r -> f r.st_finalizing in
+                 (fun x -> { heap = x.heap; pc = x.pc; pc_size = x.pc_size;
+                 pc_alive = x.pc_alive; st_collecting = x.st_collecting;
+                 st_finalizing = (b x); st_dropping = x.st_dropping;
+                 st_alloc = x.st_alloc; st_exec = x.st_exec; cf_thr =
+                 x.cf_thr; cf_pnum = x.cf_pnum; cf_pexp = x.cf_pexp; cf_buf =
+                 x.cf_buf; cf_auto = x.cf_auto; slots = x.slots; wslots =
+                 x.wslots; cslots = x.cslots; values = x.values; bag = x.bag;
+                 wparam = x.wparam; fuse_trace = x.fuse_trace; fuse_fin =
+                 x.fuse_fin; fuse_drop = x.fuse_drop; fuse_action =
+                 x.fuse_action; fuse_closure = x.fuse_closure; panicking =
+                 x.panicking; next_aid = x.next_aid; log = x.log }))
+                 (fun _ -> true) m1)
+        else let old_d0 = m1.st_dropping in
+             rec0 (KDropList (l, l, old_d0))
+               (set (fun m2 -> m2.st_dropping) (fun f ->
+                 let b = fun r -> f r.st_dropping in
+                 (fun x -> { heap = x.heap; pc = x.pc; pc_size = x.pc_size;
+                 pc_alive = x.pc_alive; st_collecting = x.st_collecting;
+                 st_finalizing = x.st_finalizing; st_dropping = (b x);
+                 st_alloc = x.st_alloc; st_exec = x.st_exec; cf_thr =
+                 x.cf_thr; cf_pnum = x.cf_pnum; cf_pexp = x.cf_pexp; cf_buf =
+                 x.cf_buf; cf_auto = x.cf_auto; slots = x.slots; wslots =
+                 x.wslots; cslots = x.cslots; values = x.values; bag = x.bag;
+                 wparam = x.wparam; fuse_trace = x.fuse_trace; fuse_fin =
+                 x.fuse_fin; fuse_drop = x.fuse_drop; fuse_action =
+                 x.fuse_action; fuse_closure = x.fuse_closure; panicking =
+                 x.panicking; next_aid = x.next_aid; log = x.log }))
+                 (fun _ -> true) m1))
+   | PPanicked -> (m1, (raise m1))
+   | PFuel -> ((emit_bad Fuel O m1), OFuel))
+
+(** val step_finalize_list :
+    conf -> prog -> (call -> machine -> machine * outcome) -> id0 list -> id0
+    list -> bool -> bool -> machine -> machine * outcome **)
+
+let step_finalize_list k p rec0 l rest any old_f m =
+  match rest with
+  | [] ->
+    let m0 =
+      set (fun m0 -> m0.st_finalizing) (fun f ->
+        let b = fun r -> f r.st_finalizing in
+        (fun x -> { heap = x.heap; pc = x.pc; pc_size = x.pc_size; pc_alive =
+        x.pc_alive; st_collecting = x.st_collecting; st_finalizing = 
+        (b x); st_dropping = x.st_dropping; st_alloc = x.st_alloc; st_exec =
+        x.st_exec; cf_thr = x.cf_thr; cf_pnum = x.cf_pnum; cf_pexp =
+        x.cf_pexp; cf_buf = x.cf_buf; cf_auto = x.cf_auto; slots = x.slots;
+        wslots = x.wslots; cslots = x.cslots; values = x.values; bag = x.bag;
+        wparam = x.wparam; fuse_trace = x.fuse_trace; fuse_fin = x.fuse_fin;
+        fuse_drop = x.fuse_drop; fuse_action = x.fuse_action; fuse_closure =
+        x.fuse_closure; panicking = x.panicking; next_aid = x.next_aid; log =
+        x.log })) (fun _ -> old_f) m
+    in
+    if negb any
+    then let old_d = m0.st_dropping in
+         rec0 (KDropList (l, l, old_d))
+           (set (fun m1 -> m1.st_dropping) (fun f ->
+             let b = fun r -> f r.st_dropping in
+             (fun x -> { heap = x.heap; pc = x.pc; pc_size = x.pc_size;
+             pc_alive = x.pc_alive; st_collecting = x.st_collecting;
+             st_finalizing = x.st_finalizing; st_dropping = (b x); st_alloc =
+             x.st_alloc; st_exec = x.st_exec; cf_thr = x.cf_thr; cf_pnum =
+             x.cf_pnum; cf_pexp = x.cf_pexp; cf_buf = x.cf_buf; cf_auto =
+             x.cf_auto; slots = x.slots; wslots = x.wslots; cslots =
+             x.cslots; values = x.values; bag = x.bag; wparam = x.wparam;
+             fuse_trace = x.fuse_trace; fuse_fin = x.fuse_fin; fuse_drop =
+             x.fuse_drop; fuse_action = x.fuse_action; fuse_closure =
+             x.fuse_closure; panicking = x.panicking; next_aid = x.next_aid;
+             log = x.log })) (fun _ -> true) m0)
+    else let m1 =
+           fold_left (fun m1 g ->
+             uhdr g (fun h -> set_mark PC (reset_tc h)) m1) l m0
+         in
+         ((set (fun m2 -> m2.pc_size) (fun f ->
+            let n0 = fun r -> f r.pc_size in
+            (fun x -> { heap = x.heap; pc = x.pc; pc_size = (n0 x);
+            pc_alive = x.pc_alive; st_collecting = x.st_collecting;
+            st_finalizing = x.st_finalizing; st_dropping = x.st_dropping;
+            st_alloc = x.st_alloc; st_exec = x.st_exec; cf_thr = x.cf_thr;
+            cf_pnum = x.cf_pnum; cf_pexp = x.cf_pexp; cf_buf = x.cf_buf;
+            cf_auto = x.cf_auto; slots = x.slots; wslots = x.wslots; cslots =
+            x.cslots; values = x.values; bag = x.bag; wparam = x.wparam;
+            fuse_trace = x.fuse_trace; fuse_fin = x.fuse_fin; fuse_drop =
+            x.fuse_drop; fuse_action = x.fuse_action; fuse_closure =
+            x.fuse_closure; panicking = x.panicking; next_aid = x.next_aid;
+            log = x.log })) (fun s -> N.add (N.of_nat (length l)) s)
+            (set (fun m2 -> m2.pc) (fun f ->
+              let l0 = fun r -> f r.pc in
+              (fun x -> { heap = x.heap; pc = (l0 x); pc_size = x.pc_size;
+              pc_alive = x.pc_alive; st_collecting = x.st_collecting;
+              st_finalizing = x.st_finalizing; st_dropping = x.st_dropping;
+              st_alloc = x.st_alloc; st_exec = x.st_exec; cf_thr = x.cf_thr;
+              cf_pnum = x.cf_pnum; cf_pexp = x.cf_pexp; cf_buf = x.cf_buf;
+              cf_auto = x.cf_auto; slots = x.slots; wslots = x.wslots;
+              cslots = x.cslots; values = x.values; bag = x.bag; wparam =
+              x.wparam; fuse_trace = x.fuse_trace; fuse_fin = x.fuse_fin;
+              fuse_drop = x.fuse_drop; fuse_action = x.fuse_action;
+              fuse_closure = x.fuse_closure; panicking = x.panicking;
+              next_aid = x.next_aid; log = x.log })) (fun old -> app l old)
+              m1)), ONormal)
+  | g :: rest' ->
+    let h = hdr_of m g in
+    if needs_fin h
+    then let m0 = uhdr g (set_fin true) m in
+         let (m1, r) =
+           if is_map m0 g
+           then (m0, ONormal)
+           else let m1 = emit (ECb (KFin, g, (cur_flags k m0))) m0 in
+                let (m2, boom) = tick KFin m1 in
+                if boom
+                then (m2, (raise m2))
+                else (match get m2 g with
+                      | Some x ->
+                        rec0 (KScript ((Some g),
+                          (oscript p (class_of p x.o_cls).c_fin))) m2
+                      | None -> (m2, ONormal))
+         in
+         (match r with
+          | ONormal -> rec0 (KFinalizeList (l, rest', true, old_f)) m1
+          | _ ->
+            ((unmark_all l
+               (set (fun m2 -> m2.st_finalizing) (fun f ->
+                 let b = fun r0 -> f r0.st_finalizing in
+                 (fun x -> { heap = x.heap; pc = x.pc; pc_size = x.pc_size;
+                 pc_alive = x.pc_alive; st_collecting = x.st_collecting;
+                 st_finalizing = (b x); st_dropping = x.st_dropping;
+                 st_alloc = x.st_alloc; st_exec = x.st_exec; cf_thr =
+                 x.cf_thr; cf_pnum = x.cf_pnum; cf_pexp = x.cf_pexp; cf_buf =
+                 x.cf_buf; cf_auto = x.cf_auto; slots = x.slots; wslots =
+                 x.wslots; cslots = x.cslots; values = x.values; bag = x.bag;
+                 wparam = x.wparam; fuse_trace = x.fuse_trace; fuse_fin =
+                 x.fuse_fin; fuse_drop = x.fuse_drop; fuse_action =
+                 x.fuse_action; fuse_closure = x.fuse_closure; panicking =
+                 x.panicking; next_aid = x.next_aid; log = x.log }))
+                 (fun _ -> old_f) m1)), r))
+    else rec0 (KFinalizeList (l, rest', any, old_f)) m
+
+(** val step_drop_list :
+    conf -> (call -> machine -> machine * outcome) -> id0 list -> id0 list ->
+    bool -> machine -> machine * outcome **)
+
+let step_drop_list k rec0 l rest old_d m =
+  match rest with
+  | [] ->
+    let m0 = fold_left (fun m0 g -> dealloc k g (drop_metadata k g m0)) l m in
+    ((set (fun m1 -> m1.st_dropping) (fun f ->
+       let b = fun r -> f r.st_dropping in
+       (fun x -> { heap = x.heap; pc = x.pc; pc_size = x.pc_size; pc_alive =
+       x.pc_alive; st_collecting = x.st_collecting; st_finalizing =
+       x.st_finalizing; st_dropping = (b x); st_alloc = x.st_alloc; st_exec =
+       x.st_exec; cf_thr = x.cf_thr; cf_pnum = x.cf_pnum; cf_pexp =
+       x.cf_pexp; cf_buf = x.cf_buf; cf_auto = x.cf_auto; slots = x.slots;
+       wslots = x.wslots; cslots = x.cslots; values = x.values; bag = x.bag;
+       wparam = x.wparam; fuse_trace = x.fuse_trace; fuse_fin = x.fuse_fin;
+       fuse_drop = x.fuse_drop; fuse_action = x.fuse_action; fuse_closure =
+       x.fuse_closure; panicking = x.panicking; next_aid = x.next_aid; log =
+       x.log })) (fun _ -> old_d) m0), ONormal)
+  | g :: rest' ->
+    let m0 = if is_in_list (hdr_of m g) then m else emit_bad AssertFail g m in
+    let m1 = if k.k_weak then uhdr g set_dropped m0 else m0 in
+    let (m2, r) = rec0 (KDropValue g) m1 in
+    (match r with
+     | ONormal -> rec0 (KDropList (l, rest', old_d)) m2
+     | _ ->
+       let m3 =
+         fold_left (fun m3 g0 ->
+           uhdr g0 (fun h ->
+             let h0 = set_mark NM h in if k.k_weak then set_dropped h0 else h0)
+             m3) l m2
+       in
+       ((set (fun m4 -> m4.st_dropping) (fun f ->
+          let b = fun r0 -> f r0.st_dropping in
+          (fun x -> { heap = x.heap; pc = x.pc; pc_size = x.pc_size;
+          pc_alive = x.pc_alive; st_collecting = x.st_collecting;
+          st_finalizing = x.st_finalizing; st_dropping = (b x); st_alloc =
+          x.st_alloc; st_exec = x.st_exec; cf_thr = x.cf_thr; cf_pnum =
+          x.cf_pnum; cf_pexp = x.cf_pexp; cf_buf = x.cf_buf; cf_auto =
+          x.cf_auto; slots = x.slots; wslots = x.wslots; cslots = x.cslots;
+          values = x.values; bag = x.bag; wparam = x.wparam; fuse_trace =
+          x.fuse_trace; fuse_fin = x.fuse_fin; fuse_drop = x.fuse_drop;
+          fuse_action = x.fuse_action; fuse_closure = x.fuse_closure;
+          panicking = x.panicking; next_aid = x.next_aid; log = x.log }))
+          (fun _ -> old_d) m3), r))
+
+(** val step_unbag :
+    (call -> machine -> machine * outcome) -> nat -> machine ->
+    machine * outcome **)
+
+let step_unbag rec0 k m =
+  match k with
+  | O -> (m, ONormal)
+  | S k' ->
+    (match m.bag with
+     | [] -> (m, ONormal)
+     | o :: b ->
+       let (m0, r) =
+         rec0 (KDropCc o)
+           (set (fun m0 -> m0.bag) (fun f ->
+             let l = fun r -> f r.bag in
+             (fun x -> { heap = x.heap; pc = x.pc; pc_size = x.pc_size;
+             pc_alive = x.pc_alive; st_collecting = x.st_collecting;
+             st_finalizing = x.st_finalizing; st_dropping = x.st_dropping;
+             st_alloc = x.st_alloc; st_exec = x.st_exec; cf_thr = x.cf_thr;
+             cf_pnum = x.cf_pnum; cf_pexp = x.cf_pexp; cf_buf = x.cf_buf;
+             cf_auto = x.cf_auto; slots = x.slots; wslots = x.wslots;
+             cslots = x.cslots; values = x.values; bag = (l x); wparam =
+             x.wparam; fuse_trace = x.fuse_trace; fuse_fin = x.fuse_fin;
+             fuse_drop = x.fuse_drop; fuse_action = x.fuse_action;
+             fuse_closure = x.fuse_closure; panicking = x.panicking;
+             next_aid = x.next_aid; log = x.log })) (fun _ -> b) m)
+       in
+       (match r with
+        | ONormal -> rec0 (KUnbag k') m0
+        | _ -> (m0, r)))
+
+(** val cmd_new :
+    conf -> prog -> (call -> machine -> machine * outcome) -> id0 option ->
+    loc -> nat -> machine -> machine * outcome **)
+
+let cmd_new k p rec0 self dst cls0 m =
+  let (m0, r) = resolve self dst m in
+  (match r with
+   | Some r0 ->
+     let (m1, o) = new_node p cls0 m0 in
+     let (m2, t) = if k.k_auto then rec0 KTrigger m1 else (m1, ONormal) in
+     (match t with
+      | ONormal ->
+        let m3 = box_alloc k o m2 in
+        let (m4, r') = rec0 (KStore (r0, o)) m3 in
+        (match r' with
+         | ONormal -> ok m4 ROk
+         | _ -> (m4, r'))
+      | OPanic -> unwinding (rec0 (KDropValue o)) m2
+      | _ -> (m2, t))
+   | None -> ok m0 RSkip)
+
+(** val cmd_clone :
+    (call -> machine -> machine * outcome) -> id0 option -> loc -> loc ->
+    machine -> machine * outcome **)
+
+let cmd_clone rec0 self src dst m =
+  let (m0, rs) = resolve self src m in
+  let (m1, rd) = resolve self dst m0 in
+  (match rs with
+   | Some rs0 ->
+     (match rd with
+      | Some rd0 ->
+        (match read_loc rs0 m1 with
+         | Some o ->
+           (match inc_rc (hdr_of m1 o) with
+            | Some h ->
+              let m2 = remove_from_list o (uhdr o (fun _ -> h) m1) in
+              let (m3, r') = rec0 (KStore (rd0, o)) m2 in
+              (match r' with
+               | ONormal -> ok m3 ROk
+               | _ -> (m3, r'))
+            | None -> (m1, (raise m1)))
+         | None -> ok m1 RSkip)
+      | None -> ok m1 RSkip)
+   | None -> ok m1 RSkip)
+
+(** val cmd_drop :
+    (call -> machine -> machine * outcome) -> id0 option -> loc -> machine ->
+    machine * outcome **)
+
+let cmd_drop rec0 self l m =
+  let (m0, r) = resolve self l m in
+  (match r with
+   | Some r0 ->
+     (match read_loc r0 m0 with
+      | Some o ->
+        let (m1, r') = rec0 (KDropCc o) (write_loc r0 None m0) in
+        (match r' with
+         | ONormal -> ok m1 ROk
+         | _ -> (m1, r'))
+      | None -> ok m0 RSkip)
+   | None -> ok m0 RSkip)
+
+(** val cmd_move :
+    (call -> machine -> machine * outcome) -> id0 option -> loc -> loc ->
+    machine -> machine * outcome **)
+
+let cmd_move rec0 self src dst m =
+  let (m0, rs) = resolve self src m in
+  let (m1, rd) = resolve self dst m0 in
+  (match rs with
+   | Some rs0 ->
+     (match rd with
+      | Some rd0 ->
+        (match read_loc rs0 m1 with
+         | Some o ->
+           let (m2, r') = rec0 (KStore (rd0, o)) (write_loc rs0 None m1) in
+           (match r' with
+            | ONormal -> ok m2 ROk
+            | _ -> (m2, r'))
+         | None -> ok m1 RSkip)
+      | None -> ok m1 RSkip)
+   | None -> ok m1 RSkip)
+
+(** val cmd_mark_alive : id0 option -> loc -> machine -> machine * outcome **)
+
+let cmd_mark_alive self l m =
+  let (m0, r) = resolve self l m in
+  (match mbind (Obj.magic (fun _ _ -> option_bind)) (fun r0 ->
+           Obj.magic read_loc r0 m0) r with
+   | Some o -> ok (remove_from_list (Obj.magic o) m0) ROk
+   | None -> ok m0 RSkip)
+
+(** val cmd_collect :
+    (call -> machine -> machine * outcome) -> id0 option -> machine ->
+    machine * outcome **)
+
+let cmd_collect rec0 _ m =
+  let (m0, r) = rec0 KCollectCycles m in
+  (match r with
+   | ONormal -> ok m0 ROk
+   | _ -> (m0, r))
+
+(** val cmd_downgrade :
+    conf -> id0 option -> loc -> wloc -> machine -> machine * outcome **)
+
+let cmd_downgrade k self l w m =
+  if negb k.k_weak
+  then ok m RSkip
+  else let (m0, r) = resolve self l m in
+       let (m1, rw) = wresolve self w m0 in
+       (match mbind (Obj.magic (fun _ _ -> option_bind)) (fun r0 ->
+                Obj.magic read_loc r0 m1) r with
+        | Some o ->
+          (match rw with
+           | Some rw0 ->
+             if negb (wloc_writable rw0)
+             then ok m1 RSkip
+             else let m2 = init_side (Obj.magic o) m1 in
+                  (match mbind (Obj.magic (fun _ _ -> option_bind)) inc_wk
+                           (side_wk m2 (Obj.magic o)) with
+                   | Some k0 ->
+                     let m3 =
+                       remove_from_list (Obj.magic o)
+                         (uside (Obj.magic o) (fun _ -> k0) m2)
+                     in
+                     let old = read_wloc rw0 m3 in
+                     let m4 = write_wloc rw0 (Some (WTo (Obj.magic o))) m3 in
+                     ok (weak_drop_opt old m4) ROk
+                   | None -> (m2, (raise m2)))
            | None -> ok m1 RSkip)
-        | CMarkAlive l ->
-          let (m0, r) = resolve self l m in
-          (match mbind (Obj.magic (fun _ _ -> option_bind)) (fun r0 ->
-                   Obj.magic read_loc r0 m0) r with
-           | Some o -> ok (remove_from_list (Obj.magic o) m0) ROk
-           | None -> ok m0 RSkip)
-        | CCollect ->
-          let (m0, r) = run k p n0 KCollectCycles m in
-          (match r with
-           | ONormal -> ok m0 ROk
-           | _ -> (m0, r))
-        | CDowngrade (l, w) ->
-          if negb k.k_weak
-          then ok m RSkip
-          else let (m0, r) = resolve self l m in
-               let (m1, rw) = wresolve self w m0 in
-               (match mbind (Obj.magic (fun _ _ -> option_bind)) (fun r0 ->
-                        Obj.magic read_loc r0 m1) r with
-                | Some o ->
-                  (match rw with
-                   | Some rw0 ->
-                     if negb (wloc_writable rw0)
-                     then ok m1 RSkip
-                     else let m2 = init_side (Obj.magic o) m1 in
-                          (match mbind (Obj.magic (fun _ _ -> option_bind))
-                                   inc_wk (side_wk m2 (Obj.magic o)) with
-                           | Some k0 ->
-                             let m3 =
-                               remove_from_list (Obj.magic o)
-                                 (uside (Obj.magic o) (fun _ -> k0) m2)
-                             in
-                             let old = read_wloc rw0 m3 in
-                             let m4 =
-                               write_wloc rw0 (Some (WTo (Obj.magic o))) m3
-                             in
-                             ok (weak_drop_opt old m4) ROk
-                           | None -> (m2, (raise m2)))
-                   | None -> ok m1 RSkip)
-                | None -> ok m1 RSkip)
-        | CUpgrade (w, dst) ->
-          if negb k.k_weak
-          then ok m RSkip
-          else let (m0, rw) = wresolve self w m in
-               let (m1, rd) = resolve self dst m0 in
-               (match mbind (Obj.magic (fun _ _ -> option_bind)) (fun rw0 ->
-                        Obj.magic read_wloc rw0 m1) rw with
-                | Some wr ->
-                  (match rd with
-                   | Some rd0 ->
-                     let (m2, sc) = weak_strong_count (Obj.magic wr) m1 in
-                     if N.eqb sc N0
-                     then ok m2 RNone
-                     else (match Obj.magic wr with
-                           | WNull -> ok m2 RNone
-                           | WTo o ->
-                             (match inc_rc (hdr_of m2 o) with
-                              | Some h ->
-                                let m3 =
-                                  remove_from_list o (uhdr o (fun _ -> h) m2)
-                                in
-                                let (m4, r') = run k p n0 (KStore (rd0, o)) m3
-                                in
-                                (match r' with
-                                 | ONormal -> ok m4 (RSome o)
-                                 | _ -> (m4, r'))
-                              | None -> (m2, (raise m2))))
-                   | None -> ok m1 RSkip)
-                | None -> ok m1 RSkip)
-        | CWNew w ->
-          if negb k.k_weak
-          then ok m RSkip
-          else let (m0, rw) = wresolve self w m in
-               (match rw with
-                | Some rw0 ->
-                  if negb (wloc_writable rw0)
-                  then ok m0 RSkip
-                  else let old = read_wloc rw0 m0 in
-                       ok
-                         (weak_drop_opt old (write_wloc rw0 (Some WNull) m0))
-                         ROk
+        | None -> ok m1 RSkip)
+
+(** val cmd_upgrade :
+    conf -> (call -> machine -> machine * outcome) -> id0 option -> wloc ->
+    loc -> machine -> machine * outcome **)
+
+let cmd_upgrade k rec0 self w dst m =
+  if negb k.k_weak
+  then ok m RSkip
+  else let (m0, rw) = wresolve self w m in
+       let (m1, rd) = resolve self dst m0 in
+       (match mbind (Obj.magic (fun _ _ -> option_bind)) (fun rw0 ->
+                Obj.magic read_wloc rw0 m1) rw with
+        | Some wr ->
+          (match rd with
+           | Some rd0 ->
+             let (m2, sc) = weak_strong_count (Obj.magic wr) m1 in
+             if N.eqb sc N0
+             then ok m2 RNone
+             else (match Obj.magic wr with
+                   | WNull -> ok m2 RNone
+                   | WTo o ->
+                     (match inc_rc (hdr_of m2 o) with
+                      | Some h ->
+                        let m3 = remove_from_list o (uhdr o (fun _ -> h) m2)
+                        in
+                        let (m4, r') = rec0 (KStore (rd0, o)) m3 in
+                        (match r' with
+                         | ONormal -> ok m4 (RSome o)
+                         | _ -> (m4, r'))
+                      | None -> (m2, (raise m2))))
+           | None -> ok m1 RSkip)
+        | None -> ok m1 RSkip)
+
+(** val cmd_w_new :
+    conf -> id0 option -> wloc -> machine -> machine * outcome **)
+
+let cmd_w_new k self w m =
+  if negb k.k_weak
+  then ok m RSkip
+  else let (m0, rw) = wresolve self w m in
+       (match rw with
+        | Some rw0 ->
+          if negb (wloc_writable rw0)
+          then ok m0 RSkip
+          else let old = read_wloc rw0 m0 in
+               ok (weak_drop_opt old (write_wloc rw0 (Some WNull) m0)) ROk
+        | None -> ok m0 RSkip)
+
+(** val cmd_w_clone :
+    conf -> id0 option -> wloc -> wloc -> machine -> machine * outcome **)
+
+let cmd_w_clone k self src dst m =
+  if negb k.k_weak
+  then ok m RSkip
+  else let (m0, rs) = wresolve self src m in
+       let (m1, rd) = wresolve self dst m0 in
+       (match mbind (Obj.magic (fun _ _ -> option_bind)) (fun rs0 ->
+                Obj.magic read_wloc rs0 m1) rs with
+        | Some wr ->
+          (match rd with
+           | Some rd0 ->
+             if negb (wloc_writable rd0)
+             then ok m1 RSkip
+             else (match weak_clone (Obj.magic wr) m1 with
+                   | Some m2 ->
+                     let old = read_wloc rd0 m2 in
+                     ok
+                       (weak_drop_opt old
+                         (write_wloc rd0 (Some (Obj.magic wr)) m2)) ROk
+                   | None -> (m1, (raise m1)))
+           | None -> ok m1 RSkip)
+        | None -> ok m1 RSkip)
+
+(** val cmd_w_drop :
+    conf -> id0 option -> wloc -> machine -> machine * outcome **)
+
+let cmd_w_drop k self w m =
+  if negb k.k_weak
+  then ok m RSkip
+  else let (m0, rw) = wresolve self w m in
+       (match rw with
+        | Some rw0 ->
+          if negb (wloc_writable rw0)
+          then ok m0 RSkip
+          else (match read_wloc rw0 m0 with
+                | Some wr -> ok (weak_drop wr (write_wloc rw0 None m0)) ROk
                 | None -> ok m0 RSkip)
-        | CWClone (src, dst) ->
-          if negb k.k_weak
-          then ok m RSkip
-          else let (m0, rs) = wresolve self src m in
-               let (m1, rd) = wresolve self dst m0 in
-               (match mbind (Obj.magic (fun _ _ -> option_bind)) (fun rs0 ->
-                        Obj.magic read_wloc rs0 m1) rs with
-                | Some wr ->
-                  (match rd with
-                   | Some rd0 ->
-                     if negb (wloc_writable rd0)
-                     then ok m1 RSkip
-                     else (match weak_clone (Obj.magic wr) m1 with
-                           | Some m2 ->
-                             let old = read_wloc rd0 m2 in
-                             ok
-                               (weak_drop_opt old
-                                 (write_wloc rd0 (Some (Obj.magic wr)) m2))
-                               ROk
-                           | None -> (m1, (raise m1)))
-                   | None -> ok m1 RSkip)
-                | None -> ok m1 RSkip)
-        | CWDrop w ->
-          if negb k.k_weak
-          then ok m RSkip
-          else let (m0, rw) = wresolve self w m in
-               (match rw with
-                | Some rw0 ->
-                  if negb (wloc_writable rw0)
-                  then ok m0 RSkip
-                  else (match read_wloc rw0 m0 with
-                        | Some wr ->
-                          ok (weak_drop wr (write_wloc rw0 None m0)) ROk
-                        | None -> ok m0 RSkip)
-                | None -> ok m0 RSkip)
-        | CTryUnwrap (l, v) ->
-          let (m0, r) = resolve self l m in
-          (match r with
-           | Some r0 ->
-             (match lookup0 list_lookup v m0.values with
-              | Some y ->
-                (match y with
-                 | Some _ -> ok m0 RSkip
-                 | None ->
-                   (match read_loc r0 m0 with
-                    | Some o ->
-                      let h = hdr_of m0 o in
-                      if negb (N.eqb h.h_rc (Npos XH))
-                      then ok m0 RUnwrapErr
-                      else if (||) ((||) m0.st_collecting m0.st_dropping)
-                                ((&&) k.k_fin m0.st_finalizing)
-                           then ok m0 RUnwrapErr
-                           else let m1 = write_loc r0 None m0 in
-                                let m2 = remove_from_list o m1 in
-                                let m3 =
-                                  upd o (fun x ->
-                                    set (fun o0 -> o0.o_vst) (fun f ->
-                                      let v0 = fun r1 -> f r1.o_vst in
-                                      (fun x0 -> { o_hdr = x0.o_hdr; o_vst =
-                                      (v0 x0); o_box = x0.o_box; o_side =
-                                      x0.o_side; o_cls = x0.o_cls; o_ismap =
-                                      x0.o_ismap; o_fields = x0.o_fields;
-                                      o_wfields = x0.o_wfields; o_cleaner =
-                                      x0.o_cleaner; o_borrowed =
-                                      x0.o_borrowed; o_mslots = x0.o_mslots;
-                                      o_mfree = x0.o_mfree; o_mborrowed =
-                                      x0.o_mborrowed })) (fun _ -> VMoved) x)
-                                    m2
-                                in
-                                let m4 =
-                                  set (fun m4 -> m4.values) (fun f ->
-                                    let l0 = fun r1 -> f r1.values in
-                                    (fun x -> { heap = x.heap; pc = x.pc;
-                                    pc_size = x.pc_size; pc_alive =
-                                    x.pc_alive; st_collecting =
-                                    x.st_collecting; st_finalizing =
-                                    x.st_finalizing; st_dropping =
-                                    x.st_dropping; st_alloc = x.st_alloc;
-                                    st_exec = x.st_exec; cf_thr = x.cf_thr;
-                                    cf_pnum = x.cf_pnum; cf_pexp = x.cf_pexp;
-                                    cf_buf = x.cf_buf; cf_auto = x.cf_auto;
-                                    slots = x.slots; wslots = x.wslots;
-                                    cslots = x.cslots; values = (l0 x); bag =
-                                    x.bag; wparam = x.wparam; fuse_trace =
-                                    x.fuse_trace; fuse_fin = x.fuse_fin;
-                                    fuse_drop = x.fuse_drop; fuse_action =
-                                    x.fuse_action; fuse_closure =
-                                    x.fuse_closure; panicking = x.panicking;
-                                    next_aid = x.next_aid; log = x.log }))
-                                    (insert0 list_insert v (Some o)) m3
-                                in
-                                let m5 = drop_metadata k o m4 in
-                                let m6 = dealloc k o m5 in ok m6 RUnwrapOk
-                    | None -> ok m0 RSkip))
-              | None -> ok m0 RSkip)
-           | None -> ok m0 RSkip)
-        | CDropValue v ->
-          (match mjoin (Obj.magic (fun _ -> option_join))
-                   (lookup0 list_lookup v m.values) with
-           | Some o ->
-             let m0 =
-               set (fun m0 -> m0.values) (fun f ->
-                 let l = fun r -> f r.values in
+        | None -> ok m0 RSkip)
+
+(** val cmd_try_unwrap :
+    conf -> id0 option -> loc -> nat -> machine -> machine * outcome **)
+
+let cmd_try_unwrap k self l v m =
+  let (m0, r) = resolve self l m in
+  (match r with
+   | Some r0 ->
+     (match lookup0 list_lookup v m0.values with
+      | Some y ->
+        (match y with
+         | Some _ -> ok m0 RSkip
+         | None ->
+           (match read_loc r0 m0 with
+            | Some o ->
+              let h = hdr_of m0 o in
+              if negb (N.eqb h.h_rc (Npos XH))
+              then ok m0 RUnwrapErr
+              else if (||) ((||) m0.st_collecting m0.st_dropping)
+                        ((&&) k.k_fin m0.st_finalizing)
+                   then ok m0 RUnwrapErr
+                   else let m1 = write_loc r0 None m0 in
+                        let m2 = remove_from_list o m1 in
+                        let m3 =
+                          upd o (fun x ->
+                            set (fun o0 -> o0.o_vst) (fun f ->
+                              let v0 = fun r1 -> f r1.o_vst in
+                              (fun x0 -> { o_hdr = x0.o_hdr; o_vst = 
+                              (v0 x0); o_box = x0.o_box; o_side = x0.o_side;
+                              o_cls = x0.o_cls; o_ismap = x0.o_ismap;
+                              o_fields = x0.o_fields; o_wfields =
+                              x0.o_wfields; o_cleaner = x0.o_cleaner;
+                              o_borrowed = x0.o_borrowed; o_mslots =
+                              x0.o_mslots; o_mfree = x0.o_mfree;
+                              o_mborrowed = x0.o_mborrowed })) (fun _ ->
+                              VMoved) x) m2
+                        in
+                        let m4 =
+                          set (fun m4 -> m4.values) (fun f ->
+                            let l0 = fun r1 -> f r1.values in
+                            (fun x -> { heap = x.heap; pc = x.pc; pc_size =
+                            x.pc_size; pc_alive = x.pc_alive; st_collecting =
+                            x.st_collecting; st_finalizing = x.st_finalizing;
+                            st_dropping = x.st_dropping; st_alloc =
+                            x.st_alloc; st_exec = x.st_exec; cf_thr =
+                            x.cf_thr; cf_pnum = x.cf_pnum; cf_pexp =
+                            x.cf_pexp; cf_buf = x.cf_buf; cf_auto =
+                            x.cf_auto; slots = x.slots; wslots = x.wslots;
+                            cslots = x.cslots; values = (l0 x); bag = x.bag;
+                            wparam = x.wparam; fuse_trace = x.fuse_trace;
+                            fuse_fin = x.fuse_fin; fuse_drop = x.fuse_drop;
+                            fuse_action = x.fuse_action; fuse_closure =
+                            x.fuse_closure; panicking = x.panicking;
+                            next_aid = x.next_aid; log = x.log }))
+                            (insert0 list_insert v (Some o)) m3
+                        in
+                        let m5 = drop_metadata k o m4 in
+                        let m6 = dealloc k o m5 in ok m6 RUnwrapOk
+            | None -> ok m0 RSkip))
+      | None -> ok m0 RSkip)
+   | None -> ok m0 RSkip)
+
+(** val cmd_drop_value :
+    (call -> machine -> machine * outcome) -> id0 option -> nat -> machine ->
+    machine * outcome **)
+
+let cmd_drop_value rec0 _ v m =
+  match mjoin (Obj.magic (fun _ -> option_join))
+          (lookup0 list_lookup v m.values) with
+  | Some o ->
+    let m0 =
+      set (fun m0 -> m0.values) (fun f ->
+        let l = fun r -> f r.values in
+        (fun x -> { heap = x.heap; pc = x.pc; pc_size = x.pc_size; pc_alive =
+        x.pc_alive; st_collecting = x.st_collecting; st_finalizing =
+        x.st_finalizing; st_dropping = x.st_dropping; st_alloc = x.st_alloc;
+        st_exec = x.st_exec; cf_thr = x.cf_thr; cf_pnum = x.cf_pnum;
+        cf_pexp = x.cf_pexp; cf_buf = x.cf_buf; cf_auto = x.cf_auto; slots =
+        x.slots; wslots = x.wslots; cslots = x.cslots; values = (l x); bag =
+        x.bag; wparam = x.wparam; fuse_trace = x.fuse_trace; fuse_fin =
+        x.fuse_fin; fuse_drop = x.fuse_drop; fuse_action = x.fuse_action;
+        fuse_closure = x.fuse_closure; panicking = x.panicking; next_aid =
+        x.next_aid; log = x.log })) (insert0 list_insert v None) m
+    in
+    let (m1, r) = rec0 (KDropValue (Obj.magic o)) m0 in
+    (match r with
+     | ONormal -> ok m1 ROk
+     | _ -> (m1, r))
+  | None -> ok m RSkip
+
+(** val cmd_fin_again :
+    conf -> id0 option -> loc -> machine -> machine * outcome **)
+
+let cmd_fin_again k self l m =
+  if negb k.k_fin
+  then ok m RSkip
+  else let (m0, r) = resolve self l m in
+       (match mbind (Obj.magic (fun _ _ -> option_bind)) (fun r0 ->
+                Obj.magic read_loc r0 m0) r with
+        | Some o ->
+          if (||) ((||) m0.st_collecting m0.st_finalizing) m0.st_dropping
+          then (m0, (raise m0))
+          else ok (uhdr (Obj.magic o) (set_fin false) m0) ROk
+        | None -> ok m0 RSkip)
+
+(** val cmd_new_cyclic :
+    conf -> prog -> (call -> machine -> machine * outcome) -> id0 option ->
+    loc -> nat -> nat -> bool -> machine -> machine * outcome **)
+
+let cmd_new_cyclic k p rec0 self dst cls0 script selfweak m =
+  if negb k.k_weak
+  then ok m RSkip
+  else let (m0, r) = resolve self dst m in
+       (match r with
+        | Some r0 ->
+          let (m1, o) = new_node p cls0 m0 in
+          let m2 =
+            upd o (fun x ->
+              set (fun o0 -> o0.o_vst) (fun f ->
+                let v = fun r1 -> f r1.o_vst in
+                (fun x0 -> { o_hdr = x0.o_hdr; o_vst = (v x0); o_box =
+                x0.o_box; o_side = x0.o_side; o_cls = x0.o_cls; o_ismap =
+                x0.o_ismap; o_fields = x0.o_fields; o_wfields = x0.o_wfields;
+                o_cleaner = x0.o_cleaner; o_borrowed = x0.o_borrowed;
+                o_mslots = x0.o_mslots; o_mfree = x0.o_mfree; o_mborrowed =
+                x0.o_mborrowed })) (fun _ -> VUninit) x) m1
+          in
+          let (m3, t) = if k.k_auto then rec0 KTrigger m2 else (m2, ONormal)
+          in
+          (match t with
+           | ONormal ->
+             let m4 = box_alloc k o m3 in
+             let m5 = init_side o m4 in
+             let m6 =
+               uside o (fun k0 -> from_option (Obj.magic id) k0 (inc_wk k0))
+                 m5
+             in
+             let m7 = dec_rc_m o m6 in
+             let m8 =
+               set (fun m8 -> m8.wparam) (fun f ->
+                 let l = fun r1 -> f r1.wparam in
                  (fun x -> { heap = x.heap; pc = x.pc; pc_size = x.pc_size;
                  pc_alive = x.pc_alive; st_collecting = x.st_collecting;
                  st_finalizing = x.st_finalizing; st_dropping =
                  x.st_dropping; st_alloc = x.st_alloc; st_exec = x.st_exec;
                  cf_thr = x.cf_thr; cf_pnum = x.cf_pnum; cf_pexp = x.cf_pexp;
                  cf_buf = x.cf_buf; cf_auto = x.cf_auto; slots = x.slots;
-                 wslots = x.wslots; cslots = x.cslots; values = (l x); bag =
-                 x.bag; wparam = x.wparam; fuse_trace = x.fuse_trace;
+                 wslots = x.wslots; cslots = x.cslots; values = x.values;
+                 bag = x.bag; wparam = (l x); fuse_trace = x.fuse_trace;
                  fuse_fin = x.fuse_fin; fuse_drop = x.fuse_drop;
                  fuse_action = x.fuse_action; fuse_closure = x.fuse_closure;
                  panicking = x.panicking; next_aid = x.next_aid; log =
-                 x.log })) (insert0 list_insert v None) m
+                 x.log })) (fun x -> (WTo o) :: x) m7
              in
-             let (m1, r) = run k p n0 (KDropValue (Obj.magic o)) m0 in
-             (match r with
-              | ONormal -> ok m1 ROk
-              | _ -> (m1, r))
-           | None -> ok m RSkip)
-        | CFinAgain l ->
-          if negb k.k_fin
-          then ok m RSkip
-          else let (m0, r) = resolve self l m in
-               (match mbind (Obj.magic (fun _ _ -> option_bind)) (fun r0 ->
-                        Obj.magic read_loc r0 m0) r with
-                | Some o ->
-                  if (||) ((||) m0.st_collecting m0.st_finalizing)
-                       m0.st_dropping
-                  then (m0, (raise m0))
-                  else ok (uhdr (Obj.magic o) (set_fin false) m0) ROk
-                | None -> ok m0 RSkip)
-        | CNewCyclic (dst, cls0, script, selfweak) ->
-          if negb k.k_weak
-          then ok m RSkip
-          else let (m0, r) = resolve self dst m in
-               (match r with
-                | Some r0 ->
-                  let (m1, o) = new_node p cls0 m0 in
-                  let m2 =
-                    upd o (fun x ->
-                      set (fun o0 -> o0.o_vst) (fun f ->
-                        let v = fun r1 -> f r1.o_vst in
-                        (fun x0 -> { o_hdr = x0.o_hdr; o_vst = (v x0);
-                        o_box = x0.o_box; o_side = x0.o_side; o_cls =
-                        x0.o_cls; o_ismap = x0.o_ismap; o_fields =
-                        x0.o_fields; o_wfields = x0.o_wfields; o_cleaner =
-                        x0.o_cleaner; o_borrowed = x0.o_borrowed; o_mslots =
-                        x0.o_mslots; o_mfree = x0.o_mfree; o_mborrowed =
-                        x0.o_mborrowed })) (fun _ -> VUninit) x) m1
-                  in
-                  let (m3, t) =
-                    if k.k_auto then run k p n0 KTrigger m2 else (m2, ONormal)
-                  in
-                  (match t with
-                   | ONormal ->
-                     let m4 = box_alloc k o m3 in
-                     let m5 = init_side o m4 in
-                     let m6 =
-                       uside o (fun k0 ->
-                         from_option (Obj.magic id) k0 (inc_wk k0)) m5
-                     in
-                     let m7 = dec_rc_m o m6 in
-                     let m8 =
-                       set (fun m8 -> m8.wparam) (fun f ->
-                         let l = fun r1 -> f r1.wparam in
-                         (fun x -> { heap = x.heap; pc = x.pc; pc_size =
-                         x.pc_size; pc_alive = x.pc_alive; st_collecting =
-                         x.st_collecting; st_finalizing = x.st_finalizing;
-                         st_dropping = x.st_dropping; st_alloc = x.st_alloc;
-                         st_exec = x.st_exec; cf_thr = x.cf_thr; cf_pnum =
-                         x.cf_pnum; cf_pexp = x.cf_pexp; cf_buf = x.cf_buf;
-                         cf_auto = x.cf_auto; slots = x.slots; wslots =
-                         x.wslots; cslots = x.cslots; values = x.values;
-                         bag = x.bag; wparam = (l x); fuse_trace =
-                         x.fuse_trace; fuse_fin = x.fuse_fin; fuse_drop =
-                         x.fuse_drop; fuse_action = x.fuse_action;
-                         fuse_closure = x.fuse_closure; panicking =
-                         x.panicking; next_aid = x.next_aid; log = x.log }))
-                         (fun x -> (WTo o) :: x) m7
-                     in
-                     let m9 = emit (ECb (KClosure, o, (cur_flags k m8))) m8 in
-                     let (m10, boom) = tick KClosure m9 in
-                     let (m11, r') =
-                       if boom
-                       then (m10, (raise m10))
-                       else run k p n0 (KScript (None, (script_of p script)))
-                              m10
-                     in
-                     (match r' with
+             let m9 = emit (ECb (KClosure, o, (cur_flags k m8))) m8 in
+             let (m10, boom) = tick KClosure m9 in
+             let (m11, r') =
+               if boom
+               then (m10, (raise m10))
+               else rec0 (KScript (None, (script_of p script))) m10
+             in
+             (match r' with
+              | ONormal ->
+                if (&&) selfweak
+                     (bool_decide
+                       (decide_rel Coq_Nat.lt_dec O (class_of p cls0).c_nw))
+                then (match weak_clone (WTo o) m11 with
+                      | Some m12 ->
+                        let m13 =
+                          upd o (fun x ->
+                            set (fun o0 -> o0.o_wfields) (fun f ->
+                              let l = fun r1 -> f r1.o_wfields in
+                              (fun x0 -> { o_hdr = x0.o_hdr; o_vst =
+                              x0.o_vst; o_box = x0.o_box; o_side = x0.o_side;
+                              o_cls = x0.o_cls; o_ismap = x0.o_ismap;
+                              o_fields = x0.o_fields; o_wfields = (l x0);
+                              o_cleaner = x0.o_cleaner; o_borrowed =
+                              x0.o_borrowed; o_mslots = x0.o_mslots;
+                              o_mfree = x0.o_mfree; o_mborrowed =
+                              x0.o_mborrowed }))
+                              (insert0 list_insert O (Some (WTo o))) x) m12
+                        in
+                        let r'' = ONormal in
+                        (match r'' with
+                         | ONormal ->
+                           let m14 =
+                             upd o (fun x ->
+                               set (fun o0 -> o0.o_vst) (fun f ->
+                                 let v = fun r1 -> f r1.o_vst in
+                                 (fun x0 -> { o_hdr = x0.o_hdr; o_vst =
+                                 (v x0); o_box = x0.o_box; o_side =
+                                 x0.o_side; o_cls = x0.o_cls; o_ismap =
+                                 x0.o_ismap; o_fields = x0.o_fields;
+                                 o_wfields = x0.o_wfields; o_cleaner =
+                                 x0.o_cleaner; o_borrowed = x0.o_borrowed;
+                                 o_mslots = x0.o_mslots; o_mfree =
+                                 x0.o_mfree; o_mborrowed = x0.o_mborrowed }))
+                                 (fun _ -> VLive) x) m13
+                           in
+                           let m15 =
+                             uhdr o (fun h ->
+                               from_option (Obj.magic id) h (inc_rc h)) m14
+                           in
+                           let m16 =
+                             set (fun m16 -> m16.wparam) (fun f ->
+                               let l = fun r1 -> f r1.wparam in
+                               (fun x -> { heap = x.heap; pc = x.pc;
+                               pc_size = x.pc_size; pc_alive = x.pc_alive;
+                               st_collecting = x.st_collecting;
+                               st_finalizing = x.st_finalizing; st_dropping =
+                               x.st_dropping; st_alloc = x.st_alloc;
+                               st_exec = x.st_exec; cf_thr = x.cf_thr;
+                               cf_pnum = x.cf_pnum; cf_pexp = x.cf_pexp;
+                               cf_buf = x.cf_buf; cf_auto = x.cf_auto;
+                               slots = x.slots; wslots = x.wslots; cslots =
+                               x.cslots; values = x.values; bag = x.bag;
+                               wparam = (l x); fuse_trace = x.fuse_trace;
+                               fuse_fin = x.fuse_fin; fuse_drop =
+                               x.fuse_drop; fuse_action = x.fuse_action;
+                               fuse_closure = x.fuse_closure; panicking =
+                               x.panicking; next_aid = x.next_aid; log =
+                               x.log })) tl m15
+                           in
+                           let m17 = weak_drop (WTo o) m16 in
+                           let (m18, r3) = rec0 (KStore (r0, o)) m17 in
+                           (match r3 with
+                            | ONormal -> ok m18 ROk
+                            | _ -> (m18, r3))
+                         | _ ->
+                           let m14 = dealloc k o (drop_metadata k o m13) in
+                           let m15 =
+                             set (fun m15 -> m15.wparam) (fun f ->
+                               let l = fun r1 -> f r1.wparam in
+                               (fun x -> { heap = x.heap; pc = x.pc;
+                               pc_size = x.pc_size; pc_alive = x.pc_alive;
+                               st_collecting = x.st_collecting;
+                               st_finalizing = x.st_finalizing; st_dropping =
+                               x.st_dropping; st_alloc = x.st_alloc;
+                               st_exec = x.st_exec; cf_thr = x.cf_thr;
+                               cf_pnum = x.cf_pnum; cf_pexp = x.cf_pexp;
+                               cf_buf = x.cf_buf; cf_auto = x.cf_auto;
+                               slots = x.slots; wslots = x.wslots; cslots =
+                               x.cslots; values = x.values; bag = x.bag;
+                               wparam = (l x); fuse_trace = x.fuse_trace;
+                               fuse_fin = x.fuse_fin; fuse_drop =
+                               x.fuse_drop; fuse_action = x.fuse_action;
+                               fuse_closure = x.fuse_closure; panicking =
+                               x.panicking; next_aid = x.next_aid; log =
+                               x.log })) tl m14
+                           in
+                           ((weak_drop (WTo o) m15), r''))
+                      | None ->
+                        let r'' = raise m11 in
+                        (match r'' with
+                         | ONormal ->
+                           let m12 =
+                             upd o (fun x ->
+                               set (fun o0 -> o0.o_vst) (fun f ->
+                                 let v = fun r1 -> f r1.o_vst in
+                                 (fun x0 -> { o_hdr = x0.o_hdr; o_vst =
+                                 (v x0); o_box = x0.o_box; o_side =
+                                 x0.o_side; o_cls = x0.o_cls; o_ismap =
+                                 x0.o_ismap; o_fields = x0.o_fields;
+                                 o_wfields = x0.o_wfields; o_cleaner =
+                                 x0.o_cleaner; o_borrowed = x0.o_borrowed;
+                                 o_mslots = x0.o_mslots; o_mfree =
+                                 x0.o_mfree; o_mborrowed = x0.o_mborrowed }))
+                                 (fun _ -> VLive) x) m11
+                           in
+                           let m13 =
+                             uhdr o (fun h ->
+                               from_option (Obj.magic id) h (inc_rc h)) m12
+                           in
+                           let m14 =
+                             set (fun m14 -> m14.wparam) (fun f ->
+                               let l = fun r1 -> f r1.wparam in
+                               (fun x -> { heap = x.heap; pc = x.pc;
+                               pc_size = x.pc_size; pc_alive = x.pc_alive;
+                               st_collecting = x.st_collecting;
+                               st_finalizing = x.st_finalizing; st_dropping =
+                               x.st_dropping; st_alloc = x.st_alloc;
+                               st_exec = x.st_exec; cf_thr = x.cf_thr;
+                               cf_pnum = x.cf_pnum; cf_pexp = x.cf_pexp;
+                               cf_buf = x.cf_buf; cf_auto = x.cf_auto;
+                               slots = x.slots; wslots = x.wslots; cslots =
+                               x.cslots; values = x.values; bag = x.bag;
+                               wparam = (l x); fuse_trace = x.fuse_trace;
+                               fuse_fin = x.fuse_fin; fuse_drop =
+                               x.fuse_drop; fuse_action = x.fuse_action;
+                               fuse_closure = x.fuse_closure; panicking =
+                               x.panicking; next_aid = x.next_aid; log =
+                               x.log })) tl m13
+                           in
+                           let m15 = weak_drop (WTo o) m14 in
+                           let (m16, r3) = rec0 (KStore (r0, o)) m15 in
+                           (match r3 with
+                            | ONormal -> ok m16 ROk
+                            | _ -> (m16, r3))
+                         | _ ->
+                           let m12 = dealloc k o (drop_metadata k o m11) in
+                           let m13 =
+                             set (fun m13 -> m13.wparam) (fun f ->
+                               let l = fun r1 -> f r1.wparam in
+                               (fun x -> { heap = x.heap; pc = x.pc;
+                               pc_size = x.pc_size; pc_alive = x.pc_alive;
+                               st_collecting = x.st_collecting;
+                               st_finalizing = x.st_finalizing; st_dropping =
+                               x.st_dropping; st_alloc = x.st_alloc;
+                               st_exec = x.st_exec; cf_thr = x.cf_thr;
+                               cf_pnum = x.cf_pnum; cf_pexp = x.cf_pexp;
+                               cf_buf = x.cf_buf; cf_auto = x.cf_auto;
+                               slots = x.slots; wslots = x.wslots; cslots =
+                               x.cslots; values = x.values; bag = x.bag;
+                               wparam = (l x); fuse_trace = x.fuse_trace;
+                               fuse_fin = x.fuse_fin; fuse_drop =
+                               x.fuse_drop; fuse_action = x.fuse_action;
+                               fuse_closure = x.fuse_closure; panicking =
+                               x.panicking; next_aid = x.next_aid; log =
+                               x.log })) tl m12
+                           in
+                           ((weak_drop (WTo o) m13), r'')))
+                else let r'' = ONormal in
+                     (match r'' with
                       | ONormal ->
-                        if (&&) selfweak
-                             (bool_decide
-                               (decide_rel Coq_Nat.lt_dec O
-                                 (class_of p cls0).c_nw))
-                        then (match weak_clone (WTo o) m11 with
-                              | Some m12 ->
-                                let m13 =
-                                  upd o (fun x ->
-                                    set (fun o0 -> o0.o_wfields) (fun f ->
-                                      let l = fun r1 -> f r1.o_wfields in
-                                      (fun x0 -> { o_hdr = x0.o_hdr; o_vst =
-                                      x0.o_vst; o_box = x0.o_box; o_side =
-                                      x0.o_side; o_cls = x0.o_cls; o_ismap =
-                                      x0.o_ismap; o_fields = x0.o_fields;
-                                      o_wfields = (l x0); o_cleaner =
-                                      x0.o_cleaner; o_borrowed =
-                                      x0.o_borrowed; o_mslots = x0.o_mslots;
-                                      o_mfree = x0.o_mfree; o_mborrowed =
-                                      x0.o_mborrowed }))
-                                      (insert0 list_insert O (Some (WTo o))) x)
-                                    m12
-                                in
-                                let r'' = ONormal in
-                                (match r'' with
-                                 | ONormal ->
-                                   let m14 =
-                                     upd o (fun x ->
-                                       set (fun o0 -> o0.o_vst) (fun f ->
-                                         let v = fun r1 -> f r1.o_vst in
-                                         (fun x0 -> { o_hdr = x0.o_hdr;
-                                         o_vst = (v x0); o_box = x0.o_box;
-                                         o_side = x0.o_side; o_cls =
-                                         x0.o_cls; o_ismap = x0.o_ismap;
-                                         o_fields = x0.o_fields; o_wfields =
-                                         x0.o_wfields; o_cleaner =
-                                         x0.o_cleaner; o_borrowed =
-                                         x0.o_borrowed; o_mslots =
-                                         x0.o_mslots; o_mfree = x0.o_mfree;
-                                         o_mborrowed = x0.o_mborrowed }))
-                                         (fun _ -> VLive) x) m13
-                                   in
-                                   let m15 =
-                                     uhdr o (fun h ->
-                                       from_option (Obj.magic id) h (inc_rc h))
-                                       m14
-                                   in
-                                   let m16 =
-                                     set (fun m16 -> m16.wparam) (fun f ->
-                                       let l = fun r1 -> f r1.wparam in
-                                       (fun x -> { heap = x.heap; pc = x.pc;
-                                       pc_size = x.pc_size; pc_alive =
-                                       x.pc_alive; st_collecting =
-                                       x.st_collecting; st_finalizing =
-                                       x.st_finalizing; st_dropping =
-                                       x.st_dropping; st_alloc = x.st_alloc;
-                                       st_exec = x.st_exec; cf_thr =
-                                       x.cf_thr; cf_pnum = x.cf_pnum;
-                                       cf_pexp = x.cf_pexp; cf_buf =
-                                       x.cf_buf; cf_auto = x.cf_auto; slots =
-                                       x.slots; wslots = x.wslots; cslots =
-                                       x.cslots; values = x.values; bag =
-                                       x.bag; wparam = (l x); fuse_trace =
-                                       x.fuse_trace; fuse_fin = x.fuse_fin;
-                                       fuse_drop = x.fuse_drop; fuse_action =
-                                       x.fuse_action; fuse_closure =
-                                       x.fuse_closure; panicking =
-                                       x.panicking; next_aid = x.next_aid;
-                                       log = x.log })) tl m15
-                                   in
-                                   let m17 = weak_drop (WTo o) m16 in
-                                   let (m18, r3) =
-                                     run k p n0 (KStore (r0, o)) m17
-                                   in
-                                   (match r3 with
-                                    | ONormal -> ok m18 ROk
-                                    | _ -> (m18, r3))
-                                 | _ ->
-                                   let m14 =
-                                     dealloc k o (drop_metadata k o m13)
-                                   in
-                                   let m15 =
-                                     set (fun m15 -> m15.wparam) (fun f ->
-                                       let l = fun r1 -> f r1.wparam in
-                                       (fun x -> { heap = x.heap; pc = x.pc;
-                                       pc_size = x.pc_size; pc_alive =
-                                       x.pc_alive; st_collecting =
-                                       x.st_collecting; st_finalizing =
-                                       x.st_finalizing; st_dropping =
-                                       x.st_dropping; st_alloc = x.st_alloc;
-                                       st_exec = x.st_exec; cf_thr =
-                                       x.cf_thr; cf_pnum = x.cf_pnum;
-                                       cf_pexp = x.cf_pexp; cf_buf =
-                                       x.cf_buf; cf_auto = x.cf_auto; slots =
-                                       x.slots; wslots = x.wslots; cslots =
-                                       x.cslots; values = x.values; bag =
-                                       x.bag; wparam = (l x); fuse_trace =
-                                       x.fuse_trace; fuse_fin = x.fuse_fin;
-                                       fuse_drop = x.fuse_drop; fuse_action =
-                                       x.fuse_action; fuse_closure =
-                                       x.fuse_closure; panicking =
-                                       x.panicking; next_aid = x.next_aid;
-                                       log = x.log })) tl m14
-                                   in
-                                   ((weak_drop (WTo o) m15), r''))
-                              | None ->
-                                let r'' = raise m11 in
-                                (match r'' with
-                                 | ONormal ->
-                                   let m12 =
-                                     upd o (fun x ->
-                                       set (fun o0 -> o0.o_vst) (fun f ->
-                                         let v = fun r1 -> f r1.o_vst in
-                                         (fun x0 -> { o_hdr = x0.o_hdr;
-                                         o_vst = (v x0); o_box = x0.o_box;
-                                         o_side = x0.o_side; o_cls =
-                                         x0.o_cls; o_ismap = x0.o_ismap;
-                                         o_fields = x0.o_fields; o_wfields =
-                                         x0.o_wfields; o_cleaner =
-                                         x0.o_cleaner; o_borrowed =
-                                         x0.o_borrowed; o_mslots =
-                                         x0.o_mslots; o_mfree = x0.o_mfree;
-                                         o_mborrowed = x0.o_mborrowed }))
-                                         (fun _ -> VLive) x) m11
-                                   in
-                                   let m13 =
-                                     uhdr o (fun h ->
-                                       from_option (Obj.magic id) h (inc_rc h))
-                                       m12
-                                   in
-                                   let m14 =
-                                     set (fun m14 -> m14.wparam) (fun f ->
-                                       let l = fun r1 -> f r1.wparam in
-                                       (fun x -> { heap = x.heap; pc = x.pc;
-                                       pc_size = x.pc_size; pc_alive =
-                                       x.pc_alive; st_collecting =
-                                       x.st_collecting; st_finalizing =
-                                       x.st_finalizing; st_dropping =
-                                       x.st_dropping; st_alloc = x.st_alloc;
-                                       st_exec = x.st_exec; cf_thr =
-                                       x.cf_thr; cf_pnum = x.cf_pnum;
-                                       cf_pexp = x.cf_pexp; cf_buf =
-                                       x.cf_buf; cf_auto = x.cf_auto; slots =
-                                       x.slots; wslots = x.wslots; cslots =
-                                       x.cslots; values = x.values; bag =
-                                       x.bag; wparam = (l x); fuse_trace =
-                                       x.fuse_trace; fuse_fin = x.fuse_fin;
-                                       fuse_drop = x.fuse_drop; fuse_action =
-                                       x.fuse_action; fuse_closure =
-                                       x.fuse_closure; panicking =
-                                       x.panicking; next_aid = x.next_aid;
-                                       log = x.log })) tl m13
-                                   in
-                                   let m15 = weak_drop (WTo o) m14 in
-                                   let (m16, r3) =
-                                     run k p n0 (KStore (r0, o)) m15
-                                   in
-                                   (match r3 with
-                                    | ONormal -> ok m16 ROk
-                                    | _ -> (m16, r3))
-                                 | _ ->
-                                   let m12 =
-                                     dealloc k o (drop_metadata k o m11)
-                                   in
-                                   let m13 =
-                                     set (fun m13 -> m13.wparam) (fun f ->
-                                       let l = fun r1 -> f r1.wparam in
-                                       (fun x -> { heap = x.heap; pc = x.pc;
-                                       pc_size = x.pc_size; pc_alive =
-                                       x.pc_alive; st_collecting =
-                                       x.st_collecting; st_finalizing =
-                                       x.st_finalizing; st_dropping =
-                                       x.st_dropping; st_alloc = x.st_alloc;
-                                       st_exec = x.st_exec; cf_thr =
-                                       x.cf_thr; cf_pnum = x.cf_pnum;
-                                       cf_pexp = x.cf_pexp; cf_buf =
-                                       x.cf_buf; cf_auto = x.cf_auto; slots =
-                                       x.slots; wslots = x.wslots; cslots =
-                                       x.cslots; values = x.values; bag =
-                                       x.bag; wparam = (l x); fuse_trace =
-                                       x.fuse_trace; fuse_fin = x.fuse_fin;
-                                       fuse_drop = x.fuse_drop; fuse_action =
-                                       x.fuse_action; fuse_closure =
-                                       x.fuse_closure; panicking =
-                                       x.panicking; next_aid = x.next_aid;
-                                       log = x.log })) tl m12
-                                   in
-                                   ((weak_drop (WTo o) m13), r'')))
-                        else let r'' = ONormal in
-                             (match r'' with
-                              | ONormal ->
-                                let m12 =
-                                  upd o (fun x ->
-                                    set (fun o0 -> o0.o_vst) (fun f ->
-                                      let v = fun r1 -> f r1.o_vst in
-                                      (fun x0 -> { o_hdr = x0.o_hdr; o_vst =
-                                      (v x0); o_box = x0.o_box; o_side =
-                                      x0.o_side; o_cls = x0.o_cls; o_ismap =
-                                      x0.o_ismap; o_fields = x0.o_fields;
-                                      o_wfields = x0.o_wfields; o_cleaner =
-                                      x0.o_cleaner; o_borrowed =
-                                      x0.o_borrowed; o_mslots = x0.o_mslots;
-                                      o_mfree = x0.o_mfree; o_mborrowed =
-                                      x0.o_mborrowed })) (fun _ -> VLive) x)
-                                    m11
-                                in
-                                let m13 =
-                                  uhdr o (fun h ->
-                                    from_option (Obj.magic id) h (inc_rc h))
-                                    m12
-                                in
-                                let m14 =
-                                  set (fun m14 -> m14.wparam) (fun f ->
-                                    let l = fun r1 -> f r1.wparam in
-                                    (fun x -> { heap = x.heap; pc = x.pc;
-                                    pc_size = x.pc_size; pc_alive =
-                                    x.pc_alive; st_collecting =
-                                    x.st_collecting; st_finalizing =
-                                    x.st_finalizing; st_dropping =
-                                    x.st_dropping; st_alloc = x.st_alloc;
-                                    st_exec = x.st_exec; cf_thr = x.cf_thr;
-                                    cf_pnum = x.cf_pnum; cf_pexp = x.cf_pexp;
-                                    cf_buf = x.cf_buf; cf_auto = x.cf_auto;
-                                    slots = x.slots; wslots = x.wslots;
-                                    cslots = x.cslots; values = x.values;
-                                    bag = x.bag; wparam = (l x); fuse_trace =
-                                    x.fuse_trace; fuse_fin = x.fuse_fin;
-                                    fuse_drop = x.fuse_drop; fuse_action =
-                                    x.fuse_action; fuse_closure =
-                                    x.fuse_closure; panicking = x.panicking;
-                                    next_aid = x.next_aid; log = x.log })) tl
-                                    m13
-                                in
-                                let m15 = weak_drop (WTo o) m14 in
-                                let (m16, r3) =
-                                  run k p n0 (KStore (r0, o)) m15
-                                in
-                                (match r3 with
-                                 | ONormal -> ok m16 ROk
-                                 | _ -> (m16, r3))
-                              | _ ->
-                                let m12 = dealloc k o (drop_metadata k o m11)
-                                in
-                                let m13 =
-                                  set (fun m13 -> m13.wparam) (fun f ->
-                                    let l = fun r1 -> f r1.wparam in
-                                    (fun x -> { heap = x.heap; pc = x.pc;
-                                    pc_size = x.pc_size; pc_alive =
-                                    x.pc_alive; st_collecting =
-                                    x.st_collecting; st_finalizing =
-                                    x.st_finalizing; st_dropping =
-                                    x.st_dropping; st_alloc = x.st_alloc;
-                                    st_exec = x.st_exec; cf_thr = x.cf_thr;
-                                    cf_pnum = x.cf_pnum; cf_pexp = x.cf_pexp;
-                                    cf_buf = x.cf_buf; cf_auto = x.cf_auto;
-                                    slots = x.slots; wslots = x.wslots;
-                                    cslots = x.cslots; values = x.values;
-                                    bag = x.bag; wparam = (l x); fuse_trace =
-                                    x.fuse_trace; fuse_fin = x.fuse_fin;
-                                    fuse_drop = x.fuse_drop; fuse_action =
-                                    x.fuse_action; fuse_closure =
-                                    x.fuse_closure; panicking = x.panicking;
-                                    next_aid = x.next_aid; log = x.log })) tl
-                                    m12
-                                in
-                                ((weak_drop (WTo o) m13), r''))
-                      | OFuel -> (m11, OFuel)
+                        let m12 =
+                          upd o (fun x ->
+                            set (fun o0 -> o0.o_vst) (fun f ->
+                              let v = fun r1 -> f r1.o_vst in
+                              (fun x0 -> { o_hdr = x0.o_hdr; o_vst = 
+                              (v x0); o_box = x0.o_box; o_side = x0.o_side;
+                              o_cls = x0.o_cls; o_ismap = x0.o_ismap;
+                              o_fields = x0.o_fields; o_wfields =
+                              x0.o_wfields; o_cleaner = x0.o_cleaner;
+                              o_borrowed = x0.o_borrowed; o_mslots =
+                              x0.o_mslots; o_mfree = x0.o_mfree;
+                              o_mborrowed = x0.o_mborrowed })) (fun _ ->
+                              VLive) x) m11
+                        in
+                        let m13 =
+                          uhdr o (fun h ->
+                            from_option (Obj.magic id) h (inc_rc h)) m12
+                        in
+                        let m14 =
+                          set (fun m14 -> m14.wparam) (fun f ->
+                            let l = fun r1 -> f r1.wparam in
+                            (fun x -> { heap = x.heap; pc = x.pc; pc_size =
+                            x.pc_size; pc_alive = x.pc_alive; st_collecting =
+                            x.st_collecting; st_finalizing = x.st_finalizing;
+                            st_dropping = x.st_dropping; st_alloc =
+                            x.st_alloc; st_exec = x.st_exec; cf_thr =
+                            x.cf_thr; cf_pnum = x.cf_pnum; cf_pexp =
+                            x.cf_pexp; cf_buf = x.cf_buf; cf_auto =
+                            x.cf_auto; slots = x.slots; wslots = x.wslots;
+                            cslots = x.cslots; values = x.values; bag =
+                            x.bag; wparam = (l x); fuse_trace = x.fuse_trace;
+                            fuse_fin = x.fuse_fin; fuse_drop = x.fuse_drop;
+                            fuse_action = x.fuse_action; fuse_closure =
+                            x.fuse_closure; panicking = x.panicking;
+                            next_aid = x.next_aid; log = x.log })) tl m13
+                        in
+                        let m15 = weak_drop (WTo o) m14 in
+                        let (m16, r3) = rec0 (KStore (r0, o)) m15 in
+                        (match r3 with
+                         | ONormal -> ok m16 ROk
+                         | _ -> (m16, r3))
                       | _ ->
                         let m12 = dealloc k o (drop_metadata k o m11) in
                         let m13 =
@@ -2914,1157 +3674,14 @@ let rec run k p fuel c m =
                             x.fuse_closure; panicking = x.panicking;
                             next_aid = x.next_aid; log = x.log })) tl m12
                         in
-                        ((weak_drop (WTo o) m13), r'))
-                   | _ -> (m3, t))
-                | None -> ok m0 RSkip)
-        | CRegister (nd, script, c1) ->
-          if negb k.k_clean
-          then ok m RSkip
-          else let (m0, no) = nresolve self nd m in
-               (match no with
-                | Some o ->
-                  (match lookup0 list_lookup c1 m0.cslots with
-                   | Some _ ->
-                     (match get m0 o with
-                      | Some x ->
-                        if (||) (negb (class_of p x.o_cls).c_cleaner)
-                             x.o_ismap
-                        then ok m0 RSkip
-                        else let (p0, r) =
-                               match x.o_cleaner with
-                               | Some mo -> ((m0, mo), ONormal)
-                               | None ->
-                                 let (m1, mo) = new_map m0 in
-                                 let (m2, t) =
-                                   if k.k_auto
-                                   then run k p n0 KTrigger m1
-                                   else (m1, ONormal)
-                                 in
-                                 (match t with
-                                  | ONormal ->
-                                    let m3 = box_alloc k mo m2 in
-                                    (((upd o (fun x0 ->
-                                        set (fun o0 -> o0.o_cleaner)
-                                          (fun f ->
-                                          let o0 = fun r -> f r.o_cleaner in
-                                          (fun x1 -> { o_hdr = x1.o_hdr;
-                                          o_vst = x1.o_vst; o_box = x1.o_box;
-                                          o_side = x1.o_side; o_cls =
-                                          x1.o_cls; o_ismap = x1.o_ismap;
-                                          o_fields = x1.o_fields; o_wfields =
-                                          x1.o_wfields; o_cleaner = (o0 x1);
-                                          o_borrowed = x1.o_borrowed;
-                                          o_mslots = x1.o_mslots; o_mfree =
-                                          x1.o_mfree; o_mborrowed =
-                                          x1.o_mborrowed })) (fun _ -> Some
-                                          mo) x0) m3), mo), ONormal)
-                                  | OPanic ->
-                                    let (m3, r) =
-                                      unwinding (run k p n0 (KDropValue mo))
-                                        m2
-                                    in
-                                    ((m3, mo), r)
-                                  | _ -> ((m2, mo), t))
-                             in
-                             let (m1, mo) = p0 in
-                             (match r with
-                              | ONormal ->
-                                (match get m1 mo with
-                                 | Some mx ->
-                                   if mx.o_mborrowed
-                                   then (m1, (raise m1))
-                                   else let aid = m1.next_aid in
-                                        let m2 =
-                                          set (fun m2 -> m2.next_aid)
-                                            (fun f ->
-                                            let n1 = fun r0 -> f r0.next_aid
-                                            in
-                                            (fun x0 -> { heap = x0.heap; pc =
-                                            x0.pc; pc_size = x0.pc_size;
-                                            pc_alive = x0.pc_alive;
-                                            st_collecting = x0.st_collecting;
-                                            st_finalizing = x0.st_finalizing;
-                                            st_dropping = x0.st_dropping;
-                                            st_alloc = x0.st_alloc; st_exec =
-                                            x0.st_exec; cf_thr = x0.cf_thr;
-                                            cf_pnum = x0.cf_pnum; cf_pexp =
-                                            x0.cf_pexp; cf_buf = x0.cf_buf;
-                                            cf_auto = x0.cf_auto; slots =
-                                            x0.slots; wslots = x0.wslots;
-                                            cslots = x0.cslots; values =
-                                            x0.values; bag = x0.bag; wparam =
-                                            x0.wparam; fuse_trace =
-                                            x0.fuse_trace; fuse_fin =
-                                            x0.fuse_fin; fuse_drop =
-                                            x0.fuse_drop; fuse_action =
-                                            x0.fuse_action; fuse_closure =
-                                            x0.fuse_closure; panicking =
-                                            x0.panicking; next_aid = 
-                                            (n1 x0); log = x0.log }))
-                                            (fun _ -> S aid) m1
-                                        in
-                                        let (m3, slot) =
-                                          map_insert mo aid script m2
-                                        in
-                                        let m4 = init_side mo m3 in
-                                        (match mbind
-                                                 (Obj.magic (fun _ _ ->
-                                                   option_bind)) inc_wk
-                                                 (side_wk m4 mo) with
-                                         | Some k0 ->
-                                           let m5 =
-                                             remove_from_list mo
-                                               (uside mo (fun _ -> k0) m4)
-                                           in
-                                           let old =
-                                             mjoin
-                                               (Obj.magic (fun _ ->
-                                                 option_join))
-                                               (lookup0 list_lookup c1
-                                                 m5.cslots)
-                                           in
-                                           let m6 =
-                                             set (fun m6 -> m6.cslots)
-                                               (fun f ->
-                                               let l = fun r0 -> f r0.cslots
-                                               in
-                                               (fun x0 -> { heap = x0.heap;
-                                               pc = x0.pc; pc_size =
-                                               x0.pc_size; pc_alive =
-                                               x0.pc_alive; st_collecting =
-                                               x0.st_collecting;
-                                               st_finalizing =
-                                               x0.st_finalizing;
-                                               st_dropping = x0.st_dropping;
-                                               st_alloc = x0.st_alloc;
-                                               st_exec = x0.st_exec; cf_thr =
-                                               x0.cf_thr; cf_pnum =
-                                               x0.cf_pnum; cf_pexp =
-                                               x0.cf_pexp; cf_buf =
-                                               x0.cf_buf; cf_auto =
-                                               x0.cf_auto; slots = x0.slots;
-                                               wslots = x0.wslots; cslots =
-                                               (l x0); values = x0.values;
-                                               bag = x0.bag; wparam =
-                                               x0.wparam; fuse_trace =
-                                               x0.fuse_trace; fuse_fin =
-                                               x0.fuse_fin; fuse_drop =
-                                               x0.fuse_drop; fuse_action =
-                                               x0.fuse_action; fuse_closure =
-                                               x0.fuse_closure; panicking =
-                                               x0.panicking; next_aid =
-                                               x0.next_aid; log = x0.log }))
-                                               (insert0 list_insert c1 (Some
-                                                 { cr_map = mo; cr_slot =
-                                                 slot; cr_aid = aid })) m5
-                                           in
-                                           let m7 =
-                                             match old with
-                                             | Some cr ->
-                                               weak_drop (WTo
-                                                 (Obj.magic cr).cr_map) m6
-                                             | None -> m6
-                                           in
-                                           ok m7 ROk
-                                         | None -> (m4, (raise m4)))
-                                 | None ->
-                                   ((emit_bad BadState mo m1), ONormal))
-                              | _ -> (m1, r))
-                      | None -> ok m0 RSkip)
-                   | None -> ok m0 RSkip)
-                | None -> ok m0 RSkip)
-        | CClean c1 ->
-          if negb k.k_clean
-          then ok m RSkip
-          else (match mjoin (Obj.magic (fun _ -> option_join))
-                        (lookup0 list_lookup c1 m.cslots) with
-                | Some cr ->
-                  let mo = (Obj.magic cr).cr_map in
-                  let (m0, sc) = weak_strong_count (WTo mo) m in
-                  if N.eqb sc N0
-                  then ok m0 ROk
-                  else (match inc_rc (hdr_of m0 mo) with
-                        | Some h ->
-                          let m1 =
-                            remove_from_list mo (uhdr mo (fun _ -> h) m0)
-                          in
-                          (match get m1 mo with
-                           | Some mx ->
-                             if mx.o_mborrowed
-                             then let (m2, r) = run k p n0 (KDropCc mo) m1 in
-                                  (match r with
-                                   | ONormal -> ok m2 ROk
-                                   | _ -> (m2, r))
-                             else let m2 =
-                                    upd mo (fun x ->
-                                      set (fun o -> o.o_mborrowed) (fun f ->
-                                        let b = fun r -> f r.o_mborrowed in
-                                        (fun x0 -> { o_hdr = x0.o_hdr;
-                                        o_vst = x0.o_vst; o_box = x0.o_box;
-                                        o_side = x0.o_side; o_cls = x0.o_cls;
-                                        o_ismap = x0.o_ismap; o_fields =
-                                        x0.o_fields; o_wfields =
-                                        x0.o_wfields; o_cleaner =
-                                        x0.o_cleaner; o_borrowed =
-                                        x0.o_borrowed; o_mslots =
-                                        x0.o_mslots; o_mfree = x0.o_mfree;
-                                        o_mborrowed = (b x0) })) (fun _ ->
-                                        true) x) m1
-                                  in
-                                  let (m3, r) =
-                                    match lookup0 list_lookup
-                                            (Obj.magic cr).cr_slot mx.o_mslots with
-                                    | Some y ->
-                                      (match y with
-                                       | MVacant -> (m2, ONormal)
-                                       | MAction (aid, script) ->
-                                         if decide
-                                              (decide_rel Coq_Nat.eq_dec aid
-                                                (Obj.magic cr).cr_aid)
-                                         then let m3 =
-                                                upd mo (fun x ->
-                                                  set (fun o -> o.o_mfree)
-                                                    (fun f ->
-                                                    let l = fun r ->
-                                                      f r.o_mfree
-                                                    in
-                                                    (fun x0 -> { o_hdr =
-                                                    x0.o_hdr; o_vst =
-                                                    x0.o_vst; o_box =
-                                                    x0.o_box; o_side =
-                                                    x0.o_side; o_cls =
-                                                    x0.o_cls; o_ismap =
-                                                    x0.o_ismap; o_fields =
-                                                    x0.o_fields; o_wfields =
-                                                    x0.o_wfields; o_cleaner =
-                                                    x0.o_cleaner;
-                                                    o_borrowed =
-                                                    x0.o_borrowed; o_mslots =
-                                                    x0.o_mslots; o_mfree =
-                                                    (l x0); o_mborrowed =
-                                                    x0.o_mborrowed }))
-                                                    (fun x0 ->
-                                                    (Obj.magic cr).cr_slot :: x0)
-                                                    (set (fun o ->
-                                                      o.o_mslots) (fun f ->
-                                                      let l = fun r ->
-                                                        f r.o_mslots
-                                                      in
-                                                      (fun x0 -> { o_hdr =
-                                                      x0.o_hdr; o_vst =
-                                                      x0.o_vst; o_box =
-                                                      x0.o_box; o_side =
-                                                      x0.o_side; o_cls =
-                                                      x0.o_cls; o_ismap =
-                                                      x0.o_ismap; o_fields =
-                                                      x0.o_fields;
-                                                      o_wfields =
-                                                      x0.o_wfields;
-                                                      o_cleaner =
-                                                      x0.o_cleaner;
-                                                      o_borrowed =
-                                                      x0.o_borrowed;
-                                                      o_mslots = (l x0);
-                                                      o_mfree = x0.o_mfree;
-                                                      o_mborrowed =
-                                                      x0.o_mborrowed }))
-                                                      (insert0 list_insert
-                                                        (Obj.magic cr).cr_slot
-                                                        MVacant) x)) m2
-                                              in
-                                              run k p n0 (KCleanRun (mo, aid,
-                                                script)) m3
-                                         else (m2, ONormal))
-                                    | None -> (m2, ONormal)
-                                  in
-                                  let m4 =
-                                    upd mo (fun x ->
-                                      set (fun o -> o.o_mborrowed) (fun f ->
-                                        let b = fun r0 -> f r0.o_mborrowed in
-                                        (fun x0 -> { o_hdr = x0.o_hdr;
-                                        o_vst = x0.o_vst; o_box = x0.o_box;
-                                        o_side = x0.o_side; o_cls = x0.o_cls;
-                                        o_ismap = x0.o_ismap; o_fields =
-                                        x0.o_fields; o_wfields =
-                                        x0.o_wfields; o_cleaner =
-                                        x0.o_cleaner; o_borrowed =
-                                        x0.o_borrowed; o_mslots =
-                                        x0.o_mslots; o_mfree = x0.o_mfree;
-                                        o_mborrowed = (b x0) })) (fun _ ->
-                                        false) x) m3
-                                  in
-                                  (match r with
-                                   | ONormal ->
-                                     let (m5, r0) = run k p n0 (KDropCc mo) m4
-                                     in
-                                     (match r0 with
-                                      | ONormal -> ok m5 ROk
-                                      | _ -> (m5, r0))
-                                   | OPanic ->
-                                     unwinding (run k p n0 (KDropCc mo)) m4
-                                   | _ -> (m4, r))
-                           | None -> ((emit_bad BadState mo m1), ONormal))
-                        | None -> (m0, (raise m0)))
-                | None -> ok m RSkip)
-        | CCDrop c1 ->
-          if negb k.k_clean
-          then ok m RSkip
-          else (match mjoin (Obj.magic (fun _ -> option_join))
-                        (lookup0 list_lookup c1 m.cslots) with
-                | Some cr ->
-                  ok
-                    (weak_drop (WTo (Obj.magic cr).cr_map)
-                      (set (fun m0 -> m0.cslots) (fun f ->
-                        let l = fun r -> f r.cslots in
-                        (fun x -> { heap = x.heap; pc = x.pc; pc_size =
-                        x.pc_size; pc_alive = x.pc_alive; st_collecting =
-                        x.st_collecting; st_finalizing = x.st_finalizing;
-                        st_dropping = x.st_dropping; st_alloc = x.st_alloc;
-                        st_exec = x.st_exec; cf_thr = x.cf_thr; cf_pnum =
-                        x.cf_pnum; cf_pexp = x.cf_pexp; cf_buf = x.cf_buf;
-                        cf_auto = x.cf_auto; slots = x.slots; wslots =
-                        x.wslots; cslots = (l x); values = x.values; bag =
-                        x.bag; wparam = x.wparam; fuse_trace = x.fuse_trace;
-                        fuse_fin = x.fuse_fin; fuse_drop = x.fuse_drop;
-                        fuse_action = x.fuse_action; fuse_closure =
-                        x.fuse_closure; panicking = x.panicking; next_aid =
-                        x.next_aid; log = x.log }))
-                        (insert0 list_insert c1 None) m)) ROk
-                | None -> ok m RSkip)
-        | CBag (l, k0) ->
-          let (m0, r) = resolve self l m in
-          (match mbind (Obj.magic (fun _ _ -> option_bind)) (fun r0 ->
-                   Obj.magic read_loc r0 m0) r with
-           | Some o ->
-             let rec go k1 m1 =
-               match k1 with
-               | O -> ok m1 ROk
-               | S k' ->
-                 (match inc_rc (hdr_of m1 (Obj.magic o)) with
-                  | Some h ->
-                    go k'
-                      (set (Obj.magic (fun m2 -> m2.bag)) (fun f ->
-                        let l0 = fun r0 -> Obj.magic f r0.bag in
-                        (fun x -> { heap = x.heap; pc = x.pc; pc_size =
-                        x.pc_size; pc_alive = x.pc_alive; st_collecting =
-                        x.st_collecting; st_finalizing = x.st_finalizing;
-                        st_dropping = x.st_dropping; st_alloc = x.st_alloc;
-                        st_exec = x.st_exec; cf_thr = x.cf_thr; cf_pnum =
-                        x.cf_pnum; cf_pexp = x.cf_pexp; cf_buf = x.cf_buf;
-                        cf_auto = x.cf_auto; slots = x.slots; wslots =
-                        x.wslots; cslots = x.cslots; values = x.values; bag =
-                        (l0 x); wparam = x.wparam; fuse_trace = x.fuse_trace;
-                        fuse_fin = x.fuse_fin; fuse_drop = x.fuse_drop;
-                        fuse_action = x.fuse_action; fuse_closure =
-                        x.fuse_closure; panicking = x.panicking; next_aid =
-                        x.next_aid; log = x.log })) (fun x -> o :: x)
-                        (remove_from_list (Obj.magic o)
-                          (uhdr (Obj.magic o) (fun _ -> h) m1)))
-                  | None -> (m1, (raise m1)))
-             in go (N.to_nat k0) m0
-           | None -> ok m0 RSkip)
-        | CUnbag k0 ->
-          let (m0, r) = run k p n0 (KUnbag (N.to_nat k0)) m in
-          (match r with
-           | ONormal -> ok m0 ROk
-           | _ -> (m0, r))
-        | CBorrow nd ->
-          let (m0, no) = nresolve self nd m in
-          (match no with
-           | Some o ->
-             ok
-               (upd o (fun x ->
-                 set (fun o0 -> o0.o_borrowed) (fun f ->
-                   let b = fun r -> f r.o_borrowed in
-                   (fun x0 -> { o_hdr = x0.o_hdr; o_vst = x0.o_vst; o_box =
-                   x0.o_box; o_side = x0.o_side; o_cls = x0.o_cls; o_ismap =
-                   x0.o_ismap; o_fields = x0.o_fields; o_wfields =
-                   x0.o_wfields; o_cleaner = x0.o_cleaner; o_borrowed =
-                   (b x0); o_mslots = x0.o_mslots; o_mfree = x0.o_mfree;
-                   o_mborrowed = x0.o_mborrowed })) (fun _ -> true) x) m0) ROk
-           | None -> ok m0 RSkip)
-        | CUnborrow nd ->
-          let (m0, no) = nresolve self nd m in
-          (match no with
-           | Some o ->
-             ok
-               (upd o (fun x ->
-                 set (fun o0 -> o0.o_borrowed) (fun f ->
-                   let b = fun r -> f r.o_borrowed in
-                   (fun x0 -> { o_hdr = x0.o_hdr; o_vst = x0.o_vst; o_box =
-                   x0.o_box; o_side = x0.o_side; o_cls = x0.o_cls; o_ismap =
-                   x0.o_ismap; o_fields = x0.o_fields; o_wfields =
-                   x0.o_wfields; o_cleaner = x0.o_cleaner; o_borrowed =
-                   (b x0); o_mslots = x0.o_mslots; o_mfree = x0.o_mfree;
-                   o_mborrowed = x0.o_mborrowed })) (fun _ -> false) x) m0)
-               ROk
-           | None -> ok m0 RSkip)
-        | CCfgAuto b ->
-          if k.k_auto
-          then ok
-                 (set (fun m0 -> m0.cf_auto) (fun f ->
-                   let b0 = fun r -> f r.cf_auto in
-                   (fun x -> { heap = x.heap; pc = x.pc; pc_size = x.pc_size;
-                   pc_alive = x.pc_alive; st_collecting = x.st_collecting;
-                   st_finalizing = x.st_finalizing; st_dropping =
-                   x.st_dropping; st_alloc = x.st_alloc; st_exec = x.st_exec;
-                   cf_thr = x.cf_thr; cf_pnum = x.cf_pnum; cf_pexp =
-                   x.cf_pexp; cf_buf = x.cf_buf; cf_auto = (b0 x); slots =
-                   x.slots; wslots = x.wslots; cslots = x.cslots; values =
-                   x.values; bag = x.bag; wparam = x.wparam; fuse_trace =
-                   x.fuse_trace; fuse_fin = x.fuse_fin; fuse_drop =
-                   x.fuse_drop; fuse_action = x.fuse_action; fuse_closure =
-                   x.fuse_closure; panicking = x.panicking; next_aid =
-                   x.next_aid; log = x.log })) (fun _ -> b) m) ROk
-          else ok m RSkip
-        | CCfgPercent (num, e) ->
-          if k.k_auto
-          then if N.ltb (N.shiftl (Npos XH) e) num
-               then (m, (raise m))
-               else ok
-                      (set (fun m0 -> m0.cf_pexp) (fun f ->
-                        let n1 = fun r -> f r.cf_pexp in
-                        (fun x -> { heap = x.heap; pc = x.pc; pc_size =
-                        x.pc_size; pc_alive = x.pc_alive; st_collecting =
-                        x.st_collecting; st_finalizing = x.st_finalizing;
-                        st_dropping = x.st_dropping; st_alloc = x.st_alloc;
-                        st_exec = x.st_exec; cf_thr = x.cf_thr; cf_pnum =
-                        x.cf_pnum; cf_pexp = (n1 x); cf_buf = x.cf_buf;
-                        cf_auto = x.cf_auto; slots = x.slots; wslots =
-                        x.wslots; cslots = x.cslots; values = x.values; bag =
-                        x.bag; wparam = x.wparam; fuse_trace = x.fuse_trace;
-                        fuse_fin = x.fuse_fin; fuse_drop = x.fuse_drop;
-                        fuse_action = x.fuse_action; fuse_closure =
-                        x.fuse_closure; panicking = x.panicking; next_aid =
-                        x.next_aid; log = x.log })) (fun _ -> e)
-                        (set (fun m0 -> m0.cf_pnum) (fun f ->
-                          let n1 = fun r -> f r.cf_pnum in
-                          (fun x -> { heap = x.heap; pc = x.pc; pc_size =
-                          x.pc_size; pc_alive = x.pc_alive; st_collecting =
-                          x.st_collecting; st_finalizing = x.st_finalizing;
-                          st_dropping = x.st_dropping; st_alloc = x.st_alloc;
-                          st_exec = x.st_exec; cf_thr = x.cf_thr; cf_pnum =
-                          (n1 x); cf_pexp = x.cf_pexp; cf_buf = x.cf_buf;
-                          cf_auto = x.cf_auto; slots = x.slots; wslots =
-                          x.wslots; cslots = x.cslots; values = x.values;
-                          bag = x.bag; wparam = x.wparam; fuse_trace =
-                          x.fuse_trace; fuse_fin = x.fuse_fin; fuse_drop =
-                          x.fuse_drop; fuse_action = x.fuse_action;
-                          fuse_closure = x.fuse_closure; panicking =
-                          x.panicking; next_aid = x.next_aid; log = x.log }))
-                          (fun _ -> num) m)) ROk
-          else ok m RSkip
-        | CCfgBuffered b ->
-          if k.k_auto
-          then ok
-                 (set (fun m0 -> m0.cf_buf) (fun f ->
-                   let n1 = fun r -> f r.cf_buf in
-                   (fun x -> { heap = x.heap; pc = x.pc; pc_size = x.pc_size;
-                   pc_alive = x.pc_alive; st_collecting = x.st_collecting;
-                   st_finalizing = x.st_finalizing; st_dropping =
-                   x.st_dropping; st_alloc = x.st_alloc; st_exec = x.st_exec;
-                   cf_thr = x.cf_thr; cf_pnum = x.cf_pnum; cf_pexp =
-                   x.cf_pexp; cf_buf = (n1 x); cf_auto = x.cf_auto; slots =
-                   x.slots; wslots = x.wslots; cslots = x.cslots; values =
-                   x.values; bag = x.bag; wparam = x.wparam; fuse_trace =
-                   x.fuse_trace; fuse_fin = x.fuse_fin; fuse_drop =
-                   x.fuse_drop; fuse_action = x.fuse_action; fuse_closure =
-                   x.fuse_closure; panicking = x.panicking; next_aid =
-                   x.next_aid; log = x.log })) (fun _ -> b) m) ROk
-          else ok m RSkip
-        | CArm (k0, v) -> ok (set_fuse k0 v m) ROk
-        | CPanic -> (m, (raise m))
-        | CObs l ->
-          let (m0, r) = resolve self l m in
-          (match mbind (Obj.magic (fun _ _ -> option_bind)) (fun r0 ->
-                   Obj.magic read_loc r0 m0) r with
-           | Some o ->
-             (match get m0 (Obj.magic o) with
-              | Some x ->
-                let m1 =
-                  match x.o_box with
-                  | BAlloc -> m0
-                  | _ -> emit_bad UseAfterFree (Obj.magic o) m0
-                in
-                let wc =
-                  if x.o_hdr.h_side
-                  then (match x.o_side with
-                        | Some s -> s.sd_wk.w_cnt
-                        | None -> N0)
-                  else N0
-                in
-                let alive = match x.o_vst with
-                            | VLive -> true
-                            | _ -> false in
-                let m2 =
-                  if alive then m1 else emit_bad UseAfterDrop (Obj.magic o) m1
-                in
-                ok
-                  (emit (EObs ((Obj.magic o), x.o_hdr.h_rc, wc,
-                    x.o_hdr.h_fin, alive)) m2) ROk
-              | None -> ok (emit_bad BadState (Obj.magic o) m0) ROk)
-           | None -> ok m0 RSkip)
-        | CWObs w ->
-          if negb k.k_weak
-          then ok m RSkip
-          else let (m0, rw) = wresolve self w m in
-               (match mbind (Obj.magic (fun _ _ -> option_bind)) (fun rw0 ->
-                        Obj.magic read_wloc rw0 m0) rw with
-                | Some wr ->
-                  let (m1, sc) = weak_strong_count (Obj.magic wr) m0 in
-                  let (m2, wc) = weak_weak_count (Obj.magic wr) m1 in
-                  ok (emit (EWObs (sc, wc)) m2) ROk
-                | None -> ok m0 RSkip)
-        | CSObs ->
-          ok
-            (emit (ESObs (m.st_alloc,
-              (if m.pc_alive then Some m.pc_size else None), m.st_exec,
-              (cur_flags k m).fl_t)) m) ROk)
-     | KScript (self, cs) ->
-       (match cs with
-        | [] -> (m, ONormal)
-        | c0 :: cs' ->
-          let (m0, r) = run k p n0 (KCmd (self, c0)) m in
-          (match r with
-           | ONormal -> run k p n0 (KScript (self, cs')) m0
-           | _ -> (m0, r)))
-     | KStore (r, v) ->
-       let old = read_loc r m in
-       let m0 = write_loc r (Some v) m in
-       (match old with
-        | Some t -> run k p n0 (KDropCc t) m0
-        | None -> (m0, ONormal))
-     | KDropCc o ->
-       (match get m o with
-        | Some x ->
-          let m0 =
-            match x.o_box with
-            | BAlloc -> m
-            | _ -> emit_bad UseAfterFree o m
-          in
-          let h = x.o_hdr in
-          if is_in_list_or_queue h
-          then ((dec_rc_m o m0), ONormal)
-          else if N.eqb h.h_rc (Npos XH)
-               then let fin_step = fun m1 ->
-                      if (&&) k.k_fin (needs_fin h)
-                      then let old_f = m1.st_finalizing in
-                           let m2 =
-                             set (fun m2 -> m2.st_finalizing) (fun f ->
-                               let b = fun r -> f r.st_finalizing in
-                               (fun x0 -> { heap = x0.heap; pc = x0.pc;
-                               pc_size = x0.pc_size; pc_alive = x0.pc_alive;
-                               st_collecting = x0.st_collecting;
-                               st_finalizing = (b x0); st_dropping =
-                               x0.st_dropping; st_alloc = x0.st_alloc;
-                               st_exec = x0.st_exec; cf_thr = x0.cf_thr;
-                               cf_pnum = x0.cf_pnum; cf_pexp = x0.cf_pexp;
-                               cf_buf = x0.cf_buf; cf_auto = x0.cf_auto;
-                               slots = x0.slots; wslots = x0.wslots; cslots =
-                               x0.cslots; values = x0.values; bag = x0.bag;
-                               wparam = x0.wparam; fuse_trace =
-                               x0.fuse_trace; fuse_fin = x0.fuse_fin;
-                               fuse_drop = x0.fuse_drop; fuse_action =
-                               x0.fuse_action; fuse_closure =
-                               x0.fuse_closure; panicking = x0.panicking;
-                               next_aid = x0.next_aid; log = x0.log }))
-                               (fun _ -> true) m1
-                           in
-                           let m3 = uhdr o (set_fin true) m2 in
-                           let (m4, r) =
-                             if x.o_ismap
-                             then (m3, ONormal)
-                             else let m4 =
-                                    emit (ECb (KFin, o, (cur_flags k m3))) m3
-                                  in
-                                  let (m5, boom) = tick KFin m4 in
-                                  if boom
-                                  then (m5, (raise m5))
-                                  else run k p n0 (KScript ((Some o),
-                                         (oscript p
-                                           (class_of p x.o_cls).c_fin))) m5
-                           in
-                           (match r with
-                            | ONormal ->
-                              if N.eqb (hdr_of m4 o).h_rc (Npos XH)
-                              then (((set (fun m5 -> m5.st_finalizing)
-                                       (fun f ->
-                                       let b = fun r0 -> f r0.st_finalizing in
-                                       (fun x0 -> { heap = x0.heap; pc =
-                                       x0.pc; pc_size = x0.pc_size;
-                                       pc_alive = x0.pc_alive;
-                                       st_collecting = x0.st_collecting;
-                                       st_finalizing = (b x0); st_dropping =
-                                       x0.st_dropping; st_alloc =
-                                       x0.st_alloc; st_exec = x0.st_exec;
-                                       cf_thr = x0.cf_thr; cf_pnum =
-                                       x0.cf_pnum; cf_pexp = x0.cf_pexp;
-                                       cf_buf = x0.cf_buf; cf_auto =
-                                       x0.cf_auto; slots = x0.slots; wslots =
-                                       x0.wslots; cslots = x0.cslots;
-                                       values = x0.values; bag = x0.bag;
-                                       wparam = x0.wparam; fuse_trace =
-                                       x0.fuse_trace; fuse_fin = x0.fuse_fin;
-                                       fuse_drop = x0.fuse_drop;
-                                       fuse_action = x0.fuse_action;
-                                       fuse_closure = x0.fuse_closure;
-                                       panicking = x0.panicking; next_aid =
-                                       x0.next_aid; log = x0.log }))
-                                       (fun _ -> old_f) m4), ONormal), true)
-                              else (((set (fun m5 -> m5.st_finalizing)
-                                       (fun f ->
-                                       let b = fun r0 -> f r0.st_finalizing in
-                                       (fun x0 -> { heap = x0.heap; pc =
-                                       x0.pc; pc_size = x0.pc_size;
-                                       pc_alive = x0.pc_alive;
-                                       st_collecting = x0.st_collecting;
-                                       st_finalizing = (b x0); st_dropping =
-                                       x0.st_dropping; st_alloc =
-                                       x0.st_alloc; st_exec = x0.st_exec;
-                                       cf_thr = x0.cf_thr; cf_pnum =
-                                       x0.cf_pnum; cf_pexp = x0.cf_pexp;
-                                       cf_buf = x0.cf_buf; cf_auto =
-                                       x0.cf_auto; slots = x0.slots; wslots =
-                                       x0.wslots; cslots = x0.cslots;
-                                       values = x0.values; bag = x0.bag;
-                                       wparam = x0.wparam; fuse_trace =
-                                       x0.fuse_trace; fuse_fin = x0.fuse_fin;
-                                       fuse_drop = x0.fuse_drop;
-                                       fuse_action = x0.fuse_action;
-                                       fuse_closure = x0.fuse_closure;
-                                       panicking = x0.panicking; next_aid =
-                                       x0.next_aid; log = x0.log }))
-                                       (fun _ -> old_f)
-                                       (add_to_list o (dec_rc_m o m4))),
-                                     ONormal), false)
-                            | _ ->
-                              (((set (fun m5 -> m5.st_finalizing) (fun f ->
-                                  let b = fun r0 -> f r0.st_finalizing in
-                                  (fun x0 -> { heap = x0.heap; pc = x0.pc;
-                                  pc_size = x0.pc_size; pc_alive =
-                                  x0.pc_alive; st_collecting =
-                                  x0.st_collecting; st_finalizing = (b x0);
-                                  st_dropping = x0.st_dropping; st_alloc =
-                                  x0.st_alloc; st_exec = x0.st_exec; cf_thr =
-                                  x0.cf_thr; cf_pnum = x0.cf_pnum; cf_pexp =
-                                  x0.cf_pexp; cf_buf = x0.cf_buf; cf_auto =
-                                  x0.cf_auto; slots = x0.slots; wslots =
-                                  x0.wslots; cslots = x0.cslots; values =
-                                  x0.values; bag = x0.bag; wparam =
-                                  x0.wparam; fuse_trace = x0.fuse_trace;
-                                  fuse_fin = x0.fuse_fin; fuse_drop =
-                                  x0.fuse_drop; fuse_action = x0.fuse_action;
-                                  fuse_closure = x0.fuse_closure; panicking =
-                                  x0.panicking; next_aid = x0.next_aid; log =
-                                  x0.log })) (fun _ -> old_f) m4), r), false))
-                      else ((m1, ONormal), true)
-                    in
-                    let (p0, go) = fin_step m0 in
-                    let (m1, r) = p0 in
-                    if negb go
-                    then (m1, r)
-                    else let m2 = dec_rc_m o m1 in
-                         let m3 = remove_from_list o m2 in
-                         let old_d = m3.st_dropping in
-                         let m4 =
-                           set (fun m4 -> m4.st_dropping) (fun f ->
-                             let b = fun r0 -> f r0.st_dropping in
-                             (fun x0 -> { heap = x0.heap; pc = x0.pc;
-                             pc_size = x0.pc_size; pc_alive = x0.pc_alive;
-                             st_collecting = x0.st_collecting;
-                             st_finalizing = x0.st_finalizing; st_dropping =
-                             (b x0); st_alloc = x0.st_alloc; st_exec =
-                             x0.st_exec; cf_thr = x0.cf_thr; cf_pnum =
-                             x0.cf_pnum; cf_pexp = x0.cf_pexp; cf_buf =
-                             x0.cf_buf; cf_auto = x0.cf_auto; slots =
-                             x0.slots; wslots = x0.wslots; cslots =
-                             x0.cslots; values = x0.values; bag = x0.bag;
-                             wparam = x0.wparam; fuse_trace = x0.fuse_trace;
-                             fuse_fin = x0.fuse_fin; fuse_drop =
-                             x0.fuse_drop; fuse_action = x0.fuse_action;
-                             fuse_closure = x0.fuse_closure; panicking =
-                             x0.panicking; next_aid = x0.next_aid; log =
-                             x0.log })) (fun _ -> true) m3
-                         in
-                         let m5 =
-                           if k.k_weak then uhdr o set_dropped m4 else m4
-                         in
-                         let (m6, r0) = run k p n0 (KDropValue o) m5 in
-                         (match r0 with
-                          | ONormal ->
-                            let m7 = drop_metadata k o m6 in
-                            let m8 = dealloc k o m7 in
-                            ((set (fun m9 -> m9.st_dropping) (fun f ->
-                               let b = fun r1 -> f r1.st_dropping in
-                               (fun x0 -> { heap = x0.heap; pc = x0.pc;
-                               pc_size = x0.pc_size; pc_alive = x0.pc_alive;
-                               st_collecting = x0.st_collecting;
-                               st_finalizing = x0.st_finalizing;
-                               st_dropping = (b x0); st_alloc = x0.st_alloc;
-                               st_exec = x0.st_exec; cf_thr = x0.cf_thr;
-                               cf_pnum = x0.cf_pnum; cf_pexp = x0.cf_pexp;
-                               cf_buf = x0.cf_buf; cf_auto = x0.cf_auto;
-                               slots = x0.slots; wslots = x0.wslots; cslots =
-                               x0.cslots; values = x0.values; bag = x0.bag;
-                               wparam = x0.wparam; fuse_trace =
-                               x0.fuse_trace; fuse_fin = x0.fuse_fin;
-                               fuse_drop = x0.fuse_drop; fuse_action =
-                               x0.fuse_action; fuse_closure =
-                               x0.fuse_closure; panicking = x0.panicking;
-                               next_aid = x0.next_aid; log = x0.log }))
-                               (fun _ -> old_d) m8), ONormal)
-                          | _ ->
-                            ((set (fun m7 -> m7.st_dropping) (fun f ->
-                               let b = fun r1 -> f r1.st_dropping in
-                               (fun x0 -> { heap = x0.heap; pc = x0.pc;
-                               pc_size = x0.pc_size; pc_alive = x0.pc_alive;
-                               st_collecting = x0.st_collecting;
-                               st_finalizing = x0.st_finalizing;
-                               st_dropping = (b x0); st_alloc = x0.st_alloc;
-                               st_exec = x0.st_exec; cf_thr = x0.cf_thr;
-                               cf_pnum = x0.cf_pnum; cf_pexp = x0.cf_pexp;
-                               cf_buf = x0.cf_buf; cf_auto = x0.cf_auto;
-                               slots = x0.slots; wslots = x0.wslots; cslots =
-                               x0.cslots; values = x0.values; bag = x0.bag;
-                               wparam = x0.wparam; fuse_trace =
-                               x0.fuse_trace; fuse_fin = x0.fuse_fin;
-                               fuse_drop = x0.fuse_drop; fuse_action =
-                               x0.fuse_action; fuse_closure =
-                               x0.fuse_closure; panicking = x0.panicking;
-                               next_aid = x0.next_aid; log = x0.log }))
-                               (fun _ -> old_d) m6), r0))
-               else ((add_to_list o (dec_rc_m o m0)), ONormal)
-        | None -> ((emit_bad BadState o m), ONormal))
-     | KDropValue o ->
-       (match get m o with
-        | Some x ->
-          (match x.o_vst with
-           | VLive ->
-             let m0 =
-               upd o (fun x0 ->
-                 set (fun o0 -> o0.o_vst) (fun f ->
-                   let v = fun r -> f r.o_vst in
-                   (fun x1 -> { o_hdr = x1.o_hdr; o_vst = (v x1); o_box =
-                   x1.o_box; o_side = x1.o_side; o_cls = x1.o_cls; o_ismap =
-                   x1.o_ismap; o_fields = x1.o_fields; o_wfields =
-                   x1.o_wfields; o_cleaner = x1.o_cleaner; o_borrowed =
-                   x1.o_borrowed; o_mslots = x1.o_mslots; o_mfree =
-                   x1.o_mfree; o_mborrowed = x1.o_mborrowed })) (fun _ ->
-                   VDropping) x0) m
-             in
-             if x.o_ismap
-             then let (m1, r) = run k p n0 (KDropMapSlots (o, O)) m0 in
-                  ((upd o (fun x0 ->
-                     set (fun o0 -> o0.o_vst) (fun f ->
-                       let v = fun r0 -> f r0.o_vst in
-                       (fun x1 -> { o_hdr = x1.o_hdr; o_vst = (v x1); o_box =
-                       x1.o_box; o_side = x1.o_side; o_cls = x1.o_cls;
-                       o_ismap = x1.o_ismap; o_fields = x1.o_fields;
-                       o_wfields = x1.o_wfields; o_cleaner = x1.o_cleaner;
-                       o_borrowed = x1.o_borrowed; o_mslots = x1.o_mslots;
-                       o_mfree = x1.o_mfree; o_mborrowed = x1.o_mborrowed }))
-                       (fun _ -> VDropped) x0) m1), r)
-             else let m1 = emit (ECb (KDrop, o, (cur_flags k m0))) m0 in
-                  let (m2, boom) = tick KDrop m1 in
-                  let (m3, r) =
-                    if boom
-                    then (m2, (raise m2))
-                    else run k p n0 (KScript ((Some o),
-                           (oscript p (class_of p x.o_cls).c_drop))) m2
-                  in
-                  let (m4, r0) =
-                    match r with
-                    | ONormal -> run k p n0 (KDropFields (o, O)) m3
-                    | OPanic -> unwinding (run k p n0 (KDropFields (o, O))) m3
-                    | _ -> (m3, r)
-                  in
-                  ((upd o (fun x0 ->
-                     set (fun o0 -> o0.o_vst) (fun f ->
-                       let v = fun r1 -> f r1.o_vst in
-                       (fun x1 -> { o_hdr = x1.o_hdr; o_vst = (v x1); o_box =
-                       x1.o_box; o_side = x1.o_side; o_cls = x1.o_cls;
-                       o_ismap = x1.o_ismap; o_fields = x1.o_fields;
-                       o_wfields = x1.o_wfields; o_cleaner = x1.o_cleaner;
-                       o_borrowed = x1.o_borrowed; o_mslots = x1.o_mslots;
-                       o_mfree = x1.o_mfree; o_mborrowed = x1.o_mborrowed }))
-                       (fun _ -> VDropped) x0) m4), r0)
-           | VUninit -> ((emit_bad UninitDrop o m), ONormal)
-           | VMoved ->
-             let m0 =
-               upd o (fun x0 ->
-                 set (fun o0 -> o0.o_vst) (fun f ->
-                   let v = fun r -> f r.o_vst in
-                   (fun x1 -> { o_hdr = x1.o_hdr; o_vst = (v x1); o_box =
-                   x1.o_box; o_side = x1.o_side; o_cls = x1.o_cls; o_ismap =
-                   x1.o_ismap; o_fields = x1.o_fields; o_wfields =
-                   x1.o_wfields; o_cleaner = x1.o_cleaner; o_borrowed =
-                   x1.o_borrowed; o_mslots = x1.o_mslots; o_mfree =
-                   x1.o_mfree; o_mborrowed = x1.o_mborrowed })) (fun _ ->
-                   VDropping) x0) m
-             in
-             if x.o_ismap
-             then let (m1, r) = run k p n0 (KDropMapSlots (o, O)) m0 in
-                  ((upd o (fun x0 ->
-                     set (fun o0 -> o0.o_vst) (fun f ->
-                       let v = fun r0 -> f r0.o_vst in
-                       (fun x1 -> { o_hdr = x1.o_hdr; o_vst = (v x1); o_box =
-                       x1.o_box; o_side = x1.o_side; o_cls = x1.o_cls;
-                       o_ismap = x1.o_ismap; o_fields = x1.o_fields;
-                       o_wfields = x1.o_wfields; o_cleaner = x1.o_cleaner;
-                       o_borrowed = x1.o_borrowed; o_mslots = x1.o_mslots;
-                       o_mfree = x1.o_mfree; o_mborrowed = x1.o_mborrowed }))
-                       (fun _ -> VDropped) x0) m1), r)
-             else let m1 = emit (ECb (KDrop, o, (cur_flags k m0))) m0 in
-                  let (m2, boom) = tick KDrop m1 in
-                  let (m3, r) =
-                    if boom
-                    then (m2, (raise m2))
-                    else run k p n0 (KScript ((Some o),
-                           (oscript p (class_of p x.o_cls).c_drop))) m2
-                  in
-                  let (m4, r0) =
-                    match r with
-                    | ONormal -> run k p n0 (KDropFields (o, O)) m3
-                    | OPanic -> unwinding (run k p n0 (KDropFields (o, O))) m3
-                    | _ -> (m3, r)
-                  in
-                  ((upd o (fun x0 ->
-                     set (fun o0 -> o0.o_vst) (fun f ->
-                       let v = fun r1 -> f r1.o_vst in
-                       (fun x1 -> { o_hdr = x1.o_hdr; o_vst = (v x1); o_box =
-                       x1.o_box; o_side = x1.o_side; o_cls = x1.o_cls;
-                       o_ismap = x1.o_ismap; o_fields = x1.o_fields;
-                       o_wfields = x1.o_wfields; o_cleaner = x1.o_cleaner;
-                       o_borrowed = x1.o_borrowed; o_mslots = x1.o_mslots;
-                       o_mfree = x1.o_mfree; o_mborrowed = x1.o_mborrowed }))
-                       (fun _ -> VDropped) x0) m4), r0)
-           | _ -> ((emit_bad DoubleDrop o m), ONormal))
-        | None -> ((emit_bad BadState o m), ONormal))
-     | KDropFields (o, j) ->
-       (match get m o with
-        | Some x ->
-          if decide (decide_rel Coq_Nat.lt_dec j (length x.o_fields))
-          then let f =
-                 mjoin (Obj.magic (fun _ -> option_join))
-                   (lookup0 list_lookup j x.o_fields)
-               in
-               let m0 =
-                 upd o (fun x0 ->
-                   set (fun o0 -> o0.o_fields) (fun f0 ->
-                     let l = fun r -> f0 r.o_fields in
-                     (fun x1 -> { o_hdr = x1.o_hdr; o_vst = x1.o_vst; o_box =
-                     x1.o_box; o_side = x1.o_side; o_cls = x1.o_cls;
-                     o_ismap = x1.o_ismap; o_fields = (l x1); o_wfields =
-                     x1.o_wfields; o_cleaner = x1.o_cleaner; o_borrowed =
-                     x1.o_borrowed; o_mslots = x1.o_mslots; o_mfree =
-                     x1.o_mfree; o_mborrowed = x1.o_mborrowed }))
-                     (insert0 list_insert j None) x0) m
-               in
-               let (m1, r) =
-                 match f with
-                 | Some t -> run k p n0 (KDropCc (Obj.magic t)) m0
-                 | None -> (m0, ONormal)
-               in
-               (match r with
-                | ONormal -> run k p n0 (KDropFields (o, (S j))) m1
-                | OPanic -> unwinding (run k p n0 (KDropFields (o, (S j)))) m1
-                | _ -> (m1, r))
-          else let m0 =
-                 fold_left (fun m0 w -> weak_drop_opt w m0) x.o_wfields m
-               in
-               let m1 =
-                 upd o (fun x0 ->
-                   set (Obj.magic (fun o0 -> o0.o_wfields)) (fun f ->
-                     let l = fun r -> Obj.magic f r.o_wfields in
-                     (fun x1 -> { o_hdr = x1.o_hdr; o_vst = x1.o_vst; o_box =
-                     x1.o_box; o_side = x1.o_side; o_cls = x1.o_cls;
-                     o_ismap = x1.o_ismap; o_fields = x1.o_fields;
-                     o_wfields = (l x1); o_cleaner = x1.o_cleaner;
-                     o_borrowed = x1.o_borrowed; o_mslots = x1.o_mslots;
-                     o_mfree = x1.o_mfree; o_mborrowed = x1.o_mborrowed }))
-                     (fmap (fun _ _ -> list_fmap) (fun _ -> None)) x0) m0
-               in
-               (match x.o_cleaner with
-                | Some t ->
-                  run k p n0 (KDropCc t)
-                    (upd o (fun x0 ->
-                      set (fun o0 -> o0.o_cleaner) (fun f ->
-                        let o0 = fun r -> f r.o_cleaner in
-                        (fun x1 -> { o_hdr = x1.o_hdr; o_vst = x1.o_vst;
-                        o_box = x1.o_box; o_side = x1.o_side; o_cls =
-                        x1.o_cls; o_ismap = x1.o_ismap; o_fields =
-                        x1.o_fields; o_wfields = x1.o_wfields; o_cleaner =
-                        (o0 x1); o_borrowed = x1.o_borrowed; o_mslots =
-                        x1.o_mslots; o_mfree = x1.o_mfree; o_mborrowed =
-                        x1.o_mborrowed })) (fun _ -> None) x0) m1)
-                | None -> (m1, ONormal))
-        | None -> ((emit_bad BadState o m), ONormal))
-     | KDropMapSlots (o, j) ->
-       (match get m o with
-        | Some x ->
-          (match lookup0 list_lookup j x.o_mslots with
-           | Some sl ->
-             let m0 =
-               upd o (fun x0 ->
-                 set (fun o0 -> o0.o_mslots) (fun f ->
-                   let l = fun r -> f r.o_mslots in
-                   (fun x1 -> { o_hdr = x1.o_hdr; o_vst = x1.o_vst; o_box =
-                   x1.o_box; o_side = x1.o_side; o_cls = x1.o_cls; o_ismap =
-                   x1.o_ismap; o_fields = x1.o_fields; o_wfields =
-                   x1.o_wfields; o_cleaner = x1.o_cleaner; o_borrowed =
-                   x1.o_borrowed; o_mslots = (l x1); o_mfree = x1.o_mfree;
-                   o_mborrowed = x1.o_mborrowed }))
-                   (insert0 list_insert j MVacant) x0) m
-             in
-             let (m1, r) =
-               match sl with
-               | MVacant -> (m0, ONormal)
-               | MAction (aid, script) ->
-                 run k p n0 (KCleanRun (o, aid, script)) m0
-             in
-             (match r with
-              | ONormal -> run k p n0 (KDropMapSlots (o, (S j))) m1
-              | OPanic -> unwinding (run k p n0 (KDropMapSlots (o, (S j)))) m1
-              | _ -> (m1, r))
-           | None -> (m, ONormal))
-        | None -> ((emit_bad BadState o m), ONormal))
-     | KTrigger ->
-       if m.st_collecting
-       then (m, ONormal)
-       else if negb m.pc_alive
-            then (m, ONormal)
-            else if should_collect m
-                 then let (m0, r) = run k p n0 KCollect m in
-                      (match r with
-                       | ONormal -> ((adjust_trigger_point k m0), ONormal)
-                       | _ -> (m0, r))
-                 else (m, ONormal)
-     | KCollectCycles ->
-       if m.st_collecting
-       then (m, ONormal)
-       else let (m0, r) =
-              if m.pc_alive then run k p n0 KCollect m else (m, ONormal)
-            in
-            (match r with
-             | ONormal -> ((adjust_trigger_point k m0), ONormal)
-             | _ -> (m0, r))
-     | KCollect ->
-       let m0 =
-         set (fun m0 -> m0.st_exec) (fun f ->
-           let n1 = fun r -> f r.st_exec in
-           (fun x -> { heap = x.heap; pc = x.pc; pc_size = x.pc_size;
-           pc_alive = x.pc_alive; st_collecting = x.st_collecting;
-           st_finalizing = x.st_finalizing; st_dropping = x.st_dropping;
-           st_alloc = x.st_alloc; st_exec = (n1 x); cf_thr = x.cf_thr;
-           cf_pnum = x.cf_pnum; cf_pexp = x.cf_pexp; cf_buf = x.cf_buf;
-           cf_auto = x.cf_auto; slots = x.slots; wslots = x.wslots; cslots =
-           x.cslots; values = x.values; bag = x.bag; wparam = x.wparam;
-           fuse_trace = x.fuse_trace; fuse_fin = x.fuse_fin; fuse_drop =
-           x.fuse_drop; fuse_action = x.fuse_action; fuse_closure =
-           x.fuse_closure; panicking = x.panicking; next_aid = x.next_aid;
-           log = x.log })) N.succ
-           (set (fun m0 -> m0.st_collecting) (fun f ->
-             let b = fun r -> f r.st_collecting in
-             (fun x -> { heap = x.heap; pc = x.pc; pc_size = x.pc_size;
-             pc_alive = x.pc_alive; st_collecting = (b x); st_finalizing =
-             x.st_finalizing; st_dropping = x.st_dropping; st_alloc =
-             x.st_alloc; st_exec = x.st_exec; cf_thr = x.cf_thr; cf_pnum =
-             x.cf_pnum; cf_pexp = x.cf_pexp; cf_buf = x.cf_buf; cf_auto =
-             x.cf_auto; slots = x.slots; wslots = x.wslots; cslots =
-             x.cslots; values = x.values; bag = x.bag; wparam = x.wparam;
-             fuse_trace = x.fuse_trace; fuse_fin = x.fuse_fin; fuse_drop =
-             x.fuse_drop; fuse_action = x.fuse_action; fuse_closure =
-             x.fuse_closure; panicking = x.panicking; next_aid = x.next_aid;
-             log = x.log })) (fun _ -> true) m)
-       in
-       let (m1, r) =
-         run k p n0 (KCollectLoop
-           (if k.k_fin then S (S (S (S (S (S (S (S (S (S O))))))))) else S O))
-           m0
-       in
-       ((set (fun m2 -> m2.st_collecting) (fun f ->
-          let b = fun r0 -> f r0.st_collecting in
-          (fun x -> { heap = x.heap; pc = x.pc; pc_size = x.pc_size;
-          pc_alive = x.pc_alive; st_collecting = (b x); st_finalizing =
-          x.st_finalizing; st_dropping = x.st_dropping; st_alloc =
-          x.st_alloc; st_exec = x.st_exec; cf_thr = x.cf_thr; cf_pnum =
-          x.cf_pnum; cf_pexp = x.cf_pexp; cf_buf = x.cf_buf; cf_auto =
-          x.cf_auto; slots = x.slots; wslots = x.wslots; cslots = x.cslots;
-          values = x.values; bag = x.bag; wparam = x.wparam; fuse_trace =
-          x.fuse_trace; fuse_fin = x.fuse_fin; fuse_drop = x.fuse_drop;
-          fuse_action = x.fuse_action; fuse_closure = x.fuse_closure;
-          panicking = x.panicking; next_aid = x.next_aid; log = x.log }))
-          (fun _ -> false) m1), r)
-     | KCollectLoop k0 ->
-       (match k0 with
-        | O -> (m, ONormal)
-        | S k' ->
-          (match m.pc with
-           | [] -> (m, ONormal)
-           | _ :: _ ->
-             let (m0, r) = run k p n0 KCollectOnce m in
-             (match r with
-              | ONormal -> run k p n0 (KCollectLoop k') m0
-              | _ -> (m0, r))))
-     | KCollectOnce ->
-       let old_f = m.st_finalizing in
-       let old_d = m.st_dropping in
-       let (m0, pr) =
-         trace_pass k p
-           (set (fun m0 -> m0.st_dropping) (fun f ->
-             let b = fun r -> f r.st_dropping in
-             (fun x -> { heap = x.heap; pc = x.pc; pc_size = x.pc_size;
-             pc_alive = x.pc_alive; st_collecting = x.st_collecting;
-             st_finalizing = x.st_finalizing; st_dropping = (b x); st_alloc =
-             x.st_alloc; st_exec = x.st_exec; cf_thr = x.cf_thr; cf_pnum =
-             x.cf_pnum; cf_pexp = x.cf_pexp; cf_buf = x.cf_buf; cf_auto =
-             x.cf_auto; slots = x.slots; wslots = x.wslots; cslots =
-             x.cslots; values = x.values; bag = x.bag; wparam = x.wparam;
-             fuse_trace = x.fuse_trace; fuse_fin = x.fuse_fin; fuse_drop =
-             x.fuse_drop; fuse_action = x.fuse_action; fuse_closure =
-             x.fuse_closure; panicking = x.panicking; next_aid = x.next_aid;
-             log = x.log })) (fun _ -> false)
-             (set (fun m0 -> m0.st_finalizing) (fun f ->
-               let b = fun r -> f r.st_finalizing in
-               (fun x -> { heap = x.heap; pc = x.pc; pc_size = x.pc_size;
-               pc_alive = x.pc_alive; st_collecting = x.st_collecting;
-               st_finalizing = (b x); st_dropping = x.st_dropping; st_alloc =
-               x.st_alloc; st_exec = x.st_exec; cf_thr = x.cf_thr; cf_pnum =
-               x.cf_pnum; cf_pexp = x.cf_pexp; cf_buf = x.cf_buf; cf_auto =
-               x.cf_auto; slots = x.slots; wslots = x.wslots; cslots =
-               x.cslots; values = x.values; bag = x.bag; wparam = x.wparam;
-               fuse_trace = x.fuse_trace; fuse_fin = x.fuse_fin; fuse_drop =
-               x.fuse_drop; fuse_action = x.fuse_action; fuse_closure =
-               x.fuse_closure; panicking = x.panicking; next_aid =
-               x.next_aid; log = x.log })) (fun _ -> false) m))
-       in
-       let m1 =
-         set (fun m1 -> m1.st_dropping) (fun f ->
-           let b = fun r -> f r.st_dropping in
-           (fun x -> { heap = x.heap; pc = x.pc; pc_size = x.pc_size;
-           pc_alive = x.pc_alive; st_collecting = x.st_collecting;
-           st_finalizing = x.st_finalizing; st_dropping = (b x); st_alloc =
-           x.st_alloc; st_exec = x.st_exec; cf_thr = x.cf_thr; cf_pnum =
-           x.cf_pnum; cf_pexp = x.cf_pexp; cf_buf = x.cf_buf; cf_auto =
-           x.cf_auto; slots = x.slots; wslots = x.wslots; cslots = x.cslots;
-           values = x.values; bag = x.bag; wparam = x.wparam; fuse_trace =
-           x.fuse_trace; fuse_fin = x.fuse_fin; fuse_drop = x.fuse_drop;
-           fuse_action = x.fuse_action; fuse_closure = x.fuse_closure;
-           panicking = x.panicking; next_aid = x.next_aid; log = x.log }))
-           (fun _ -> old_d)
-           (set (fun m1 -> m1.st_finalizing) (fun f ->
-             let b = fun r -> f r.st_finalizing in
-             (fun x -> { heap = x.heap; pc = x.pc; pc_size = x.pc_size;
-             pc_alive = x.pc_alive; st_collecting = x.st_collecting;
-             st_finalizing = (b x); st_dropping = x.st_dropping; st_alloc =
-             x.st_alloc; st_exec = x.st_exec; cf_thr = x.cf_thr; cf_pnum =
-             x.cf_pnum; cf_pexp = x.cf_pexp; cf_buf = x.cf_buf; cf_auto =
-             x.cf_auto; slots = x.slots; wslots = x.wslots; cslots =
-             x.cslots; values = x.values; bag = x.bag; wparam = x.wparam;
-             fuse_trace = x.fuse_trace; fuse_fin = x.fuse_fin; fuse_drop =
-             x.fuse_drop; fuse_action = x.fuse_action; fuse_closure =
-             x.fuse_closure; panicking = x.panicking; next_aid = x.next_aid;
-             log = x.log })) (fun _ -> old_f) m0)
-       in
-       (match pr with
-        | PDone l ->
-          (match l with
-           | [] -> (m1, ONormal)
-           | _ :: _ ->
-             if k.k_fin
-             then let old_f0 = m1.st_finalizing in
-                  run k p n0 (KFinalizeList (l, l, false, old_f0))
-                    (set (fun m2 -> m2.st_finalizing) (fun f ->
-                      let b = fun r -> f r.st_finalizing in
-                      (fun x -> { heap = x.heap; pc = x.pc; pc_size =
-                      x.pc_size; pc_alive = x.pc_alive; st_collecting =
-                      x.st_collecting; st_finalizing = (b x); st_dropping =
-                      x.st_dropping; st_alloc = x.st_alloc; st_exec =
-                      x.st_exec; cf_thr = x.cf_thr; cf_pnum = x.cf_pnum;
-                      cf_pexp = x.cf_pexp; cf_buf = x.cf_buf; cf_auto =
-                      x.cf_auto; slots = x.slots; wslots = x.wslots; cslots =
-                      x.cslots; values = x.values; bag = x.bag; wparam =
-                      x.wparam; fuse_trace = x.fuse_trace; fuse_fin =
-                      x.fuse_fin; fuse_drop = x.fuse_drop; fuse_action =
-                      x.fuse_action; fuse_closure = x.fuse_closure;
-                      panicking = x.panicking; next_aid = x.next_aid; log =
-                      x.log })) (fun _ -> true) m1)
-             else let old_d0 = m1.st_dropping in
-                  run k p n0 (KDropList (l, l, old_d0))
-                    (set (fun m2 -> m2.st_dropping) (fun f ->
-                      let b = fun r -> f r.st_dropping in
-                      (fun x -> { heap = x.heap; pc = x.pc; pc_size =
-                      x.pc_size; pc_alive = x.pc_alive; st_collecting =
-                      x.st_collecting; st_finalizing = x.st_finalizing;
-                      st_dropping = (b x); st_alloc = x.st_alloc; st_exec =
-                      x.st_exec; cf_thr = x.cf_thr; cf_pnum = x.cf_pnum;
-                      cf_pexp = x.cf_pexp; cf_buf = x.cf_buf; cf_auto =
-                      x.cf_auto; slots = x.slots; wslots = x.wslots; cslots =
-                      x.cslots; values = x.values; bag = x.bag; wparam =
-                      x.wparam; fuse_trace = x.fuse_trace; fuse_fin =
-                      x.fuse_fin; fuse_drop = x.fuse_drop; fuse_action =
-                      x.fuse_action; fuse_closure = x.fuse_closure;
-                      panicking = x.panicking; next_aid = x.next_aid; log =
-                      x.log })) (fun _ -> true) m1))
-        | PPanicked -> (m1, (raise m1))
-        | PFuel -> ((emit_bad Fuel O m1), OFuel))
-     | KFinalizeList (l, rest, any, old_f) ->
-       (match rest with
-        | [] ->
-          let m0 =
-            set (fun m0 -> m0.st_finalizing) (fun f ->
-              let b = fun r -> f r.st_finalizing in
-              (fun x -> { heap = x.heap; pc = x.pc; pc_size = x.pc_size;
-              pc_alive = x.pc_alive; st_collecting = x.st_collecting;
-              st_finalizing = (b x); st_dropping = x.st_dropping; st_alloc =
-              x.st_alloc; st_exec = x.st_exec; cf_thr = x.cf_thr; cf_pnum =
-              x.cf_pnum; cf_pexp = x.cf_pexp; cf_buf = x.cf_buf; cf_auto =
-              x.cf_auto; slots = x.slots; wslots = x.wslots; cslots =
-              x.cslots; values = x.values; bag = x.bag; wparam = x.wparam;
-              fuse_trace = x.fuse_trace; fuse_fin = x.fuse_fin; fuse_drop =
-              x.fuse_drop; fuse_action = x.fuse_action; fuse_closure =
-              x.fuse_closure; panicking = x.panicking; next_aid = x.next_aid;
-              log = x.log })) (fun _ -> old_f) m
-          in
-          if negb any
-          then let old_d = m0.st_dropping in
-               run k p n0 (KDropList (l, l, old_d))
-                 (set (fun m1 -> m1.st_dropping) (fun f ->
-                   let b = fun r -> f r.st_dropping in
-                   (fun x -> { heap = x.heap; pc = x.pc; pc_size = x.pc_size;
-                   pc_alive = x.pc_alive; st_collecting = x.st_collecting;
-                   st_finalizing = x.st_finalizing; st_dropping = (b x);
-                   st_alloc = x.st_alloc; st_exec = x.st_exec; cf_thr =
-                   x.cf_thr; cf_pnum = x.cf_pnum; cf_pexp = x.cf_pexp;
-                   cf_buf = x.cf_buf; cf_auto = x.cf_auto; slots = x.slots;
-                   wslots = x.wslots; cslots = x.cslots; values = x.values;
-                   bag = x.bag; wparam = x.wparam; fuse_trace = x.fuse_trace;
-                   fuse_fin = x.fuse_fin; fuse_drop = x.fuse_drop;
-                   fuse_action = x.fuse_action; fuse_closure =
-                   x.fuse_closure; panicking = x.panicking; next_aid =
-                   x.next_aid; log = x.log })) (fun _ -> true) m0)
-          else let m1 =
-                 fold_left (fun m1 g ->
-                   uhdr g (fun h -> set_mark PC (reset_tc h)) m1) l m0
-               in
-               ((set (fun m2 -> m2.pc_size) (fun f ->
-                  let n1 = fun r -> f r.pc_size in
-                  (fun x -> { heap = x.heap; pc = x.pc; pc_size = (n1 x);
-                  pc_alive = x.pc_alive; st_collecting = x.st_collecting;
-                  st_finalizing = x.st_finalizing; st_dropping =
-                  x.st_dropping; st_alloc = x.st_alloc; st_exec = x.st_exec;
-                  cf_thr = x.cf_thr; cf_pnum = x.cf_pnum; cf_pexp =
-                  x.cf_pexp; cf_buf = x.cf_buf; cf_auto = x.cf_auto; slots =
-                  x.slots; wslots = x.wslots; cslots = x.cslots; values =
-                  x.values; bag = x.bag; wparam = x.wparam; fuse_trace =
-                  x.fuse_trace; fuse_fin = x.fuse_fin; fuse_drop =
-                  x.fuse_drop; fuse_action = x.fuse_action; fuse_closure =
-                  x.fuse_closure; panicking = x.panicking; next_aid =
-                  x.next_aid; log = x.log })) (fun s ->
-                  N.add (N.of_nat (length l)) s)
-                  (set (fun m2 -> m2.pc) (fun f ->
-                    let l0 = fun r -> f r.pc in
-                    (fun x -> { heap = x.heap; pc = (l0 x); pc_size =
+                        ((weak_drop (WTo o) m13), r''))
+              | OFuel -> (m11, OFuel)
+              | _ ->
+                let m12 = dealloc k o (drop_metadata k o m11) in
+                let m13 =
+                  set (fun m13 -> m13.wparam) (fun f ->
+                    let l = fun r1 -> f r1.wparam in
+                    (fun x -> { heap = x.heap; pc = x.pc; pc_size =
                     x.pc_size; pc_alive = x.pc_alive; st_collecting =
                     x.st_collecting; st_finalizing = x.st_finalizing;
                     st_dropping = x.st_dropping; st_alloc = x.st_alloc;
@@ -4072,130 +3689,583 @@ let rec run k p fuel c m =
                     x.cf_pnum; cf_pexp = x.cf_pexp; cf_buf = x.cf_buf;
                     cf_auto = x.cf_auto; slots = x.slots; wslots = x.wslots;
                     cslots = x.cslots; values = x.values; bag = x.bag;
-                    wparam = x.wparam; fuse_trace = x.fuse_trace; fuse_fin =
+                    wparam = (l x); fuse_trace = x.fuse_trace; fuse_fin =
                     x.fuse_fin; fuse_drop = x.fuse_drop; fuse_action =
                     x.fuse_action; fuse_closure = x.fuse_closure; panicking =
-                    x.panicking; next_aid = x.next_aid; log = x.log }))
-                    (fun old -> app l old) m1)), ONormal)
-        | g :: rest' ->
-          let h = hdr_of m g in
-          if needs_fin h
-          then let m0 = uhdr g (set_fin true) m in
-               let (m1, r) =
-                 if is_map m0 g
-                 then (m0, ONormal)
-                 else let m1 = emit (ECb (KFin, g, (cur_flags k m0))) m0 in
-                      let (m2, boom) = tick KFin m1 in
-                      if boom
-                      then (m2, (raise m2))
-                      else (match get m2 g with
-                            | Some x ->
-                              run k p n0 (KScript ((Some g),
-                                (oscript p (class_of p x.o_cls).c_fin))) m2
-                            | None -> (m2, ONormal))
-               in
-               (match r with
-                | ONormal ->
-                  run k p n0 (KFinalizeList (l, rest', true, old_f)) m1
-                | _ ->
-                  ((unmark_all l
-                     (set (fun m2 -> m2.st_finalizing) (fun f ->
-                       let b = fun r0 -> f r0.st_finalizing in
-                       (fun x -> { heap = x.heap; pc = x.pc; pc_size =
-                       x.pc_size; pc_alive = x.pc_alive; st_collecting =
-                       x.st_collecting; st_finalizing = (b x); st_dropping =
-                       x.st_dropping; st_alloc = x.st_alloc; st_exec =
-                       x.st_exec; cf_thr = x.cf_thr; cf_pnum = x.cf_pnum;
-                       cf_pexp = x.cf_pexp; cf_buf = x.cf_buf; cf_auto =
-                       x.cf_auto; slots = x.slots; wslots = x.wslots;
-                       cslots = x.cslots; values = x.values; bag = x.bag;
-                       wparam = x.wparam; fuse_trace = x.fuse_trace;
-                       fuse_fin = x.fuse_fin; fuse_drop = x.fuse_drop;
-                       fuse_action = x.fuse_action; fuse_closure =
-                       x.fuse_closure; panicking = x.panicking; next_aid =
-                       x.next_aid; log = x.log })) (fun _ -> old_f) m1)), r))
-          else run k p n0 (KFinalizeList (l, rest', any, old_f)) m)
-     | KDropList (l, rest, old_d) ->
-       (match rest with
-        | [] ->
-          let m0 =
-            fold_left (fun m0 g -> dealloc k g (drop_metadata k g m0)) l m
-          in
-          ((set (fun m1 -> m1.st_dropping) (fun f ->
-             let b = fun r -> f r.st_dropping in
-             (fun x -> { heap = x.heap; pc = x.pc; pc_size = x.pc_size;
-             pc_alive = x.pc_alive; st_collecting = x.st_collecting;
-             st_finalizing = x.st_finalizing; st_dropping = (b x); st_alloc =
-             x.st_alloc; st_exec = x.st_exec; cf_thr = x.cf_thr; cf_pnum =
-             x.cf_pnum; cf_pexp = x.cf_pexp; cf_buf = x.cf_buf; cf_auto =
-             x.cf_auto; slots = x.slots; wslots = x.wslots; cslots =
-             x.cslots; values = x.values; bag = x.bag; wparam = x.wparam;
-             fuse_trace = x.fuse_trace; fuse_fin = x.fuse_fin; fuse_drop =
-             x.fuse_drop; fuse_action = x.fuse_action; fuse_closure =
-             x.fuse_closure; panicking = x.panicking; next_aid = x.next_aid;
-             log = x.log })) (fun _ -> old_d) m0), ONormal)
-        | g :: rest' ->
-          let m0 =
-            if is_in_list (hdr_of m g) then m else emit_bad AssertFail g m
-          in
-          let m1 = if k.k_weak then uhdr g set_dropped m0 else m0 in
-          let (m2, r) = run k p n0 (KDropValue g) m1 in
-          (match r with
-           | ONormal -> run k p n0 (KDropList (l, rest', old_d)) m2
-           | _ ->
-             let m3 =
-               fold_left (fun m3 g0 ->
-                 uhdr g0 (fun h ->
-                   let h0 = set_mark NM h in
-                   if k.k_weak then set_dropped h0 else h0) m3) l m2
-             in
-             ((set (fun m4 -> m4.st_dropping) (fun f ->
-                let b = fun r0 -> f r0.st_dropping in
+                    x.panicking; next_aid = x.next_aid; log = x.log })) tl m12
+                in
+                ((weak_drop (WTo o) m13), r'))
+           | _ -> (m3, t))
+        | None -> ok m0 RSkip)
+
+(** val cmd_register :
+    conf -> prog -> (call -> machine -> machine * outcome) -> id0 option ->
+    nodeloc -> nat -> nat -> machine -> machine * outcome **)
+
+let cmd_register k p rec0 self nd script c m =
+  if negb k.k_clean
+  then ok m RSkip
+  else let (m0, no) = nresolve self nd m in
+       (match no with
+        | Some o ->
+          (match lookup0 list_lookup c m0.cslots with
+           | Some _ ->
+             (match get m0 o with
+              | Some x ->
+                if (||) (negb (class_of p x.o_cls).c_cleaner) x.o_ismap
+                then ok m0 RSkip
+                else let (p0, r) =
+                       match x.o_cleaner with
+                       | Some mo -> ((m0, mo), ONormal)
+                       | None ->
+                         let (m1, mo) = new_map m0 in
+                         let (m2, t) =
+                           if k.k_auto
+                           then rec0 KTrigger m1
+                           else (m1, ONormal)
+                         in
+                         (match t with
+                          | ONormal ->
+                            let m3 = box_alloc k mo m2 in
+                            (((upd o (fun x0 ->
+                                set (fun o0 -> o0.o_cleaner) (fun f ->
+                                  let o0 = fun r -> f r.o_cleaner in
+                                  (fun x1 -> { o_hdr = x1.o_hdr; o_vst =
+                                  x1.o_vst; o_box = x1.o_box; o_side =
+                                  x1.o_side; o_cls = x1.o_cls; o_ismap =
+                                  x1.o_ismap; o_fields = x1.o_fields;
+                                  o_wfields = x1.o_wfields; o_cleaner =
+                                  (o0 x1); o_borrowed = x1.o_borrowed;
+                                  o_mslots = x1.o_mslots; o_mfree =
+                                  x1.o_mfree; o_mborrowed = x1.o_mborrowed }))
+                                  (fun _ -> Some mo) x0) m3), mo), ONormal)
+                          | OPanic ->
+                            let (m3, r) = unwinding (rec0 (KDropValue mo)) m2
+                            in
+                            ((m3, mo), r)
+                          | _ -> ((m2, mo), t))
+                     in
+                     let (m1, mo) = p0 in
+                     (match r with
+                      | ONormal ->
+                        (match get m1 mo with
+                         | Some mx ->
+                           if mx.o_mborrowed
+                           then (m1, (raise m1))
+                           else let aid = m1.next_aid in
+                                let m2 =
+                                  set (fun m2 -> m2.next_aid) (fun f ->
+                                    let n0 = fun r0 -> f r0.next_aid in
+                                    (fun x0 -> { heap = x0.heap; pc = x0.pc;
+                                    pc_size = x0.pc_size; pc_alive =
+                                    x0.pc_alive; st_collecting =
+                                    x0.st_collecting; st_finalizing =
+                                    x0.st_finalizing; st_dropping =
+                                    x0.st_dropping; st_alloc = x0.st_alloc;
+                                    st_exec = x0.st_exec; cf_thr = x0.cf_thr;
+                                    cf_pnum = x0.cf_pnum; cf_pexp =
+                                    x0.cf_pexp; cf_buf = x0.cf_buf; cf_auto =
+                                    x0.cf_auto; slots = x0.slots; wslots =
+                                    x0.wslots; cslots = x0.cslots; values =
+                                    x0.values; bag = x0.bag; wparam =
+                                    x0.wparam; fuse_trace = x0.fuse_trace;
+                                    fuse_fin = x0.fuse_fin; fuse_drop =
+                                    x0.fuse_drop; fuse_action =
+                                    x0.fuse_action; fuse_closure =
+                                    x0.fuse_closure; panicking =
+                                    x0.panicking; next_aid = (n0 x0); log =
+                                    x0.log })) (fun _ -> S aid) m1
+                                in
+                                let (m3, slot) = map_insert mo aid script m2
+                                in
+                                let m4 = init_side mo m3 in
+                                (match mbind
+                                         (Obj.magic (fun _ _ -> option_bind))
+                                         inc_wk (side_wk m4 mo) with
+                                 | Some k0 ->
+                                   let m5 =
+                                     remove_from_list mo
+                                       (uside mo (fun _ -> k0) m4)
+                                   in
+                                   let old =
+                                     mjoin (Obj.magic (fun _ -> option_join))
+                                       (lookup0 list_lookup c m5.cslots)
+                                   in
+                                   let m6 =
+                                     set (fun m6 -> m6.cslots) (fun f ->
+                                       let l = fun r0 -> f r0.cslots in
+                                       (fun x0 -> { heap = x0.heap; pc =
+                                       x0.pc; pc_size = x0.pc_size;
+                                       pc_alive = x0.pc_alive;
+                                       st_collecting = x0.st_collecting;
+                                       st_finalizing = x0.st_finalizing;
+                                       st_dropping = x0.st_dropping;
+                                       st_alloc = x0.st_alloc; st_exec =
+                                       x0.st_exec; cf_thr = x0.cf_thr;
+                                       cf_pnum = x0.cf_pnum; cf_pexp =
+                                       x0.cf_pexp; cf_buf = x0.cf_buf;
+                                       cf_auto = x0.cf_auto; slots =
+                                       x0.slots; wslots = x0.wslots; cslots =
+                                       (l x0); values = x0.values; bag =
+                                       x0.bag; wparam = x0.wparam;
+                                       fuse_trace = x0.fuse_trace; fuse_fin =
+                                       x0.fuse_fin; fuse_drop = x0.fuse_drop;
+                                       fuse_action = x0.fuse_action;
+                                       fuse_closure = x0.fuse_closure;
+                                       panicking = x0.panicking; next_aid =
+                                       x0.next_aid; log = x0.log }))
+                                       (insert0 list_insert c (Some
+                                         { cr_map = mo; cr_slot = slot;
+                                         cr_aid = aid })) m5
+                                   in
+                                   let m7 =
+                                     match old with
+                                     | Some cr ->
+                                       weak_drop (WTo (Obj.magic cr).cr_map)
+                                         m6
+                                     | None -> m6
+                                   in
+                                   ok m7 ROk
+                                 | None -> (m4, (raise m4)))
+                         | None -> ((emit_bad BadState mo m1), ONormal))
+                      | _ -> (m1, r))
+              | None -> ok m0 RSkip)
+           | None -> ok m0 RSkip)
+        | None -> ok m0 RSkip)
+
+(** val cmd_clean :
+    conf -> (call -> machine -> machine * outcome) -> id0 option -> nat ->
+    machine -> machine * outcome **)
+
+let cmd_clean k rec0 _ c m =
+  if negb k.k_clean
+  then ok m RSkip
+  else (match mjoin (Obj.magic (fun _ -> option_join))
+                (lookup0 list_lookup c m.cslots) with
+        | Some cr ->
+          let mo = (Obj.magic cr).cr_map in
+          let (m0, sc) = weak_strong_count (WTo mo) m in
+          if N.eqb sc N0
+          then ok m0 ROk
+          else (match inc_rc (hdr_of m0 mo) with
+                | Some h ->
+                  let m1 = remove_from_list mo (uhdr mo (fun _ -> h) m0) in
+                  (match get m1 mo with
+                   | Some mx ->
+                     if mx.o_mborrowed
+                     then let (m2, r) = rec0 (KDropCc mo) m1 in
+                          (match r with
+                           | ONormal -> ok m2 ROk
+                           | _ -> (m2, r))
+                     else let m2 =
+                            upd mo (fun x ->
+                              set (fun o -> o.o_mborrowed) (fun f ->
+                                let b = fun r -> f r.o_mborrowed in
+                                (fun x0 -> { o_hdr = x0.o_hdr; o_vst =
+                                x0.o_vst; o_box = x0.o_box; o_side =
+                                x0.o_side; o_cls = x0.o_cls; o_ismap =
+                                x0.o_ismap; o_fields = x0.o_fields;
+                                o_wfields = x0.o_wfields; o_cleaner =
+                                x0.o_cleaner; o_borrowed = x0.o_borrowed;
+                                o_mslots = x0.o_mslots; o_mfree = x0.o_mfree;
+                                o_mborrowed = (b x0) })) (fun _ -> true) x) m1
+                          in
+                          let (m3, r) =
+                            match lookup0 list_lookup (Obj.magic cr).cr_slot
+                                    mx.o_mslots with
+                            | Some y ->
+                              (match y with
+                               | MVacant -> (m2, ONormal)
+                               | MAction (aid, script) ->
+                                 if decide
+                                      (decide_rel Coq_Nat.eq_dec aid
+                                        (Obj.magic cr).cr_aid)
+                                 then let m3 =
+                                        upd mo (fun x ->
+                                          set (fun o -> o.o_mfree) (fun f ->
+                                            let l = fun r -> f r.o_mfree in
+                                            (fun x0 -> { o_hdr = x0.o_hdr;
+                                            o_vst = x0.o_vst; o_box =
+                                            x0.o_box; o_side = x0.o_side;
+                                            o_cls = x0.o_cls; o_ismap =
+                                            x0.o_ismap; o_fields =
+                                            x0.o_fields; o_wfields =
+                                            x0.o_wfields; o_cleaner =
+                                            x0.o_cleaner; o_borrowed =
+                                            x0.o_borrowed; o_mslots =
+                                            x0.o_mslots; o_mfree = (l x0);
+                                            o_mborrowed = x0.o_mborrowed }))
+                                            (fun x0 ->
+                                            (Obj.magic cr).cr_slot :: x0)
+                                            (set (fun o -> o.o_mslots)
+                                              (fun f ->
+                                              let l = fun r -> f r.o_mslots in
+                                              (fun x0 -> { o_hdr = x0.o_hdr;
+                                              o_vst = x0.o_vst; o_box =
+                                              x0.o_box; o_side = x0.o_side;
+                                              o_cls = x0.o_cls; o_ismap =
+                                              x0.o_ismap; o_fields =
+                                              x0.o_fields; o_wfields =
+                                              x0.o_wfields; o_cleaner =
+                                              x0.o_cleaner; o_borrowed =
+                                              x0.o_borrowed; o_mslots =
+                                              (l x0); o_mfree = x0.o_mfree;
+                                              o_mborrowed = x0.o_mborrowed }))
+                                              (insert0 list_insert
+                                                (Obj.magic cr).cr_slot
+                                                MVacant) x)) m2
+                                      in
+                                      rec0 (KCleanRun (mo, aid, script)) m3
+                                 else (m2, ONormal))
+                            | None -> (m2, ONormal)
+                          in
+                          let m4 =
+                            upd mo (fun x ->
+                              set (fun o -> o.o_mborrowed) (fun f ->
+                                let b = fun r0 -> f r0.o_mborrowed in
+                                (fun x0 -> { o_hdr = x0.o_hdr; o_vst =
+                                x0.o_vst; o_box = x0.o_box; o_side =
+                                x0.o_side; o_cls = x0.o_cls; o_ismap =
+                                x0.o_ismap; o_fields = x0.o_fields;
+                                o_wfields = x0.o_wfields; o_cleaner =
+                                x0.o_cleaner; o_borrowed = x0.o_borrowed;
+                                o_mslots = x0.o_mslots; o_mfree = x0.o_mfree;
+                                o_mborrowed = (b x0) })) (fun _ -> false) x)
+                              m3
+                          in
+                          (match r with
+                           | ONormal ->
+                             let (m5, r0) = rec0 (KDropCc mo) m4 in
+                             (match r0 with
+                              | ONormal -> ok m5 ROk
+                              | _ -> (m5, r0))
+                           | OPanic -> unwinding (rec0 (KDropCc mo)) m4
+                           | _ -> (m4, r))
+                   | None -> ((emit_bad BadState mo m1), ONormal))
+                | None -> (m0, (raise m0)))
+        | None -> ok m RSkip)
+
+(** val cmd_c_drop :
+    conf -> id0 option -> nat -> machine -> machine * outcome **)
+
+let cmd_c_drop k _ c m =
+  if negb k.k_clean
+  then ok m RSkip
+  else (match mjoin (Obj.magic (fun _ -> option_join))
+                (lookup0 list_lookup c m.cslots) with
+        | Some cr ->
+          ok
+            (weak_drop (WTo (Obj.magic cr).cr_map)
+              (set (fun m0 -> m0.cslots) (fun f ->
+                let l = fun r -> f r.cslots in
                 (fun x -> { heap = x.heap; pc = x.pc; pc_size = x.pc_size;
                 pc_alive = x.pc_alive; st_collecting = x.st_collecting;
-                st_finalizing = x.st_finalizing; st_dropping = (b x);
+                st_finalizing = x.st_finalizing; st_dropping = x.st_dropping;
                 st_alloc = x.st_alloc; st_exec = x.st_exec; cf_thr =
                 x.cf_thr; cf_pnum = x.cf_pnum; cf_pexp = x.cf_pexp; cf_buf =
+                x.cf_buf; cf_auto = x.cf_auto; slots = x.slots; wslots =
+                x.wslots; cslots = (l x); values = x.values; bag = x.bag;
+                wparam = x.wparam; fuse_trace = x.fuse_trace; fuse_fin =
+                x.fuse_fin; fuse_drop = x.fuse_drop; fuse_action =
+                x.fuse_action; fuse_closure = x.fuse_closure; panicking =
+                x.panicking; next_aid = x.next_aid; log = x.log }))
+                (insert0 list_insert c None) m)) ROk
+        | None -> ok m RSkip)
+
+(** val cmd_bag : id0 option -> loc -> n -> machine -> machine * outcome **)
+
+let cmd_bag self l k m =
+  let (m0, r) = resolve self l m in
+  (match mbind (Obj.magic (fun _ _ -> option_bind)) (fun r0 ->
+           Obj.magic read_loc r0 m0) r with
+   | Some o ->
+     let rec go k0 m1 =
+       match k0 with
+       | O -> ok m1 ROk
+       | S k' ->
+         (match inc_rc (hdr_of m1 (Obj.magic o)) with
+          | Some h ->
+            go k'
+              (set (Obj.magic (fun m2 -> m2.bag)) (fun f ->
+                let l0 = fun r0 -> Obj.magic f r0.bag in
+                (fun x -> { heap = x.heap; pc = x.pc; pc_size = x.pc_size;
+                pc_alive = x.pc_alive; st_collecting = x.st_collecting;
+                st_finalizing = x.st_finalizing; st_dropping = x.st_dropping;
+                st_alloc = x.st_alloc; st_exec = x.st_exec; cf_thr =
+                x.cf_thr; cf_pnum = x.cf_pnum; cf_pexp = x.cf_pexp; cf_buf =
+                x.cf_buf; cf_auto = x.cf_auto; slots = x.slots; wslots =
+                x.wslots; cslots = x.cslots; values = x.values; bag = 
+                (l0 x); wparam = x.wparam; fuse_trace = x.fuse_trace;
+                fuse_fin = x.fuse_fin; fuse_drop = x.fuse_drop; fuse_action =
+                x.fuse_action; fuse_closure = x.fuse_closure; panicking =
+                x.panicking; next_aid = x.next_aid; log = x.log })) (fun x ->
+                o :: x)
+                (remove_from_list (Obj.magic o)
+                  (uhdr (Obj.magic o) (fun _ -> h) m1)))
+          | None -> (m1, (raise m1)))
+     in go (N.to_nat k) m0
+   | None -> ok m0 RSkip)
+
+(** val cmd_unbag :
+    (call -> machine -> machine * outcome) -> id0 option -> n -> machine ->
+    machine * outcome **)
+
+let cmd_unbag rec0 _ k m =
+  let (m0, r) = rec0 (KUnbag (N.to_nat k)) m in
+  (match r with
+   | ONormal -> ok m0 ROk
+   | _ -> (m0, r))
+
+(** val cmd_borrow : id0 option -> nodeloc -> machine -> machine * outcome **)
+
+let cmd_borrow self nd m =
+  let (m0, no) = nresolve self nd m in
+  (match no with
+   | Some o ->
+     ok
+       (upd o (fun x ->
+         set (fun o0 -> o0.o_borrowed) (fun f ->
+           let b = fun r -> f r.o_borrowed in
+           (fun x0 -> { o_hdr = x0.o_hdr; o_vst = x0.o_vst; o_box = x0.o_box;
+           o_side = x0.o_side; o_cls = x0.o_cls; o_ismap = x0.o_ismap;
+           o_fields = x0.o_fields; o_wfields = x0.o_wfields; o_cleaner =
+           x0.o_cleaner; o_borrowed = (b x0); o_mslots = x0.o_mslots;
+           o_mfree = x0.o_mfree; o_mborrowed = x0.o_mborrowed })) (fun _ ->
+           true) x) m0) ROk
+   | None -> ok m0 RSkip)
+
+(** val cmd_unborrow :
+    id0 option -> nodeloc -> machine -> machine * outcome **)
+
+let cmd_unborrow self nd m =
+  let (m0, no) = nresolve self nd m in
+  (match no with
+   | Some o ->
+     ok
+       (upd o (fun x ->
+         set (fun o0 -> o0.o_borrowed) (fun f ->
+           let b = fun r -> f r.o_borrowed in
+           (fun x0 -> { o_hdr = x0.o_hdr; o_vst = x0.o_vst; o_box = x0.o_box;
+           o_side = x0.o_side; o_cls = x0.o_cls; o_ismap = x0.o_ismap;
+           o_fields = x0.o_fields; o_wfields = x0.o_wfields; o_cleaner =
+           x0.o_cleaner; o_borrowed = (b x0); o_mslots = x0.o_mslots;
+           o_mfree = x0.o_mfree; o_mborrowed = x0.o_mborrowed })) (fun _ ->
+           false) x) m0) ROk
+   | None -> ok m0 RSkip)
+
+(** val cmd_cfg_auto :
+    conf -> id0 option -> bool -> machine -> machine * outcome **)
+
+let cmd_cfg_auto k _ b m =
+  if k.k_auto
+  then ok
+         (set (fun m0 -> m0.cf_auto) (fun f ->
+           let b0 = fun r -> f r.cf_auto in
+           (fun x -> { heap = x.heap; pc = x.pc; pc_size = x.pc_size;
+           pc_alive = x.pc_alive; st_collecting = x.st_collecting;
+           st_finalizing = x.st_finalizing; st_dropping = x.st_dropping;
+           st_alloc = x.st_alloc; st_exec = x.st_exec; cf_thr = x.cf_thr;
+           cf_pnum = x.cf_pnum; cf_pexp = x.cf_pexp; cf_buf = x.cf_buf;
+           cf_auto = (b0 x); slots = x.slots; wslots = x.wslots; cslots =
+           x.cslots; values = x.values; bag = x.bag; wparam = x.wparam;
+           fuse_trace = x.fuse_trace; fuse_fin = x.fuse_fin; fuse_drop =
+           x.fuse_drop; fuse_action = x.fuse_action; fuse_closure =
+           x.fuse_closure; panicking = x.panicking; next_aid = x.next_aid;
+           log = x.log })) (fun _ -> b) m) ROk
+  else ok m RSkip
+
+(** val cmd_cfg_percent :
+    conf -> id0 option -> n -> n -> machine -> machine * outcome **)
+
+let cmd_cfg_percent k _ num e m =
+  if k.k_auto
+  then if N.ltb (N.shiftl (Npos XH) e) num
+       then (m, (raise m))
+       else ok
+              (set (fun m0 -> m0.cf_pexp) (fun f ->
+                let n0 = fun r -> f r.cf_pexp in
+                (fun x -> { heap = x.heap; pc = x.pc; pc_size = x.pc_size;
+                pc_alive = x.pc_alive; st_collecting = x.st_collecting;
+                st_finalizing = x.st_finalizing; st_dropping = x.st_dropping;
+                st_alloc = x.st_alloc; st_exec = x.st_exec; cf_thr =
+                x.cf_thr; cf_pnum = x.cf_pnum; cf_pexp = (n0 x); cf_buf =
                 x.cf_buf; cf_auto = x.cf_auto; slots = x.slots; wslots =
                 x.wslots; cslots = x.cslots; values = x.values; bag = x.bag;
                 wparam = x.wparam; fuse_trace = x.fuse_trace; fuse_fin =
                 x.fuse_fin; fuse_drop = x.fuse_drop; fuse_action =
                 x.fuse_action; fuse_closure = x.fuse_closure; panicking =
                 x.panicking; next_aid = x.next_aid; log = x.log })) (fun _ ->
-                old_d) m3), r)))
-     | KUnbag k0 ->
-       (match k0 with
-        | O -> (m, ONormal)
-        | S k' ->
-          (match m.bag with
-           | [] -> (m, ONormal)
-           | o :: b ->
-             let (m0, r) =
-               run k p n0 (KDropCc o)
-                 (set (fun m0 -> m0.bag) (fun f ->
-                   let l = fun r -> f r.bag in
-                   (fun x -> { heap = x.heap; pc = x.pc; pc_size = x.pc_size;
-                   pc_alive = x.pc_alive; st_collecting = x.st_collecting;
-                   st_finalizing = x.st_finalizing; st_dropping =
-                   x.st_dropping; st_alloc = x.st_alloc; st_exec = x.st_exec;
-                   cf_thr = x.cf_thr; cf_pnum = x.cf_pnum; cf_pexp =
-                   x.cf_pexp; cf_buf = x.cf_buf; cf_auto = x.cf_auto; slots =
-                   x.slots; wslots = x.wslots; cslots = x.cslots; values =
-                   x.values; bag = (l x); wparam = x.wparam; fuse_trace =
-                   x.fuse_trace; fuse_fin = x.fuse_fin; fuse_drop =
-                   x.fuse_drop; fuse_action = x.fuse_action; fuse_closure =
-                   x.fuse_closure; panicking = x.panicking; next_aid =
-                   x.next_aid; log = x.log })) (fun _ -> b) m)
-             in
-             (match r with
-              | ONormal -> run k p n0 (KUnbag k') m0
-              | _ -> (m0, r))))
-     | KCleanRun (_, aid, script) ->
-       let m0 = emit (ECb (KAction, aid, (cur_flags k m))) m in
-       let (m1, boom) = tick KAction m0 in
-       if boom
-       then (m1, (raise m1))
-       else run k p n0 (KScript (None, (script_of p script))) m1)
+                e)
+                (set (fun m0 -> m0.cf_pnum) (fun f ->
+                  let n0 = fun r -> f r.cf_pnum in
+                  (fun x -> { heap = x.heap; pc = x.pc; pc_size = x.pc_size;
+                  pc_alive = x.pc_alive; st_collecting = x.st_collecting;
+                  st_finalizing = x.st_finalizing; st_dropping =
+                  x.st_dropping; st_alloc = x.st_alloc; st_exec = x.st_exec;
+                  cf_thr = x.cf_thr; cf_pnum = (n0 x); cf_pexp = x.cf_pexp;
+                  cf_buf = x.cf_buf; cf_auto = x.cf_auto; slots = x.slots;
+                  wslots = x.wslots; cslots = x.cslots; values = x.values;
+                  bag = x.bag; wparam = x.wparam; fuse_trace = x.fuse_trace;
+                  fuse_fin = x.fuse_fin; fuse_drop = x.fuse_drop;
+                  fuse_action = x.fuse_action; fuse_closure = x.fuse_closure;
+                  panicking = x.panicking; next_aid = x.next_aid; log =
+                  x.log })) (fun _ -> num) m)) ROk
+  else ok m RSkip
+
+(** val cmd_cfg_buffered :
+    conf -> id0 option -> n -> machine -> machine * outcome **)
+
+let cmd_cfg_buffered k _ b m =
+  if k.k_auto
+  then ok
+         (set (fun m0 -> m0.cf_buf) (fun f ->
+           let n0 = fun r -> f r.cf_buf in
+           (fun x -> { heap = x.heap; pc = x.pc; pc_size = x.pc_size;
+           pc_alive = x.pc_alive; st_collecting = x.st_collecting;
+           st_finalizing = x.st_finalizing; st_dropping = x.st_dropping;
+           st_alloc = x.st_alloc; st_exec = x.st_exec; cf_thr = x.cf_thr;
+           cf_pnum = x.cf_pnum; cf_pexp = x.cf_pexp; cf_buf = (n0 x);
+           cf_auto = x.cf_auto; slots = x.slots; wslots = x.wslots; cslots =
+           x.cslots; values = x.values; bag = x.bag; wparam = x.wparam;
+           fuse_trace = x.fuse_trace; fuse_fin = x.fuse_fin; fuse_drop =
+           x.fuse_drop; fuse_action = x.fuse_action; fuse_closure =
+           x.fuse_closure; panicking = x.panicking; next_aid = x.next_aid;
+           log = x.log })) (fun _ -> b) m) ROk
+  else ok m RSkip
+
+(** val cmd_arm :
+    id0 option -> cbkind -> n -> machine -> machine * outcome **)
+
+let cmd_arm _ k v m =
+  ok (set_fuse k v m) ROk
+
+(** val cmd_panic : id0 option -> machine -> machine * outcome **)
+
+let cmd_panic _ m =
+  (m, (raise m))
+
+(** val cmd_obs : id0 option -> loc -> machine -> machine * outcome **)
+
+let cmd_obs self l m =
+  let (m0, r) = resolve self l m in
+  (match mbind (Obj.magic (fun _ _ -> option_bind)) (fun r0 ->
+           Obj.magic read_loc r0 m0) r with
+   | Some o ->
+     (match get m0 (Obj.magic o) with
+      | Some x ->
+        let m1 =
+          match x.o_box with
+          | BAlloc -> m0
+          | _ -> emit_bad UseAfterFree (Obj.magic o) m0
+        in
+        let wc =
+          if x.o_hdr.h_side
+          then (match x.o_side with
+                | Some s -> s.sd_wk.w_cnt
+                | None -> N0)
+          else N0
+        in
+        let alive = match x.o_vst with
+                    | VLive -> true
+                    | _ -> false in
+        let m2 = if alive then m1 else emit_bad UseAfterDrop (Obj.magic o) m1
+        in
+        ok
+          (emit (EObs ((Obj.magic o), x.o_hdr.h_rc, wc, x.o_hdr.h_fin,
+            alive)) m2) ROk
+      | None -> ok (emit_bad BadState (Obj.magic o) m0) ROk)
+   | None -> ok m0 RSkip)
+
+(** val cmd_w_obs :
+    conf -> id0 option -> wloc -> machine -> machine * outcome **)
+
+let cmd_w_obs k self w m =
+  if negb k.k_weak
+  then ok m RSkip
+  else let (m0, rw) = wresolve self w m in
+       (match mbind (Obj.magic (fun _ _ -> option_bind)) (fun rw0 ->
+                Obj.magic read_wloc rw0 m0) rw with
+        | Some wr ->
+          let (m1, sc) = weak_strong_count (Obj.magic wr) m0 in
+          let (m2, wc) = weak_weak_count (Obj.magic wr) m1 in
+          ok (emit (EWObs (sc, wc)) m2) ROk
+        | None -> ok m0 RSkip)
+
+(** val cmd_s_obs : conf -> id0 option -> machine -> machine * outcome **)
+
+let cmd_s_obs k _ m =
+  ok
+    (emit (ESObs (m.st_alloc, (if m.pc_alive then Some m.pc_size else None),
+      m.st_exec, (cur_flags k m).fl_t)) m) ROk
+
+(** val step_cmd :
+    conf -> prog -> (call -> machine -> machine * outcome) -> id0 option ->
+    cmd -> machine -> machine * outcome **)
+
+let step_cmd k p rec0 self c m =
+  match c with
+  | CNew (dst, cls0) -> cmd_new k p rec0 self dst cls0 m
+  | CClone (src, dst) -> cmd_clone rec0 self src dst m
+  | CDrop l -> cmd_drop rec0 self l m
+  | CMove (src, dst) -> cmd_move rec0 self src dst m
+  | CMarkAlive l -> cmd_mark_alive self l m
+  | CCollect -> cmd_collect rec0 self m
+  | CDowngrade (l, w) -> cmd_downgrade k self l w m
+  | CUpgrade (w, dst) -> cmd_upgrade k rec0 self w dst m
+  | CWNew w -> cmd_w_new k self w m
+  | CWClone (src, dst) -> cmd_w_clone k self src dst m
+  | CWDrop w -> cmd_w_drop k self w m
+  | CTryUnwrap (l, v) -> cmd_try_unwrap k self l v m
+  | CDropValue v -> cmd_drop_value rec0 self v m
+  | CFinAgain l -> cmd_fin_again k self l m
+  | CNewCyclic (dst, cls0, script, selfweak) ->
+    cmd_new_cyclic k p rec0 self dst cls0 script selfweak m
+  | CRegister (nd, script, c0) -> cmd_register k p rec0 self nd script c0 m
+  | CClean c0 -> cmd_clean k rec0 self c0 m
+  | CCDrop c0 -> cmd_c_drop k self c0 m
+  | CBag (l, k0) -> cmd_bag self l k0 m
+  | CUnbag k0 -> cmd_unbag rec0 self k0 m
+  | CBorrow nd -> cmd_borrow self nd m
+  | CUnborrow nd -> cmd_unborrow self nd m
+  | CCfgAuto b -> cmd_cfg_auto k self b m
+  | CCfgPercent (num, e) -> cmd_cfg_percent k self num e m
+  | CCfgBuffered b -> cmd_cfg_buffered k self b m
+  | CArm (k0, v) -> cmd_arm self k0 v m
+  | CPanic -> cmd_panic self m
+  | CObs l -> cmd_obs self l m
+  | CWObs w -> cmd_w_obs k self w m
+  | CSObs -> cmd_s_obs k self m
+
+(** val step :
+    conf -> prog -> (call -> machine -> machine * outcome) -> call -> machine
+    -> machine * outcome **)
+
+let step k p rec0 c m =
+  match c with
+  | KCmd (self, c0) -> step_cmd k p rec0 self c0 m
+  | KScript (self, cs) -> step_script rec0 self cs m
+  | KStore (r, v) -> step_store rec0 r v m
+  | KDropCc o -> step_drop_cc k p rec0 o m
+  | KDropValue o -> step_drop_value k p rec0 o m
+  | KDropFields (o, j) -> step_drop_fields rec0 o j m
+  | KDropMapSlots (o, j) -> step_drop_map_slots rec0 o j m
+  | KTrigger -> step_trigger k rec0 m
+  | KCollectCycles -> step_collect_cycles k rec0 m
+  | KCollect -> step_collect k rec0 m
+  | KCollectLoop k0 -> step_collect_loop rec0 k0 m
+  | KCollectOnce -> step_collect_once k p rec0 m
+  | KFinalizeList (l, rest, any, old_f) ->
+    step_finalize_list k p rec0 l rest any old_f m
+  | KDropList (l, rest, old_d) -> step_drop_list k rec0 l rest old_d m
+  | KUnbag k0 -> step_unbag rec0 k0 m
+  | KCleanRun (mo, aid, script) -> step_clean_run k p rec0 mo aid script m
+
+(** val run : conf -> prog -> nat -> call -> machine -> machine * outcome **)
+
+let rec run k p fuel c m =
+  match fuel with
+  | O -> (m, OFuel)
+  | S n0 -> step k p (run k p n0) c m
 
 (** val exec_top : conf -> prog -> nat -> cmd -> machine -> machine **)
 
